@@ -2345,11 +2345,18 @@ let step r w =
      | ASubscribe (p, port) ->
        let ser = ct.c_serial in
        let (o', w1) = alloc_obs w (THandler (n, port, ser)) in
-       let w2 =
-         set_ctl w1 c { c_sub = sub0; c_uns =
-           (app ct.c_uns ((ser, o') :: [])); c_serial = (S ser) }
-       in
-       (((SubscribePipe (p, o')) :: []), w2)
+       if alive
+       then let w2 =
+              set_ctl w1 c { c_sub = sub0; c_uns =
+                (app ct.c_uns ((ser, o') :: [])); c_serial = (S ser) }
+            in
+            (((SubscribePipe (p, o')) :: []), w2)
+       else let w2 =
+              set_ctl w1 c { c_sub = sub0; c_uns = ct.c_uns; c_serial = (S
+                ser) }
+            in
+            (((SubscribePipe (p, o')) :: []),
+            (set_obs w2 o' (set_slots (w2.obs o') false false false)))
      | ASubjNew k ->
        let (h, w1) = alloc_subj w k None in
        ([],
@@ -2431,2986 +2438,3172 @@ let step r w =
        then (((Deliver (o, (Nx x))) :: ((StartWith (o, rest, src)) :: [])), w)
        else ([], w))
   | SubscribePipe (p, o) ->
-    (match p with
-     | PCold s ->
-       let att = w.attempts s in
-       (((Src (s, att, o, (script_of w s att), O)) :: []),
-       (w_attempts (upd w.attempts s (S att)) w))
-     | PJust v -> (((Deliver (o, (Nx v))) :: ((Deliver (o, Co)) :: [])), w)
-     | PFromIter l -> (((FromIter (o, l)) :: []), w)
-     | PRange (a, n) -> (((Range (o, a, (Z.to_nat n))) :: []), w)
-     | PEmpty -> (((Deliver (o, Co)) :: []), w)
-     | PNever -> ([], w)
-     | PError e -> (((Deliver (o, (Er e))) :: []), w)
-     | PRepeat v -> (((Repeat (o, v)) :: []), w)
-     | PDefer q -> (((SubscribePipe (q, o)) :: []), w)
-     | PStart c ->
-       let k = w.counters c in
-       (((Deliver (o, (Nx (VInt (Z.of_nat k))))) :: ((Deliver (o,
-       Co)) :: [])), (w_counters (upd w.counters c (S k)) w))
-     | PFromResult r0 ->
-       (match r0 with
-        | Inl v -> (((Deliver (o, (Nx v))) :: ((Deliver (o, Co)) :: [])), w)
-        | Inr e -> (((Deliver (o, (Er e))) :: []), w))
-     | PHot h ->
-       let sj = w.subjs h in
-       (match sj.sj_kind with
-        | KSubject -> (((SubjJoin (h, o)) :: []), w)
-        | KBehavior ->
-          (match sj.sj_err with
-           | Some e ->
-             (((AcqL ((LHist h), MR)) :: ((Deliver (o, (Er e))) :: ((RelL
-               ((LHist h), MR)) :: []))), w)
-           | None ->
-             (match sj.sj_last with
-              | Some v ->
-                let (x, w1) = alloc_cell w in
-                let (o', w2) = alloc_obs w1 (TForward o) in
-                (((AcqL ((LHist h), MR)) :: ((Deliver (o, (Nx v))) :: ((RelL
-                ((LHist h), MR)) :: ((SetTdCell (o, x)) :: ((SubjJoin (h,
-                o')) :: ((MkSub (o', (DCell x))) :: [])))))), w2)
-              | None ->
-                (((AcqL ((LHist h), MR)) :: ((Deliver (o, Co)) :: ((RelL
-                  ((LHist h), MR)) :: []))), w)))
-        | KReplay ->
-          let (x, w1) = alloc_cell w in
-          let (o', w2) = alloc_obs w1 (TForward o) in
-          (((SetTdCell (o, x)) :: ((SubjJoin (h, o')) :: ((AcqL ((LHist h),
-          MR)) :: ((Replay (h, o)) :: ((RelL ((LHist h), MR)) :: ((MkSub (o',
-          (DCell x))) :: [])))))), w2)
-        | KAsync ->
-          (((SubscribePipe ((POp ((OTakeLast (S O)), (PInner h), [])),
-            o)) :: []), w))
-     | PInner h -> (((SubjJoin (h, o)) :: []), w)
-     | PConn k -> (((SubscribePipe ((PHot (w.conns k).k_subj), o)) :: []), w)
-     | POp (op, src, others) ->
-       (match op with
-        | OMap _ ->
-          let c = w.n_ctls in
-          let n = w.n_nodes in
-          let (ups, order) = plan op src others in
-          let w1 = w_n_ctls (S c) (w_n_nodes (S n) w) in
-          let w2 = set_obs w1 o (set_td (w1.obs o) (Some (TdFin c))) in
-          let (entries, w3) =
-            fold_left (fun acc pp ->
-              let (es, wa) = acc in
-              let ser = length es in
-              let (o', wb) = alloc_obs wa (THandler (n, (fst pp), ser)) in
-              ((app es ((ser, o') :: [])), wb)) ups ([], w2)
-          in
-          let w4 =
-            set_ctl w3 c { c_sub = o; c_uns = entries; c_serial =
-              (length entries) }
-          in
-          let st = init_state op others in
-          (match op with
-           | OWindow _ ->
-             let (h, wt) = alloc_subj w4 KSubject None in
-             let st1 = st_set_subj st h in
-             let w6 =
-               set_node wt n { n_op = op; n_src = src; n_others = others;
-                 n_st = st1; n_ctl = c }
-             in
-             ((app
-                (flat_map (fun i ->
-                  match nth_error ups i with
-                  | Some pp ->
-                    (match find_ser i entries with
-                     | Some o' -> (SubscribePipe ((snd pp), o')) :: []
-                     | None -> [])
-                  | None -> []) order)
-                (map (fun x -> Act (n, x)) (init_acts op src others))), w6)
-           | OTap t ->
-             let (ot, wt) = alloc_obs w4 (TTapLog t) in
-             let st1 = st_set_aux st ot in
-             let w6 =
-               set_node wt n { n_op = op; n_src = src; n_others = others;
-                 n_st = st1; n_ctl = c }
-             in
-             ((app
-                (flat_map (fun i ->
-                  match nth_error ups i with
-                  | Some pp ->
-                    (match find_ser i entries with
-                     | Some o' -> (SubscribePipe ((snd pp), o')) :: []
-                     | None -> [])
-                  | None -> []) order)
-                (map (fun x -> Act (n, x)) (init_acts op src others))), w6)
-           | _ ->
-             let w6 =
-               set_node w4 n { n_op = op; n_src = src; n_others = others;
-                 n_st = st; n_ctl = c }
-             in
-             ((app
-                (flat_map (fun i ->
-                  match nth_error ups i with
-                  | Some pp ->
-                    (match find_ser i entries with
-                     | Some o' -> (SubscribePipe ((snd pp), o')) :: []
-                     | None -> [])
-                  | None -> []) order)
-                (map (fun x -> Act (n, x)) (init_acts op src others))), w6))
-        | OFilter _ ->
-          let c = w.n_ctls in
-          let n = w.n_nodes in
-          let (ups, order) = plan op src others in
-          let w1 = w_n_ctls (S c) (w_n_nodes (S n) w) in
-          let w2 = set_obs w1 o (set_td (w1.obs o) (Some (TdFin c))) in
-          let (entries, w3) =
-            fold_left (fun acc pp ->
-              let (es, wa) = acc in
-              let ser = length es in
-              let (o', wb) = alloc_obs wa (THandler (n, (fst pp), ser)) in
-              ((app es ((ser, o') :: [])), wb)) ups ([], w2)
-          in
-          let w4 =
-            set_ctl w3 c { c_sub = o; c_uns = entries; c_serial =
-              (length entries) }
-          in
-          let st = init_state op others in
-          (match op with
-           | OWindow _ ->
-             let (h, wt) = alloc_subj w4 KSubject None in
-             let st1 = st_set_subj st h in
-             let w6 =
-               set_node wt n { n_op = op; n_src = src; n_others = others;
-                 n_st = st1; n_ctl = c }
-             in
-             ((app
-                (flat_map (fun i ->
-                  match nth_error ups i with
-                  | Some pp ->
-                    (match find_ser i entries with
-                     | Some o' -> (SubscribePipe ((snd pp), o')) :: []
-                     | None -> [])
-                  | None -> []) order)
-                (map (fun x -> Act (n, x)) (init_acts op src others))), w6)
-           | OTap t ->
-             let (ot, wt) = alloc_obs w4 (TTapLog t) in
-             let st1 = st_set_aux st ot in
-             let w6 =
-               set_node wt n { n_op = op; n_src = src; n_others = others;
-                 n_st = st1; n_ctl = c }
-             in
-             ((app
-                (flat_map (fun i ->
-                  match nth_error ups i with
-                  | Some pp ->
-                    (match find_ser i entries with
-                     | Some o' -> (SubscribePipe ((snd pp), o')) :: []
-                     | None -> [])
-                  | None -> []) order)
-                (map (fun x -> Act (n, x)) (init_acts op src others))), w6)
-           | _ ->
-             let w6 =
-               set_node w4 n { n_op = op; n_src = src; n_others = others;
-                 n_st = st; n_ctl = c }
-             in
-             ((app
-                (flat_map (fun i ->
-                  match nth_error ups i with
-                  | Some pp ->
-                    (match find_ser i entries with
-                     | Some o' -> (SubscribePipe ((snd pp), o')) :: []
-                     | None -> [])
-                  | None -> []) order)
-                (map (fun x -> Act (n, x)) (init_acts op src others))), w6))
-        | OTake _ ->
-          let c = w.n_ctls in
-          let n = w.n_nodes in
-          let (ups, order) = plan op src others in
-          let w1 = w_n_ctls (S c) (w_n_nodes (S n) w) in
-          let w2 = set_obs w1 o (set_td (w1.obs o) (Some (TdFin c))) in
-          let (entries, w3) =
-            fold_left (fun acc pp ->
-              let (es, wa) = acc in
-              let ser = length es in
-              let (o', wb) = alloc_obs wa (THandler (n, (fst pp), ser)) in
-              ((app es ((ser, o') :: [])), wb)) ups ([], w2)
-          in
-          let w4 =
-            set_ctl w3 c { c_sub = o; c_uns = entries; c_serial =
-              (length entries) }
-          in
-          let st = init_state op others in
-          (match op with
-           | OWindow _ ->
-             let (h, wt) = alloc_subj w4 KSubject None in
-             let st1 = st_set_subj st h in
-             let w6 =
-               set_node wt n { n_op = op; n_src = src; n_others = others;
-                 n_st = st1; n_ctl = c }
-             in
-             ((app
-                (flat_map (fun i ->
-                  match nth_error ups i with
-                  | Some pp ->
-                    (match find_ser i entries with
-                     | Some o' -> (SubscribePipe ((snd pp), o')) :: []
-                     | None -> [])
-                  | None -> []) order)
-                (map (fun x -> Act (n, x)) (init_acts op src others))), w6)
-           | OTap t ->
-             let (ot, wt) = alloc_obs w4 (TTapLog t) in
-             let st1 = st_set_aux st ot in
-             let w6 =
-               set_node wt n { n_op = op; n_src = src; n_others = others;
-                 n_st = st1; n_ctl = c }
-             in
-             ((app
-                (flat_map (fun i ->
-                  match nth_error ups i with
-                  | Some pp ->
-                    (match find_ser i entries with
-                     | Some o' -> (SubscribePipe ((snd pp), o')) :: []
-                     | None -> [])
-                  | None -> []) order)
-                (map (fun x -> Act (n, x)) (init_acts op src others))), w6)
-           | _ ->
-             let w6 =
-               set_node w4 n { n_op = op; n_src = src; n_others = others;
-                 n_st = st; n_ctl = c }
-             in
-             ((app
-                (flat_map (fun i ->
-                  match nth_error ups i with
-                  | Some pp ->
-                    (match find_ser i entries with
-                     | Some o' -> (SubscribePipe ((snd pp), o')) :: []
-                     | None -> [])
-                  | None -> []) order)
-                (map (fun x -> Act (n, x)) (init_acts op src others))), w6))
-        | OTakeWhile _ ->
-          let c = w.n_ctls in
-          let n = w.n_nodes in
-          let (ups, order) = plan op src others in
-          let w1 = w_n_ctls (S c) (w_n_nodes (S n) w) in
-          let w2 = set_obs w1 o (set_td (w1.obs o) (Some (TdFin c))) in
-          let (entries, w3) =
-            fold_left (fun acc pp ->
-              let (es, wa) = acc in
-              let ser = length es in
-              let (o', wb) = alloc_obs wa (THandler (n, (fst pp), ser)) in
-              ((app es ((ser, o') :: [])), wb)) ups ([], w2)
-          in
-          let w4 =
-            set_ctl w3 c { c_sub = o; c_uns = entries; c_serial =
-              (length entries) }
-          in
-          let st = init_state op others in
-          (match op with
-           | OWindow _ ->
-             let (h, wt) = alloc_subj w4 KSubject None in
-             let st1 = st_set_subj st h in
-             let w6 =
-               set_node wt n { n_op = op; n_src = src; n_others = others;
-                 n_st = st1; n_ctl = c }
-             in
-             ((app
-                (flat_map (fun i ->
-                  match nth_error ups i with
-                  | Some pp ->
-                    (match find_ser i entries with
-                     | Some o' -> (SubscribePipe ((snd pp), o')) :: []
-                     | None -> [])
-                  | None -> []) order)
-                (map (fun x -> Act (n, x)) (init_acts op src others))), w6)
-           | OTap t ->
-             let (ot, wt) = alloc_obs w4 (TTapLog t) in
-             let st1 = st_set_aux st ot in
-             let w6 =
-               set_node wt n { n_op = op; n_src = src; n_others = others;
-                 n_st = st1; n_ctl = c }
-             in
-             ((app
-                (flat_map (fun i ->
-                  match nth_error ups i with
-                  | Some pp ->
-                    (match find_ser i entries with
-                     | Some o' -> (SubscribePipe ((snd pp), o')) :: []
-                     | None -> [])
-                  | None -> []) order)
-                (map (fun x -> Act (n, x)) (init_acts op src others))), w6)
-           | _ ->
-             let w6 =
-               set_node w4 n { n_op = op; n_src = src; n_others = others;
-                 n_st = st; n_ctl = c }
-             in
-             ((app
-                (flat_map (fun i ->
-                  match nth_error ups i with
-                  | Some pp ->
-                    (match find_ser i entries with
-                     | Some o' -> (SubscribePipe ((snd pp), o')) :: []
-                     | None -> [])
-                  | None -> []) order)
-                (map (fun x -> Act (n, x)) (init_acts op src others))), w6))
-        | OTakeLast _ ->
-          let c = w.n_ctls in
-          let n = w.n_nodes in
-          let (ups, order) = plan op src others in
-          let w1 = w_n_ctls (S c) (w_n_nodes (S n) w) in
-          let w2 = set_obs w1 o (set_td (w1.obs o) (Some (TdFin c))) in
-          let (entries, w3) =
-            fold_left (fun acc pp ->
-              let (es, wa) = acc in
-              let ser = length es in
-              let (o', wb) = alloc_obs wa (THandler (n, (fst pp), ser)) in
-              ((app es ((ser, o') :: [])), wb)) ups ([], w2)
-          in
-          let w4 =
-            set_ctl w3 c { c_sub = o; c_uns = entries; c_serial =
-              (length entries) }
-          in
-          let st = init_state op others in
-          (match op with
-           | OWindow _ ->
-             let (h, wt) = alloc_subj w4 KSubject None in
-             let st1 = st_set_subj st h in
-             let w6 =
-               set_node wt n { n_op = op; n_src = src; n_others = others;
-                 n_st = st1; n_ctl = c }
-             in
-             ((app
-                (flat_map (fun i ->
-                  match nth_error ups i with
-                  | Some pp ->
-                    (match find_ser i entries with
-                     | Some o' -> (SubscribePipe ((snd pp), o')) :: []
-                     | None -> [])
-                  | None -> []) order)
-                (map (fun x -> Act (n, x)) (init_acts op src others))), w6)
-           | OTap t ->
-             let (ot, wt) = alloc_obs w4 (TTapLog t) in
-             let st1 = st_set_aux st ot in
-             let w6 =
-               set_node wt n { n_op = op; n_src = src; n_others = others;
-                 n_st = st1; n_ctl = c }
-             in
-             ((app
-                (flat_map (fun i ->
-                  match nth_error ups i with
-                  | Some pp ->
-                    (match find_ser i entries with
-                     | Some o' -> (SubscribePipe ((snd pp), o')) :: []
-                     | None -> [])
-                  | None -> []) order)
-                (map (fun x -> Act (n, x)) (init_acts op src others))), w6)
-           | _ ->
-             let w6 =
-               set_node w4 n { n_op = op; n_src = src; n_others = others;
-                 n_st = st; n_ctl = c }
-             in
-             ((app
-                (flat_map (fun i ->
-                  match nth_error ups i with
-                  | Some pp ->
-                    (match find_ser i entries with
-                     | Some o' -> (SubscribePipe ((snd pp), o')) :: []
-                     | None -> [])
-                  | None -> []) order)
-                (map (fun x -> Act (n, x)) (init_acts op src others))), w6))
-        | OSkip _ ->
-          let c = w.n_ctls in
-          let n = w.n_nodes in
-          let (ups, order) = plan op src others in
-          let w1 = w_n_ctls (S c) (w_n_nodes (S n) w) in
-          let w2 = set_obs w1 o (set_td (w1.obs o) (Some (TdFin c))) in
-          let (entries, w3) =
-            fold_left (fun acc pp ->
-              let (es, wa) = acc in
-              let ser = length es in
-              let (o', wb) = alloc_obs wa (THandler (n, (fst pp), ser)) in
-              ((app es ((ser, o') :: [])), wb)) ups ([], w2)
-          in
-          let w4 =
-            set_ctl w3 c { c_sub = o; c_uns = entries; c_serial =
-              (length entries) }
-          in
-          let st = init_state op others in
-          (match op with
-           | OWindow _ ->
-             let (h, wt) = alloc_subj w4 KSubject None in
-             let st1 = st_set_subj st h in
-             let w6 =
-               set_node wt n { n_op = op; n_src = src; n_others = others;
-                 n_st = st1; n_ctl = c }
-             in
-             ((app
-                (flat_map (fun i ->
-                  match nth_error ups i with
-                  | Some pp ->
-                    (match find_ser i entries with
-                     | Some o' -> (SubscribePipe ((snd pp), o')) :: []
-                     | None -> [])
-                  | None -> []) order)
-                (map (fun x -> Act (n, x)) (init_acts op src others))), w6)
-           | OTap t ->
-             let (ot, wt) = alloc_obs w4 (TTapLog t) in
-             let st1 = st_set_aux st ot in
-             let w6 =
-               set_node wt n { n_op = op; n_src = src; n_others = others;
-                 n_st = st1; n_ctl = c }
-             in
-             ((app
-                (flat_map (fun i ->
-                  match nth_error ups i with
-                  | Some pp ->
-                    (match find_ser i entries with
-                     | Some o' -> (SubscribePipe ((snd pp), o')) :: []
-                     | None -> [])
-                  | None -> []) order)
-                (map (fun x -> Act (n, x)) (init_acts op src others))), w6)
-           | _ ->
-             let w6 =
-               set_node w4 n { n_op = op; n_src = src; n_others = others;
-                 n_st = st; n_ctl = c }
-             in
-             ((app
-                (flat_map (fun i ->
-                  match nth_error ups i with
-                  | Some pp ->
-                    (match find_ser i entries with
-                     | Some o' -> (SubscribePipe ((snd pp), o')) :: []
-                     | None -> [])
-                  | None -> []) order)
-                (map (fun x -> Act (n, x)) (init_acts op src others))), w6))
-        | OSkipLast _ ->
-          let c = w.n_ctls in
-          let n = w.n_nodes in
-          let (ups, order) = plan op src others in
-          let w1 = w_n_ctls (S c) (w_n_nodes (S n) w) in
-          let w2 = set_obs w1 o (set_td (w1.obs o) (Some (TdFin c))) in
-          let (entries, w3) =
-            fold_left (fun acc pp ->
-              let (es, wa) = acc in
-              let ser = length es in
-              let (o', wb) = alloc_obs wa (THandler (n, (fst pp), ser)) in
-              ((app es ((ser, o') :: [])), wb)) ups ([], w2)
-          in
-          let w4 =
-            set_ctl w3 c { c_sub = o; c_uns = entries; c_serial =
-              (length entries) }
-          in
-          let st = init_state op others in
-          (match op with
-           | OWindow _ ->
-             let (h, wt) = alloc_subj w4 KSubject None in
-             let st1 = st_set_subj st h in
-             let w6 =
-               set_node wt n { n_op = op; n_src = src; n_others = others;
-                 n_st = st1; n_ctl = c }
-             in
-             ((app
-                (flat_map (fun i ->
-                  match nth_error ups i with
-                  | Some pp ->
-                    (match find_ser i entries with
-                     | Some o' -> (SubscribePipe ((snd pp), o')) :: []
-                     | None -> [])
-                  | None -> []) order)
-                (map (fun x -> Act (n, x)) (init_acts op src others))), w6)
-           | OTap t ->
-             let (ot, wt) = alloc_obs w4 (TTapLog t) in
-             let st1 = st_set_aux st ot in
-             let w6 =
-               set_node wt n { n_op = op; n_src = src; n_others = others;
-                 n_st = st1; n_ctl = c }
-             in
-             ((app
-                (flat_map (fun i ->
-                  match nth_error ups i with
-                  | Some pp ->
-                    (match find_ser i entries with
-                     | Some o' -> (SubscribePipe ((snd pp), o')) :: []
-                     | None -> [])
-                  | None -> []) order)
-                (map (fun x -> Act (n, x)) (init_acts op src others))), w6)
-           | _ ->
-             let w6 =
-               set_node w4 n { n_op = op; n_src = src; n_others = others;
-                 n_st = st; n_ctl = c }
-             in
-             ((app
-                (flat_map (fun i ->
-                  match nth_error ups i with
-                  | Some pp ->
-                    (match find_ser i entries with
-                     | Some o' -> (SubscribePipe ((snd pp), o')) :: []
-                     | None -> [])
-                  | None -> []) order)
-                (map (fun x -> Act (n, x)) (init_acts op src others))), w6))
-        | OSkipWhile _ ->
-          let c = w.n_ctls in
-          let n = w.n_nodes in
-          let (ups, order) = plan op src others in
-          let w1 = w_n_ctls (S c) (w_n_nodes (S n) w) in
-          let w2 = set_obs w1 o (set_td (w1.obs o) (Some (TdFin c))) in
-          let (entries, w3) =
-            fold_left (fun acc pp ->
-              let (es, wa) = acc in
-              let ser = length es in
-              let (o', wb) = alloc_obs wa (THandler (n, (fst pp), ser)) in
-              ((app es ((ser, o') :: [])), wb)) ups ([], w2)
-          in
-          let w4 =
-            set_ctl w3 c { c_sub = o; c_uns = entries; c_serial =
-              (length entries) }
-          in
-          let st = init_state op others in
-          (match op with
-           | OWindow _ ->
-             let (h, wt) = alloc_subj w4 KSubject None in
-             let st1 = st_set_subj st h in
-             let w6 =
-               set_node wt n { n_op = op; n_src = src; n_others = others;
-                 n_st = st1; n_ctl = c }
-             in
-             ((app
-                (flat_map (fun i ->
-                  match nth_error ups i with
-                  | Some pp ->
-                    (match find_ser i entries with
-                     | Some o' -> (SubscribePipe ((snd pp), o')) :: []
-                     | None -> [])
-                  | None -> []) order)
-                (map (fun x -> Act (n, x)) (init_acts op src others))), w6)
-           | OTap t ->
-             let (ot, wt) = alloc_obs w4 (TTapLog t) in
-             let st1 = st_set_aux st ot in
-             let w6 =
-               set_node wt n { n_op = op; n_src = src; n_others = others;
-                 n_st = st1; n_ctl = c }
-             in
-             ((app
-                (flat_map (fun i ->
-                  match nth_error ups i with
-                  | Some pp ->
-                    (match find_ser i entries with
-                     | Some o' -> (SubscribePipe ((snd pp), o')) :: []
-                     | None -> [])
-                  | None -> []) order)
-                (map (fun x -> Act (n, x)) (init_acts op src others))), w6)
-           | _ ->
-             let w6 =
-               set_node w4 n { n_op = op; n_src = src; n_others = others;
-                 n_st = st; n_ctl = c }
-             in
-             ((app
-                (flat_map (fun i ->
-                  match nth_error ups i with
-                  | Some pp ->
-                    (match find_ser i entries with
-                     | Some o' -> (SubscribePipe ((snd pp), o')) :: []
-                     | None -> [])
-                  | None -> []) order)
-                (map (fun x -> Act (n, x)) (init_acts op src others))), w6))
-        | OFirst ->
-          let c = w.n_ctls in
-          let n = w.n_nodes in
-          let (ups, order) = plan op src others in
-          let w1 = w_n_ctls (S c) (w_n_nodes (S n) w) in
-          let w2 = set_obs w1 o (set_td (w1.obs o) (Some (TdFin c))) in
-          let (entries, w3) =
-            fold_left (fun acc pp ->
-              let (es, wa) = acc in
-              let ser = length es in
-              let (o', wb) = alloc_obs wa (THandler (n, (fst pp), ser)) in
-              ((app es ((ser, o') :: [])), wb)) ups ([], w2)
-          in
-          let w4 =
-            set_ctl w3 c { c_sub = o; c_uns = entries; c_serial =
-              (length entries) }
-          in
-          let st = init_state op others in
-          (match op with
-           | OWindow _ ->
-             let (h, wt) = alloc_subj w4 KSubject None in
-             let st1 = st_set_subj st h in
-             let w6 =
-               set_node wt n { n_op = op; n_src = src; n_others = others;
-                 n_st = st1; n_ctl = c }
-             in
-             ((app
-                (flat_map (fun i ->
-                  match nth_error ups i with
-                  | Some pp ->
-                    (match find_ser i entries with
-                     | Some o' -> (SubscribePipe ((snd pp), o')) :: []
-                     | None -> [])
-                  | None -> []) order)
-                (map (fun x -> Act (n, x)) (init_acts op src others))), w6)
-           | OTap t ->
-             let (ot, wt) = alloc_obs w4 (TTapLog t) in
-             let st1 = st_set_aux st ot in
-             let w6 =
-               set_node wt n { n_op = op; n_src = src; n_others = others;
-                 n_st = st1; n_ctl = c }
-             in
-             ((app
-                (flat_map (fun i ->
-                  match nth_error ups i with
-                  | Some pp ->
-                    (match find_ser i entries with
-                     | Some o' -> (SubscribePipe ((snd pp), o')) :: []
-                     | None -> [])
-                  | None -> []) order)
-                (map (fun x -> Act (n, x)) (init_acts op src others))), w6)
-           | _ ->
-             let w6 =
-               set_node w4 n { n_op = op; n_src = src; n_others = others;
-                 n_st = st; n_ctl = c }
-             in
-             ((app
-                (flat_map (fun i ->
-                  match nth_error ups i with
-                  | Some pp ->
-                    (match find_ser i entries with
-                     | Some o' -> (SubscribePipe ((snd pp), o')) :: []
-                     | None -> [])
-                  | None -> []) order)
-                (map (fun x -> Act (n, x)) (init_acts op src others))), w6))
-        | OLast ->
-          let c = w.n_ctls in
-          let n = w.n_nodes in
-          let (ups, order) = plan op src others in
-          let w1 = w_n_ctls (S c) (w_n_nodes (S n) w) in
-          let w2 = set_obs w1 o (set_td (w1.obs o) (Some (TdFin c))) in
-          let (entries, w3) =
-            fold_left (fun acc pp ->
-              let (es, wa) = acc in
-              let ser = length es in
-              let (o', wb) = alloc_obs wa (THandler (n, (fst pp), ser)) in
-              ((app es ((ser, o') :: [])), wb)) ups ([], w2)
-          in
-          let w4 =
-            set_ctl w3 c { c_sub = o; c_uns = entries; c_serial =
-              (length entries) }
-          in
-          let st = init_state op others in
-          (match op with
-           | OWindow _ ->
-             let (h, wt) = alloc_subj w4 KSubject None in
-             let st1 = st_set_subj st h in
-             let w6 =
-               set_node wt n { n_op = op; n_src = src; n_others = others;
-                 n_st = st1; n_ctl = c }
-             in
-             ((app
-                (flat_map (fun i ->
-                  match nth_error ups i with
-                  | Some pp ->
-                    (match find_ser i entries with
-                     | Some o' -> (SubscribePipe ((snd pp), o')) :: []
-                     | None -> [])
-                  | None -> []) order)
-                (map (fun x -> Act (n, x)) (init_acts op src others))), w6)
-           | OTap t ->
-             let (ot, wt) = alloc_obs w4 (TTapLog t) in
-             let st1 = st_set_aux st ot in
-             let w6 =
-               set_node wt n { n_op = op; n_src = src; n_others = others;
-                 n_st = st1; n_ctl = c }
-             in
-             ((app
-                (flat_map (fun i ->
-                  match nth_error ups i with
-                  | Some pp ->
-                    (match find_ser i entries with
-                     | Some o' -> (SubscribePipe ((snd pp), o')) :: []
-                     | None -> [])
-                  | None -> []) order)
-                (map (fun x -> Act (n, x)) (init_acts op src others))), w6)
-           | _ ->
-             let w6 =
-               set_node w4 n { n_op = op; n_src = src; n_others = others;
-                 n_st = st; n_ctl = c }
-             in
-             ((app
-                (flat_map (fun i ->
-                  match nth_error ups i with
-                  | Some pp ->
-                    (match find_ser i entries with
-                     | Some o' -> (SubscribePipe ((snd pp), o')) :: []
-                     | None -> [])
-                  | None -> []) order)
-                (map (fun x -> Act (n, x)) (init_acts op src others))), w6))
-        | OElementAt _ ->
-          let c = w.n_ctls in
-          let n = w.n_nodes in
-          let (ups, order) = plan op src others in
-          let w1 = w_n_ctls (S c) (w_n_nodes (S n) w) in
-          let w2 = set_obs w1 o (set_td (w1.obs o) (Some (TdFin c))) in
-          let (entries, w3) =
-            fold_left (fun acc pp ->
-              let (es, wa) = acc in
-              let ser = length es in
-              let (o', wb) = alloc_obs wa (THandler (n, (fst pp), ser)) in
-              ((app es ((ser, o') :: [])), wb)) ups ([], w2)
-          in
-          let w4 =
-            set_ctl w3 c { c_sub = o; c_uns = entries; c_serial =
-              (length entries) }
-          in
-          let st = init_state op others in
-          (match op with
-           | OWindow _ ->
-             let (h, wt) = alloc_subj w4 KSubject None in
-             let st1 = st_set_subj st h in
-             let w6 =
-               set_node wt n { n_op = op; n_src = src; n_others = others;
-                 n_st = st1; n_ctl = c }
-             in
-             ((app
-                (flat_map (fun i ->
-                  match nth_error ups i with
-                  | Some pp ->
-                    (match find_ser i entries with
-                     | Some o' -> (SubscribePipe ((snd pp), o')) :: []
-                     | None -> [])
-                  | None -> []) order)
-                (map (fun x -> Act (n, x)) (init_acts op src others))), w6)
-           | OTap t ->
-             let (ot, wt) = alloc_obs w4 (TTapLog t) in
-             let st1 = st_set_aux st ot in
-             let w6 =
-               set_node wt n { n_op = op; n_src = src; n_others = others;
-                 n_st = st1; n_ctl = c }
-             in
-             ((app
-                (flat_map (fun i ->
-                  match nth_error ups i with
-                  | Some pp ->
-                    (match find_ser i entries with
-                     | Some o' -> (SubscribePipe ((snd pp), o')) :: []
-                     | None -> [])
-                  | None -> []) order)
-                (map (fun x -> Act (n, x)) (init_acts op src others))), w6)
-           | _ ->
-             let w6 =
-               set_node w4 n { n_op = op; n_src = src; n_others = others;
-                 n_st = st; n_ctl = c }
-             in
-             ((app
-                (flat_map (fun i ->
-                  match nth_error ups i with
-                  | Some pp ->
-                    (match find_ser i entries with
-                     | Some o' -> (SubscribePipe ((snd pp), o')) :: []
-                     | None -> [])
-                  | None -> []) order)
-                (map (fun x -> Act (n, x)) (init_acts op src others))), w6))
-        | ODistinct ->
-          let c = w.n_ctls in
-          let n = w.n_nodes in
-          let (ups, order) = plan op src others in
-          let w1 = w_n_ctls (S c) (w_n_nodes (S n) w) in
-          let w2 = set_obs w1 o (set_td (w1.obs o) (Some (TdFin c))) in
-          let (entries, w3) =
-            fold_left (fun acc pp ->
-              let (es, wa) = acc in
-              let ser = length es in
-              let (o', wb) = alloc_obs wa (THandler (n, (fst pp), ser)) in
-              ((app es ((ser, o') :: [])), wb)) ups ([], w2)
-          in
-          let w4 =
-            set_ctl w3 c { c_sub = o; c_uns = entries; c_serial =
-              (length entries) }
-          in
-          let st = init_state op others in
-          (match op with
-           | OWindow _ ->
-             let (h, wt) = alloc_subj w4 KSubject None in
-             let st1 = st_set_subj st h in
-             let w6 =
-               set_node wt n { n_op = op; n_src = src; n_others = others;
-                 n_st = st1; n_ctl = c }
-             in
-             ((app
-                (flat_map (fun i ->
-                  match nth_error ups i with
-                  | Some pp ->
-                    (match find_ser i entries with
-                     | Some o' -> (SubscribePipe ((snd pp), o')) :: []
-                     | None -> [])
-                  | None -> []) order)
-                (map (fun x -> Act (n, x)) (init_acts op src others))), w6)
-           | OTap t ->
-             let (ot, wt) = alloc_obs w4 (TTapLog t) in
-             let st1 = st_set_aux st ot in
-             let w6 =
-               set_node wt n { n_op = op; n_src = src; n_others = others;
-                 n_st = st1; n_ctl = c }
-             in
-             ((app
-                (flat_map (fun i ->
-                  match nth_error ups i with
-                  | Some pp ->
-                    (match find_ser i entries with
-                     | Some o' -> (SubscribePipe ((snd pp), o')) :: []
-                     | None -> [])
-                  | None -> []) order)
-                (map (fun x -> Act (n, x)) (init_acts op src others))), w6)
-           | _ ->
-             let w6 =
-               set_node w4 n { n_op = op; n_src = src; n_others = others;
-                 n_st = st; n_ctl = c }
-             in
-             ((app
-                (flat_map (fun i ->
-                  match nth_error ups i with
-                  | Some pp ->
-                    (match find_ser i entries with
-                     | Some o' -> (SubscribePipe ((snd pp), o')) :: []
-                     | None -> [])
-                  | None -> []) order)
-                (map (fun x -> Act (n, x)) (init_acts op src others))), w6))
-        | OScan _ ->
-          let c = w.n_ctls in
-          let n = w.n_nodes in
-          let (ups, order) = plan op src others in
-          let w1 = w_n_ctls (S c) (w_n_nodes (S n) w) in
-          let w2 = set_obs w1 o (set_td (w1.obs o) (Some (TdFin c))) in
-          let (entries, w3) =
-            fold_left (fun acc pp ->
-              let (es, wa) = acc in
-              let ser = length es in
-              let (o', wb) = alloc_obs wa (THandler (n, (fst pp), ser)) in
-              ((app es ((ser, o') :: [])), wb)) ups ([], w2)
-          in
-          let w4 =
-            set_ctl w3 c { c_sub = o; c_uns = entries; c_serial =
-              (length entries) }
-          in
-          let st = init_state op others in
-          (match op with
-           | OWindow _ ->
-             let (h, wt) = alloc_subj w4 KSubject None in
-             let st1 = st_set_subj st h in
-             let w6 =
-               set_node wt n { n_op = op; n_src = src; n_others = others;
-                 n_st = st1; n_ctl = c }
-             in
-             ((app
-                (flat_map (fun i ->
-                  match nth_error ups i with
-                  | Some pp ->
-                    (match find_ser i entries with
-                     | Some o' -> (SubscribePipe ((snd pp), o')) :: []
-                     | None -> [])
-                  | None -> []) order)
-                (map (fun x -> Act (n, x)) (init_acts op src others))), w6)
-           | OTap t ->
-             let (ot, wt) = alloc_obs w4 (TTapLog t) in
-             let st1 = st_set_aux st ot in
-             let w6 =
-               set_node wt n { n_op = op; n_src = src; n_others = others;
-                 n_st = st1; n_ctl = c }
-             in
-             ((app
-                (flat_map (fun i ->
-                  match nth_error ups i with
-                  | Some pp ->
-                    (match find_ser i entries with
-                     | Some o' -> (SubscribePipe ((snd pp), o')) :: []
-                     | None -> [])
-                  | None -> []) order)
-                (map (fun x -> Act (n, x)) (init_acts op src others))), w6)
-           | _ ->
-             let w6 =
-               set_node w4 n { n_op = op; n_src = src; n_others = others;
-                 n_st = st; n_ctl = c }
-             in
-             ((app
-                (flat_map (fun i ->
-                  match nth_error ups i with
-                  | Some pp ->
-                    (match find_ser i entries with
-                     | Some o' -> (SubscribePipe ((snd pp), o')) :: []
-                     | None -> [])
-                  | None -> []) order)
-                (map (fun x -> Act (n, x)) (init_acts op src others))), w6))
-        | OReduce _ ->
-          let c = w.n_ctls in
-          let n = w.n_nodes in
-          let (ups, order) = plan op src others in
-          let w1 = w_n_ctls (S c) (w_n_nodes (S n) w) in
-          let w2 = set_obs w1 o (set_td (w1.obs o) (Some (TdFin c))) in
-          let (entries, w3) =
-            fold_left (fun acc pp ->
-              let (es, wa) = acc in
-              let ser = length es in
-              let (o', wb) = alloc_obs wa (THandler (n, (fst pp), ser)) in
-              ((app es ((ser, o') :: [])), wb)) ups ([], w2)
-          in
-          let w4 =
-            set_ctl w3 c { c_sub = o; c_uns = entries; c_serial =
-              (length entries) }
-          in
-          let st = init_state op others in
-          (match op with
-           | OWindow _ ->
-             let (h, wt) = alloc_subj w4 KSubject None in
-             let st1 = st_set_subj st h in
-             let w6 =
-               set_node wt n { n_op = op; n_src = src; n_others = others;
-                 n_st = st1; n_ctl = c }
-             in
-             ((app
-                (flat_map (fun i ->
-                  match nth_error ups i with
-                  | Some pp ->
-                    (match find_ser i entries with
-                     | Some o' -> (SubscribePipe ((snd pp), o')) :: []
-                     | None -> [])
-                  | None -> []) order)
-                (map (fun x -> Act (n, x)) (init_acts op src others))), w6)
-           | OTap t ->
-             let (ot, wt) = alloc_obs w4 (TTapLog t) in
-             let st1 = st_set_aux st ot in
-             let w6 =
-               set_node wt n { n_op = op; n_src = src; n_others = others;
-                 n_st = st1; n_ctl = c }
-             in
-             ((app
-                (flat_map (fun i ->
-                  match nth_error ups i with
-                  | Some pp ->
-                    (match find_ser i entries with
-                     | Some o' -> (SubscribePipe ((snd pp), o')) :: []
-                     | None -> [])
-                  | None -> []) order)
-                (map (fun x -> Act (n, x)) (init_acts op src others))), w6)
-           | _ ->
-             let w6 =
-               set_node w4 n { n_op = op; n_src = src; n_others = others;
-                 n_st = st; n_ctl = c }
-             in
-             ((app
-                (flat_map (fun i ->
-                  match nth_error ups i with
-                  | Some pp ->
-                    (match find_ser i entries with
-                     | Some o' -> (SubscribePipe ((snd pp), o')) :: []
-                     | None -> [])
-                  | None -> []) order)
-                (map (fun x -> Act (n, x)) (init_acts op src others))), w6))
-        | OCount ->
-          let c = w.n_ctls in
-          let n = w.n_nodes in
-          let (ups, order) = plan op src others in
-          let w1 = w_n_ctls (S c) (w_n_nodes (S n) w) in
-          let w2 = set_obs w1 o (set_td (w1.obs o) (Some (TdFin c))) in
-          let (entries, w3) =
-            fold_left (fun acc pp ->
-              let (es, wa) = acc in
-              let ser = length es in
-              let (o', wb) = alloc_obs wa (THandler (n, (fst pp), ser)) in
-              ((app es ((ser, o') :: [])), wb)) ups ([], w2)
-          in
-          let w4 =
-            set_ctl w3 c { c_sub = o; c_uns = entries; c_serial =
-              (length entries) }
-          in
-          let st = init_state op others in
-          (match op with
-           | OWindow _ ->
-             let (h, wt) = alloc_subj w4 KSubject None in
-             let st1 = st_set_subj st h in
-             let w6 =
-               set_node wt n { n_op = op; n_src = src; n_others = others;
-                 n_st = st1; n_ctl = c }
-             in
-             ((app
-                (flat_map (fun i ->
-                  match nth_error ups i with
-                  | Some pp ->
-                    (match find_ser i entries with
-                     | Some o' -> (SubscribePipe ((snd pp), o')) :: []
-                     | None -> [])
-                  | None -> []) order)
-                (map (fun x -> Act (n, x)) (init_acts op src others))), w6)
-           | OTap t ->
-             let (ot, wt) = alloc_obs w4 (TTapLog t) in
-             let st1 = st_set_aux st ot in
-             let w6 =
-               set_node wt n { n_op = op; n_src = src; n_others = others;
-                 n_st = st1; n_ctl = c }
-             in
-             ((app
-                (flat_map (fun i ->
-                  match nth_error ups i with
-                  | Some pp ->
-                    (match find_ser i entries with
-                     | Some o' -> (SubscribePipe ((snd pp), o')) :: []
-                     | None -> [])
-                  | None -> []) order)
-                (map (fun x -> Act (n, x)) (init_acts op src others))), w6)
-           | _ ->
-             let w6 =
-               set_node w4 n { n_op = op; n_src = src; n_others = others;
-                 n_st = st; n_ctl = c }
-             in
-             ((app
-                (flat_map (fun i ->
-                  match nth_error ups i with
-                  | Some pp ->
-                    (match find_ser i entries with
-                     | Some o' -> (SubscribePipe ((snd pp), o')) :: []
-                     | None -> [])
-                  | None -> []) order)
-                (map (fun x -> Act (n, x)) (init_acts op src others))), w6))
-        | OSum ->
-          let c = w.n_ctls in
-          let n = w.n_nodes in
-          let (ups, order) = plan op src others in
-          let w1 = w_n_ctls (S c) (w_n_nodes (S n) w) in
-          let w2 = set_obs w1 o (set_td (w1.obs o) (Some (TdFin c))) in
-          let (entries, w3) =
-            fold_left (fun acc pp ->
-              let (es, wa) = acc in
-              let ser = length es in
-              let (o', wb) = alloc_obs wa (THandler (n, (fst pp), ser)) in
-              ((app es ((ser, o') :: [])), wb)) ups ([], w2)
-          in
-          let w4 =
-            set_ctl w3 c { c_sub = o; c_uns = entries; c_serial =
-              (length entries) }
-          in
-          let st = init_state op others in
-          (match op with
-           | OWindow _ ->
-             let (h, wt) = alloc_subj w4 KSubject None in
-             let st1 = st_set_subj st h in
-             let w6 =
-               set_node wt n { n_op = op; n_src = src; n_others = others;
-                 n_st = st1; n_ctl = c }
-             in
-             ((app
-                (flat_map (fun i ->
-                  match nth_error ups i with
-                  | Some pp ->
-                    (match find_ser i entries with
-                     | Some o' -> (SubscribePipe ((snd pp), o')) :: []
-                     | None -> [])
-                  | None -> []) order)
-                (map (fun x -> Act (n, x)) (init_acts op src others))), w6)
-           | OTap t ->
-             let (ot, wt) = alloc_obs w4 (TTapLog t) in
-             let st1 = st_set_aux st ot in
-             let w6 =
-               set_node wt n { n_op = op; n_src = src; n_others = others;
-                 n_st = st1; n_ctl = c }
-             in
-             ((app
-                (flat_map (fun i ->
-                  match nth_error ups i with
-                  | Some pp ->
-                    (match find_ser i entries with
-                     | Some o' -> (SubscribePipe ((snd pp), o')) :: []
-                     | None -> [])
-                  | None -> []) order)
-                (map (fun x -> Act (n, x)) (init_acts op src others))), w6)
-           | _ ->
-             let w6 =
-               set_node w4 n { n_op = op; n_src = src; n_others = others;
-                 n_st = st; n_ctl = c }
-             in
-             ((app
-                (flat_map (fun i ->
-                  match nth_error ups i with
-                  | Some pp ->
-                    (match find_ser i entries with
-                     | Some o' -> (SubscribePipe ((snd pp), o')) :: []
-                     | None -> [])
-                  | None -> []) order)
-                (map (fun x -> Act (n, x)) (init_acts op src others))), w6))
-        | OSumAndCount ->
-          let c = w.n_ctls in
-          let n = w.n_nodes in
-          let (ups, order) = plan op src others in
-          let w1 = w_n_ctls (S c) (w_n_nodes (S n) w) in
-          let w2 = set_obs w1 o (set_td (w1.obs o) (Some (TdFin c))) in
-          let (entries, w3) =
-            fold_left (fun acc pp ->
-              let (es, wa) = acc in
-              let ser = length es in
-              let (o', wb) = alloc_obs wa (THandler (n, (fst pp), ser)) in
-              ((app es ((ser, o') :: [])), wb)) ups ([], w2)
-          in
-          let w4 =
-            set_ctl w3 c { c_sub = o; c_uns = entries; c_serial =
-              (length entries) }
-          in
-          let st = init_state op others in
-          (match op with
-           | OWindow _ ->
-             let (h, wt) = alloc_subj w4 KSubject None in
-             let st1 = st_set_subj st h in
-             let w6 =
-               set_node wt n { n_op = op; n_src = src; n_others = others;
-                 n_st = st1; n_ctl = c }
-             in
-             ((app
-                (flat_map (fun i ->
-                  match nth_error ups i with
-                  | Some pp ->
-                    (match find_ser i entries with
-                     | Some o' -> (SubscribePipe ((snd pp), o')) :: []
-                     | None -> [])
-                  | None -> []) order)
-                (map (fun x -> Act (n, x)) (init_acts op src others))), w6)
-           | OTap t ->
-             let (ot, wt) = alloc_obs w4 (TTapLog t) in
-             let st1 = st_set_aux st ot in
-             let w6 =
-               set_node wt n { n_op = op; n_src = src; n_others = others;
-                 n_st = st1; n_ctl = c }
-             in
-             ((app
-                (flat_map (fun i ->
-                  match nth_error ups i with
-                  | Some pp ->
-                    (match find_ser i entries with
-                     | Some o' -> (SubscribePipe ((snd pp), o')) :: []
-                     | None -> [])
-                  | None -> []) order)
-                (map (fun x -> Act (n, x)) (init_acts op src others))), w6)
-           | _ ->
-             let w6 =
-               set_node w4 n { n_op = op; n_src = src; n_others = others;
-                 n_st = st; n_ctl = c }
-             in
-             ((app
-                (flat_map (fun i ->
-                  match nth_error ups i with
-                  | Some pp ->
-                    (match find_ser i entries with
-                     | Some o' -> (SubscribePipe ((snd pp), o')) :: []
-                     | None -> [])
-                  | None -> []) order)
-                (map (fun x -> Act (n, x)) (init_acts op src others))), w6))
-        | OMin ->
-          let c = w.n_ctls in
-          let n = w.n_nodes in
-          let (ups, order) = plan op src others in
-          let w1 = w_n_ctls (S c) (w_n_nodes (S n) w) in
-          let w2 = set_obs w1 o (set_td (w1.obs o) (Some (TdFin c))) in
-          let (entries, w3) =
-            fold_left (fun acc pp ->
-              let (es, wa) = acc in
-              let ser = length es in
-              let (o', wb) = alloc_obs wa (THandler (n, (fst pp), ser)) in
-              ((app es ((ser, o') :: [])), wb)) ups ([], w2)
-          in
-          let w4 =
-            set_ctl w3 c { c_sub = o; c_uns = entries; c_serial =
-              (length entries) }
-          in
-          let st = init_state op others in
-          (match op with
-           | OWindow _ ->
-             let (h, wt) = alloc_subj w4 KSubject None in
-             let st1 = st_set_subj st h in
-             let w6 =
-               set_node wt n { n_op = op; n_src = src; n_others = others;
-                 n_st = st1; n_ctl = c }
-             in
-             ((app
-                (flat_map (fun i ->
-                  match nth_error ups i with
-                  | Some pp ->
-                    (match find_ser i entries with
-                     | Some o' -> (SubscribePipe ((snd pp), o')) :: []
-                     | None -> [])
-                  | None -> []) order)
-                (map (fun x -> Act (n, x)) (init_acts op src others))), w6)
-           | OTap t ->
-             let (ot, wt) = alloc_obs w4 (TTapLog t) in
-             let st1 = st_set_aux st ot in
-             let w6 =
-               set_node wt n { n_op = op; n_src = src; n_others = others;
-                 n_st = st1; n_ctl = c }
-             in
-             ((app
-                (flat_map (fun i ->
-                  match nth_error ups i with
-                  | Some pp ->
-                    (match find_ser i entries with
-                     | Some o' -> (SubscribePipe ((snd pp), o')) :: []
-                     | None -> [])
-                  | None -> []) order)
-                (map (fun x -> Act (n, x)) (init_acts op src others))), w6)
-           | _ ->
-             let w6 =
-               set_node w4 n { n_op = op; n_src = src; n_others = others;
-                 n_st = st; n_ctl = c }
-             in
-             ((app
-                (flat_map (fun i ->
-                  match nth_error ups i with
-                  | Some pp ->
-                    (match find_ser i entries with
-                     | Some o' -> (SubscribePipe ((snd pp), o')) :: []
-                     | None -> [])
-                  | None -> []) order)
-                (map (fun x -> Act (n, x)) (init_acts op src others))), w6))
-        | OMax ->
-          let c = w.n_ctls in
-          let n = w.n_nodes in
-          let (ups, order) = plan op src others in
-          let w1 = w_n_ctls (S c) (w_n_nodes (S n) w) in
-          let w2 = set_obs w1 o (set_td (w1.obs o) (Some (TdFin c))) in
-          let (entries, w3) =
-            fold_left (fun acc pp ->
-              let (es, wa) = acc in
-              let ser = length es in
-              let (o', wb) = alloc_obs wa (THandler (n, (fst pp), ser)) in
-              ((app es ((ser, o') :: [])), wb)) ups ([], w2)
-          in
-          let w4 =
-            set_ctl w3 c { c_sub = o; c_uns = entries; c_serial =
-              (length entries) }
-          in
-          let st = init_state op others in
-          (match op with
-           | OWindow _ ->
-             let (h, wt) = alloc_subj w4 KSubject None in
-             let st1 = st_set_subj st h in
-             let w6 =
-               set_node wt n { n_op = op; n_src = src; n_others = others;
-                 n_st = st1; n_ctl = c }
-             in
-             ((app
-                (flat_map (fun i ->
-                  match nth_error ups i with
-                  | Some pp ->
-                    (match find_ser i entries with
-                     | Some o' -> (SubscribePipe ((snd pp), o')) :: []
-                     | None -> [])
-                  | None -> []) order)
-                (map (fun x -> Act (n, x)) (init_acts op src others))), w6)
-           | OTap t ->
-             let (ot, wt) = alloc_obs w4 (TTapLog t) in
-             let st1 = st_set_aux st ot in
-             let w6 =
-               set_node wt n { n_op = op; n_src = src; n_others = others;
-                 n_st = st1; n_ctl = c }
-             in
-             ((app
-                (flat_map (fun i ->
-                  match nth_error ups i with
-                  | Some pp ->
-                    (match find_ser i entries with
-                     | Some o' -> (SubscribePipe ((snd pp), o')) :: []
-                     | None -> [])
-                  | None -> []) order)
-                (map (fun x -> Act (n, x)) (init_acts op src others))), w6)
-           | _ ->
-             let w6 =
-               set_node w4 n { n_op = op; n_src = src; n_others = others;
-                 n_st = st; n_ctl = c }
-             in
-             ((app
-                (flat_map (fun i ->
-                  match nth_error ups i with
-                  | Some pp ->
-                    (match find_ser i entries with
-                     | Some o' -> (SubscribePipe ((snd pp), o')) :: []
-                     | None -> [])
-                  | None -> []) order)
-                (map (fun x -> Act (n, x)) (init_acts op src others))), w6))
-        | OAll _ ->
-          let c = w.n_ctls in
-          let n = w.n_nodes in
-          let (ups, order) = plan op src others in
-          let w1 = w_n_ctls (S c) (w_n_nodes (S n) w) in
-          let w2 = set_obs w1 o (set_td (w1.obs o) (Some (TdFin c))) in
-          let (entries, w3) =
-            fold_left (fun acc pp ->
-              let (es, wa) = acc in
-              let ser = length es in
-              let (o', wb) = alloc_obs wa (THandler (n, (fst pp), ser)) in
-              ((app es ((ser, o') :: [])), wb)) ups ([], w2)
-          in
-          let w4 =
-            set_ctl w3 c { c_sub = o; c_uns = entries; c_serial =
-              (length entries) }
-          in
-          let st = init_state op others in
-          (match op with
-           | OWindow _ ->
-             let (h, wt) = alloc_subj w4 KSubject None in
-             let st1 = st_set_subj st h in
-             let w6 =
-               set_node wt n { n_op = op; n_src = src; n_others = others;
-                 n_st = st1; n_ctl = c }
-             in
-             ((app
-                (flat_map (fun i ->
-                  match nth_error ups i with
-                  | Some pp ->
-                    (match find_ser i entries with
-                     | Some o' -> (SubscribePipe ((snd pp), o')) :: []
-                     | None -> [])
-                  | None -> []) order)
-                (map (fun x -> Act (n, x)) (init_acts op src others))), w6)
-           | OTap t ->
-             let (ot, wt) = alloc_obs w4 (TTapLog t) in
-             let st1 = st_set_aux st ot in
-             let w6 =
-               set_node wt n { n_op = op; n_src = src; n_others = others;
-                 n_st = st1; n_ctl = c }
-             in
-             ((app
-                (flat_map (fun i ->
-                  match nth_error ups i with
-                  | Some pp ->
-                    (match find_ser i entries with
-                     | Some o' -> (SubscribePipe ((snd pp), o')) :: []
-                     | None -> [])
-                  | None -> []) order)
-                (map (fun x -> Act (n, x)) (init_acts op src others))), w6)
-           | _ ->
-             let w6 =
-               set_node w4 n { n_op = op; n_src = src; n_others = others;
-                 n_st = st; n_ctl = c }
-             in
-             ((app
-                (flat_map (fun i ->
-                  match nth_error ups i with
-                  | Some pp ->
-                    (match find_ser i entries with
-                     | Some o' -> (SubscribePipe ((snd pp), o')) :: []
-                     | None -> [])
-                  | None -> []) order)
-                (map (fun x -> Act (n, x)) (init_acts op src others))), w6))
-        | OContains _ ->
-          let c = w.n_ctls in
-          let n = w.n_nodes in
-          let (ups, order) = plan op src others in
-          let w1 = w_n_ctls (S c) (w_n_nodes (S n) w) in
-          let w2 = set_obs w1 o (set_td (w1.obs o) (Some (TdFin c))) in
-          let (entries, w3) =
-            fold_left (fun acc pp ->
-              let (es, wa) = acc in
-              let ser = length es in
-              let (o', wb) = alloc_obs wa (THandler (n, (fst pp), ser)) in
-              ((app es ((ser, o') :: [])), wb)) ups ([], w2)
-          in
-          let w4 =
-            set_ctl w3 c { c_sub = o; c_uns = entries; c_serial =
-              (length entries) }
-          in
-          let st = init_state op others in
-          (match op with
-           | OWindow _ ->
-             let (h, wt) = alloc_subj w4 KSubject None in
-             let st1 = st_set_subj st h in
-             let w6 =
-               set_node wt n { n_op = op; n_src = src; n_others = others;
-                 n_st = st1; n_ctl = c }
-             in
-             ((app
-                (flat_map (fun i ->
-                  match nth_error ups i with
-                  | Some pp ->
-                    (match find_ser i entries with
-                     | Some o' -> (SubscribePipe ((snd pp), o')) :: []
-                     | None -> [])
-                  | None -> []) order)
-                (map (fun x -> Act (n, x)) (init_acts op src others))), w6)
-           | OTap t ->
-             let (ot, wt) = alloc_obs w4 (TTapLog t) in
-             let st1 = st_set_aux st ot in
-             let w6 =
-               set_node wt n { n_op = op; n_src = src; n_others = others;
-                 n_st = st1; n_ctl = c }
-             in
-             ((app
-                (flat_map (fun i ->
-                  match nth_error ups i with
-                  | Some pp ->
-                    (match find_ser i entries with
-                     | Some o' -> (SubscribePipe ((snd pp), o')) :: []
-                     | None -> [])
-                  | None -> []) order)
-                (map (fun x -> Act (n, x)) (init_acts op src others))), w6)
-           | _ ->
-             let w6 =
-               set_node w4 n { n_op = op; n_src = src; n_others = others;
-                 n_st = st; n_ctl = c }
-             in
-             ((app
-                (flat_map (fun i ->
-                  match nth_error ups i with
-                  | Some pp ->
-                    (match find_ser i entries with
-                     | Some o' -> (SubscribePipe ((snd pp), o')) :: []
-                     | None -> [])
-                  | None -> []) order)
-                (map (fun x -> Act (n, x)) (init_acts op src others))), w6))
-        | ODefaultIfEmpty _ ->
-          let c = w.n_ctls in
-          let n = w.n_nodes in
-          let (ups, order) = plan op src others in
-          let w1 = w_n_ctls (S c) (w_n_nodes (S n) w) in
-          let w2 = set_obs w1 o (set_td (w1.obs o) (Some (TdFin c))) in
-          let (entries, w3) =
-            fold_left (fun acc pp ->
-              let (es, wa) = acc in
-              let ser = length es in
-              let (o', wb) = alloc_obs wa (THandler (n, (fst pp), ser)) in
-              ((app es ((ser, o') :: [])), wb)) ups ([], w2)
-          in
-          let w4 =
-            set_ctl w3 c { c_sub = o; c_uns = entries; c_serial =
-              (length entries) }
-          in
-          let st = init_state op others in
-          (match op with
-           | OWindow _ ->
-             let (h, wt) = alloc_subj w4 KSubject None in
-             let st1 = st_set_subj st h in
-             let w6 =
-               set_node wt n { n_op = op; n_src = src; n_others = others;
-                 n_st = st1; n_ctl = c }
-             in
-             ((app
-                (flat_map (fun i ->
-                  match nth_error ups i with
-                  | Some pp ->
-                    (match find_ser i entries with
-                     | Some o' -> (SubscribePipe ((snd pp), o')) :: []
-                     | None -> [])
-                  | None -> []) order)
-                (map (fun x -> Act (n, x)) (init_acts op src others))), w6)
-           | OTap t ->
-             let (ot, wt) = alloc_obs w4 (TTapLog t) in
-             let st1 = st_set_aux st ot in
-             let w6 =
-               set_node wt n { n_op = op; n_src = src; n_others = others;
-                 n_st = st1; n_ctl = c }
-             in
-             ((app
-                (flat_map (fun i ->
-                  match nth_error ups i with
-                  | Some pp ->
-                    (match find_ser i entries with
-                     | Some o' -> (SubscribePipe ((snd pp), o')) :: []
-                     | None -> [])
-                  | None -> []) order)
-                (map (fun x -> Act (n, x)) (init_acts op src others))), w6)
-           | _ ->
-             let w6 =
-               set_node w4 n { n_op = op; n_src = src; n_others = others;
-                 n_st = st; n_ctl = c }
-             in
-             ((app
-                (flat_map (fun i ->
-                  match nth_error ups i with
-                  | Some pp ->
-                    (match find_ser i entries with
-                     | Some o' -> (SubscribePipe ((snd pp), o')) :: []
-                     | None -> [])
-                  | None -> []) order)
-                (map (fun x -> Act (n, x)) (init_acts op src others))), w6))
-        | OIgnore ->
-          let c = w.n_ctls in
-          let n = w.n_nodes in
-          let (ups, order) = plan op src others in
-          let w1 = w_n_ctls (S c) (w_n_nodes (S n) w) in
-          let w2 = set_obs w1 o (set_td (w1.obs o) (Some (TdFin c))) in
-          let (entries, w3) =
-            fold_left (fun acc pp ->
-              let (es, wa) = acc in
-              let ser = length es in
-              let (o', wb) = alloc_obs wa (THandler (n, (fst pp), ser)) in
-              ((app es ((ser, o') :: [])), wb)) ups ([], w2)
-          in
-          let w4 =
-            set_ctl w3 c { c_sub = o; c_uns = entries; c_serial =
-              (length entries) }
-          in
-          let st = init_state op others in
-          (match op with
-           | OWindow _ ->
-             let (h, wt) = alloc_subj w4 KSubject None in
-             let st1 = st_set_subj st h in
-             let w6 =
-               set_node wt n { n_op = op; n_src = src; n_others = others;
-                 n_st = st1; n_ctl = c }
-             in
-             ((app
-                (flat_map (fun i ->
-                  match nth_error ups i with
-                  | Some pp ->
-                    (match find_ser i entries with
-                     | Some o' -> (SubscribePipe ((snd pp), o')) :: []
-                     | None -> [])
-                  | None -> []) order)
-                (map (fun x -> Act (n, x)) (init_acts op src others))), w6)
-           | OTap t ->
-             let (ot, wt) = alloc_obs w4 (TTapLog t) in
-             let st1 = st_set_aux st ot in
-             let w6 =
-               set_node wt n { n_op = op; n_src = src; n_others = others;
-                 n_st = st1; n_ctl = c }
-             in
-             ((app
-                (flat_map (fun i ->
-                  match nth_error ups i with
-                  | Some pp ->
-                    (match find_ser i entries with
-                     | Some o' -> (SubscribePipe ((snd pp), o')) :: []
-                     | None -> [])
-                  | None -> []) order)
-                (map (fun x -> Act (n, x)) (init_acts op src others))), w6)
-           | _ ->
-             let w6 =
-               set_node w4 n { n_op = op; n_src = src; n_others = others;
-                 n_st = st; n_ctl = c }
-             in
-             ((app
-                (flat_map (fun i ->
-                  match nth_error ups i with
-                  | Some pp ->
-                    (match find_ser i entries with
-                     | Some o' -> (SubscribePipe ((snd pp), o')) :: []
-                     | None -> [])
-                  | None -> []) order)
-                (map (fun x -> Act (n, x)) (init_acts op src others))), w6))
-        | OStartWith l -> (((StartWith (o, l, src)) :: []), w)
-        | OBuffer _ ->
-          let c = w.n_ctls in
-          let n = w.n_nodes in
-          let (ups, order) = plan op src others in
-          let w1 = w_n_ctls (S c) (w_n_nodes (S n) w) in
-          let w2 = set_obs w1 o (set_td (w1.obs o) (Some (TdFin c))) in
-          let (entries, w3) =
-            fold_left (fun acc pp ->
-              let (es, wa) = acc in
-              let ser = length es in
-              let (o', wb) = alloc_obs wa (THandler (n, (fst pp), ser)) in
-              ((app es ((ser, o') :: [])), wb)) ups ([], w2)
-          in
-          let w4 =
-            set_ctl w3 c { c_sub = o; c_uns = entries; c_serial =
-              (length entries) }
-          in
-          let st = init_state op others in
-          (match op with
-           | OWindow _ ->
-             let (h, wt) = alloc_subj w4 KSubject None in
-             let st1 = st_set_subj st h in
-             let w6 =
-               set_node wt n { n_op = op; n_src = src; n_others = others;
-                 n_st = st1; n_ctl = c }
-             in
-             ((app
-                (flat_map (fun i ->
-                  match nth_error ups i with
-                  | Some pp ->
-                    (match find_ser i entries with
-                     | Some o' -> (SubscribePipe ((snd pp), o')) :: []
-                     | None -> [])
-                  | None -> []) order)
-                (map (fun x -> Act (n, x)) (init_acts op src others))), w6)
-           | OTap t ->
-             let (ot, wt) = alloc_obs w4 (TTapLog t) in
-             let st1 = st_set_aux st ot in
-             let w6 =
-               set_node wt n { n_op = op; n_src = src; n_others = others;
-                 n_st = st1; n_ctl = c }
-             in
-             ((app
-                (flat_map (fun i ->
-                  match nth_error ups i with
-                  | Some pp ->
-                    (match find_ser i entries with
-                     | Some o' -> (SubscribePipe ((snd pp), o')) :: []
-                     | None -> [])
-                  | None -> []) order)
-                (map (fun x -> Act (n, x)) (init_acts op src others))), w6)
-           | _ ->
-             let w6 =
-               set_node w4 n { n_op = op; n_src = src; n_others = others;
-                 n_st = st; n_ctl = c }
-             in
-             ((app
-                (flat_map (fun i ->
-                  match nth_error ups i with
-                  | Some pp ->
-                    (match find_ser i entries with
-                     | Some o' -> (SubscribePipe ((snd pp), o')) :: []
-                     | None -> [])
-                  | None -> []) order)
-                (map (fun x -> Act (n, x)) (init_acts op src others))), w6))
-        | OWindow _ ->
-          let c = w.n_ctls in
-          let n = w.n_nodes in
-          let (ups, order) = plan op src others in
-          let w1 = w_n_ctls (S c) (w_n_nodes (S n) w) in
-          let w2 = set_obs w1 o (set_td (w1.obs o) (Some (TdFin c))) in
-          let (entries, w3) =
-            fold_left (fun acc pp ->
-              let (es, wa) = acc in
-              let ser = length es in
-              let (o', wb) = alloc_obs wa (THandler (n, (fst pp), ser)) in
-              ((app es ((ser, o') :: [])), wb)) ups ([], w2)
-          in
-          let w4 =
-            set_ctl w3 c { c_sub = o; c_uns = entries; c_serial =
-              (length entries) }
-          in
-          let st = init_state op others in
-          (match op with
-           | OWindow _ ->
-             let (h, wt) = alloc_subj w4 KSubject None in
-             let st1 = st_set_subj st h in
-             let w6 =
-               set_node wt n { n_op = op; n_src = src; n_others = others;
-                 n_st = st1; n_ctl = c }
-             in
-             ((app
-                (flat_map (fun i ->
-                  match nth_error ups i with
-                  | Some pp ->
-                    (match find_ser i entries with
-                     | Some o' -> (SubscribePipe ((snd pp), o')) :: []
-                     | None -> [])
-                  | None -> []) order)
-                (map (fun x -> Act (n, x)) (init_acts op src others))), w6)
-           | OTap t ->
-             let (ot, wt) = alloc_obs w4 (TTapLog t) in
-             let st1 = st_set_aux st ot in
-             let w6 =
-               set_node wt n { n_op = op; n_src = src; n_others = others;
-                 n_st = st1; n_ctl = c }
-             in
-             ((app
-                (flat_map (fun i ->
-                  match nth_error ups i with
-                  | Some pp ->
-                    (match find_ser i entries with
-                     | Some o' -> (SubscribePipe ((snd pp), o')) :: []
-                     | None -> [])
-                  | None -> []) order)
-                (map (fun x -> Act (n, x)) (init_acts op src others))), w6)
-           | _ ->
-             let w6 =
-               set_node w4 n { n_op = op; n_src = src; n_others = others;
-                 n_st = st; n_ctl = c }
-             in
-             ((app
-                (flat_map (fun i ->
-                  match nth_error ups i with
-                  | Some pp ->
-                    (match find_ser i entries with
-                     | Some o' -> (SubscribePipe ((snd pp), o')) :: []
-                     | None -> [])
-                  | None -> []) order)
-                (map (fun x -> Act (n, x)) (init_acts op src others))), w6))
-        | OGroupBy _ ->
-          let c = w.n_ctls in
-          let n = w.n_nodes in
-          let (ups, order) = plan op src others in
-          let w1 = w_n_ctls (S c) (w_n_nodes (S n) w) in
-          let w2 = set_obs w1 o (set_td (w1.obs o) (Some (TdFin c))) in
-          let (entries, w3) =
-            fold_left (fun acc pp ->
-              let (es, wa) = acc in
-              let ser = length es in
-              let (o', wb) = alloc_obs wa (THandler (n, (fst pp), ser)) in
-              ((app es ((ser, o') :: [])), wb)) ups ([], w2)
-          in
-          let w4 =
-            set_ctl w3 c { c_sub = o; c_uns = entries; c_serial =
-              (length entries) }
-          in
-          let st = init_state op others in
-          (match op with
-           | OWindow _ ->
-             let (h, wt) = alloc_subj w4 KSubject None in
-             let st1 = st_set_subj st h in
-             let w6 =
-               set_node wt n { n_op = op; n_src = src; n_others = others;
-                 n_st = st1; n_ctl = c }
-             in
-             ((app
-                (flat_map (fun i ->
-                  match nth_error ups i with
-                  | Some pp ->
-                    (match find_ser i entries with
-                     | Some o' -> (SubscribePipe ((snd pp), o')) :: []
-                     | None -> [])
-                  | None -> []) order)
-                (map (fun x -> Act (n, x)) (init_acts op src others))), w6)
-           | OTap t ->
-             let (ot, wt) = alloc_obs w4 (TTapLog t) in
-             let st1 = st_set_aux st ot in
-             let w6 =
-               set_node wt n { n_op = op; n_src = src; n_others = others;
-                 n_st = st1; n_ctl = c }
-             in
-             ((app
-                (flat_map (fun i ->
-                  match nth_error ups i with
-                  | Some pp ->
-                    (match find_ser i entries with
-                     | Some o' -> (SubscribePipe ((snd pp), o')) :: []
-                     | None -> [])
-                  | None -> []) order)
-                (map (fun x -> Act (n, x)) (init_acts op src others))), w6)
-           | _ ->
-             let w6 =
-               set_node w4 n { n_op = op; n_src = src; n_others = others;
-                 n_st = st; n_ctl = c }
-             in
-             ((app
-                (flat_map (fun i ->
-                  match nth_error ups i with
-                  | Some pp ->
-                    (match find_ser i entries with
-                     | Some o' -> (SubscribePipe ((snd pp), o')) :: []
-                     | None -> [])
-                  | None -> []) order)
-                (map (fun x -> Act (n, x)) (init_acts op src others))), w6))
-        | OMaterialize ->
-          let c = w.n_ctls in
-          let n = w.n_nodes in
-          let (ups, order) = plan op src others in
-          let w1 = w_n_ctls (S c) (w_n_nodes (S n) w) in
-          let w2 = set_obs w1 o (set_td (w1.obs o) (Some (TdFin c))) in
-          let (entries, w3) =
-            fold_left (fun acc pp ->
-              let (es, wa) = acc in
-              let ser = length es in
-              let (o', wb) = alloc_obs wa (THandler (n, (fst pp), ser)) in
-              ((app es ((ser, o') :: [])), wb)) ups ([], w2)
-          in
-          let w4 =
-            set_ctl w3 c { c_sub = o; c_uns = entries; c_serial =
-              (length entries) }
-          in
-          let st = init_state op others in
-          (match op with
-           | OWindow _ ->
-             let (h, wt) = alloc_subj w4 KSubject None in
-             let st1 = st_set_subj st h in
-             let w6 =
-               set_node wt n { n_op = op; n_src = src; n_others = others;
-                 n_st = st1; n_ctl = c }
-             in
-             ((app
-                (flat_map (fun i ->
-                  match nth_error ups i with
-                  | Some pp ->
-                    (match find_ser i entries with
-                     | Some o' -> (SubscribePipe ((snd pp), o')) :: []
-                     | None -> [])
-                  | None -> []) order)
-                (map (fun x -> Act (n, x)) (init_acts op src others))), w6)
-           | OTap t ->
-             let (ot, wt) = alloc_obs w4 (TTapLog t) in
-             let st1 = st_set_aux st ot in
-             let w6 =
-               set_node wt n { n_op = op; n_src = src; n_others = others;
-                 n_st = st1; n_ctl = c }
-             in
-             ((app
-                (flat_map (fun i ->
-                  match nth_error ups i with
-                  | Some pp ->
-                    (match find_ser i entries with
-                     | Some o' -> (SubscribePipe ((snd pp), o')) :: []
-                     | None -> [])
-                  | None -> []) order)
-                (map (fun x -> Act (n, x)) (init_acts op src others))), w6)
-           | _ ->
-             let w6 =
-               set_node w4 n { n_op = op; n_src = src; n_others = others;
-                 n_st = st; n_ctl = c }
-             in
-             ((app
-                (flat_map (fun i ->
-                  match nth_error ups i with
-                  | Some pp ->
-                    (match find_ser i entries with
-                     | Some o' -> (SubscribePipe ((snd pp), o')) :: []
-                     | None -> [])
-                  | None -> []) order)
-                (map (fun x -> Act (n, x)) (init_acts op src others))), w6))
-        | ODematerialize ->
-          let c = w.n_ctls in
-          let n = w.n_nodes in
-          let (ups, order) = plan op src others in
-          let w1 = w_n_ctls (S c) (w_n_nodes (S n) w) in
-          let w2 = set_obs w1 o (set_td (w1.obs o) (Some (TdFin c))) in
-          let (entries, w3) =
-            fold_left (fun acc pp ->
-              let (es, wa) = acc in
-              let ser = length es in
-              let (o', wb) = alloc_obs wa (THandler (n, (fst pp), ser)) in
-              ((app es ((ser, o') :: [])), wb)) ups ([], w2)
-          in
-          let w4 =
-            set_ctl w3 c { c_sub = o; c_uns = entries; c_serial =
-              (length entries) }
-          in
-          let st = init_state op others in
-          (match op with
-           | OWindow _ ->
-             let (h, wt) = alloc_subj w4 KSubject None in
-             let st1 = st_set_subj st h in
-             let w6 =
-               set_node wt n { n_op = op; n_src = src; n_others = others;
-                 n_st = st1; n_ctl = c }
-             in
-             ((app
-                (flat_map (fun i ->
-                  match nth_error ups i with
-                  | Some pp ->
-                    (match find_ser i entries with
-                     | Some o' -> (SubscribePipe ((snd pp), o')) :: []
-                     | None -> [])
-                  | None -> []) order)
-                (map (fun x -> Act (n, x)) (init_acts op src others))), w6)
-           | OTap t ->
-             let (ot, wt) = alloc_obs w4 (TTapLog t) in
-             let st1 = st_set_aux st ot in
-             let w6 =
-               set_node wt n { n_op = op; n_src = src; n_others = others;
-                 n_st = st1; n_ctl = c }
-             in
-             ((app
-                (flat_map (fun i ->
-                  match nth_error ups i with
-                  | Some pp ->
-                    (match find_ser i entries with
-                     | Some o' -> (SubscribePipe ((snd pp), o')) :: []
-                     | None -> [])
-                  | None -> []) order)
-                (map (fun x -> Act (n, x)) (init_acts op src others))), w6)
-           | _ ->
-             let w6 =
-               set_node w4 n { n_op = op; n_src = src; n_others = others;
-                 n_st = st; n_ctl = c }
-             in
-             ((app
-                (flat_map (fun i ->
-                  match nth_error ups i with
-                  | Some pp ->
-                    (match find_ser i entries with
-                     | Some o' -> (SubscribePipe ((snd pp), o')) :: []
-                     | None -> [])
-                  | None -> []) order)
-                (map (fun x -> Act (n, x)) (init_acts op src others))), w6))
-        | OTap _ ->
-          let c = w.n_ctls in
-          let n = w.n_nodes in
-          let (ups, order) = plan op src others in
-          let w1 = w_n_ctls (S c) (w_n_nodes (S n) w) in
-          let w2 = set_obs w1 o (set_td (w1.obs o) (Some (TdFin c))) in
-          let (entries, w3) =
-            fold_left (fun acc pp ->
-              let (es, wa) = acc in
-              let ser = length es in
-              let (o', wb) = alloc_obs wa (THandler (n, (fst pp), ser)) in
-              ((app es ((ser, o') :: [])), wb)) ups ([], w2)
-          in
-          let w4 =
-            set_ctl w3 c { c_sub = o; c_uns = entries; c_serial =
-              (length entries) }
-          in
-          let st = init_state op others in
-          (match op with
-           | OWindow _ ->
-             let (h, wt) = alloc_subj w4 KSubject None in
-             let st1 = st_set_subj st h in
-             let w6 =
-               set_node wt n { n_op = op; n_src = src; n_others = others;
-                 n_st = st1; n_ctl = c }
-             in
-             ((app
-                (flat_map (fun i ->
-                  match nth_error ups i with
-                  | Some pp ->
-                    (match find_ser i entries with
-                     | Some o' -> (SubscribePipe ((snd pp), o')) :: []
-                     | None -> [])
-                  | None -> []) order)
-                (map (fun x -> Act (n, x)) (init_acts op src others))), w6)
-           | OTap t ->
-             let (ot, wt) = alloc_obs w4 (TTapLog t) in
-             let st1 = st_set_aux st ot in
-             let w6 =
-               set_node wt n { n_op = op; n_src = src; n_others = others;
-                 n_st = st1; n_ctl = c }
-             in
-             ((app
-                (flat_map (fun i ->
-                  match nth_error ups i with
-                  | Some pp ->
-                    (match find_ser i entries with
-                     | Some o' -> (SubscribePipe ((snd pp), o')) :: []
-                     | None -> [])
-                  | None -> []) order)
-                (map (fun x -> Act (n, x)) (init_acts op src others))), w6)
-           | _ ->
-             let w6 =
-               set_node w4 n { n_op = op; n_src = src; n_others = others;
-                 n_st = st; n_ctl = c }
-             in
-             ((app
-                (flat_map (fun i ->
-                  match nth_error ups i with
-                  | Some pp ->
-                    (match find_ser i entries with
-                     | Some o' -> (SubscribePipe ((snd pp), o')) :: []
-                     | None -> [])
-                  | None -> []) order)
-                (map (fun x -> Act (n, x)) (init_acts op src others))), w6))
-        | OMapToAny ->
-          let c = w.n_ctls in
-          let n = w.n_nodes in
-          let (ups, order) = plan op src others in
-          let w1 = w_n_ctls (S c) (w_n_nodes (S n) w) in
-          let w2 = set_obs w1 o (set_td (w1.obs o) (Some (TdFin c))) in
-          let (entries, w3) =
-            fold_left (fun acc pp ->
-              let (es, wa) = acc in
-              let ser = length es in
-              let (o', wb) = alloc_obs wa (THandler (n, (fst pp), ser)) in
-              ((app es ((ser, o') :: [])), wb)) ups ([], w2)
-          in
-          let w4 =
-            set_ctl w3 c { c_sub = o; c_uns = entries; c_serial =
-              (length entries) }
-          in
-          let st = init_state op others in
-          (match op with
-           | OWindow _ ->
-             let (h, wt) = alloc_subj w4 KSubject None in
-             let st1 = st_set_subj st h in
-             let w6 =
-               set_node wt n { n_op = op; n_src = src; n_others = others;
-                 n_st = st1; n_ctl = c }
-             in
-             ((app
-                (flat_map (fun i ->
-                  match nth_error ups i with
-                  | Some pp ->
-                    (match find_ser i entries with
-                     | Some o' -> (SubscribePipe ((snd pp), o')) :: []
-                     | None -> [])
-                  | None -> []) order)
-                (map (fun x -> Act (n, x)) (init_acts op src others))), w6)
-           | OTap t ->
-             let (ot, wt) = alloc_obs w4 (TTapLog t) in
-             let st1 = st_set_aux st ot in
-             let w6 =
-               set_node wt n { n_op = op; n_src = src; n_others = others;
-                 n_st = st1; n_ctl = c }
-             in
-             ((app
-                (flat_map (fun i ->
-                  match nth_error ups i with
-                  | Some pp ->
-                    (match find_ser i entries with
-                     | Some o' -> (SubscribePipe ((snd pp), o')) :: []
-                     | None -> [])
-                  | None -> []) order)
-                (map (fun x -> Act (n, x)) (init_acts op src others))), w6)
-           | _ ->
-             let w6 =
-               set_node w4 n { n_op = op; n_src = src; n_others = others;
-                 n_st = st; n_ctl = c }
-             in
-             ((app
-                (flat_map (fun i ->
-                  match nth_error ups i with
-                  | Some pp ->
-                    (match find_ser i entries with
-                     | Some o' -> (SubscribePipe ((snd pp), o')) :: []
-                     | None -> [])
-                  | None -> []) order)
-                (map (fun x -> Act (n, x)) (init_acts op src others))), w6))
-        | OMerge ->
-          let c = w.n_ctls in
-          let n = w.n_nodes in
-          let (ups, order) = plan op src others in
-          let w1 = w_n_ctls (S c) (w_n_nodes (S n) w) in
-          let w2 = set_obs w1 o (set_td (w1.obs o) (Some (TdFin c))) in
-          let (entries, w3) =
-            fold_left (fun acc pp ->
-              let (es, wa) = acc in
-              let ser = length es in
-              let (o', wb) = alloc_obs wa (THandler (n, (fst pp), ser)) in
-              ((app es ((ser, o') :: [])), wb)) ups ([], w2)
-          in
-          let w4 =
-            set_ctl w3 c { c_sub = o; c_uns = entries; c_serial =
-              (length entries) }
-          in
-          let st = init_state op others in
-          (match op with
-           | OWindow _ ->
-             let (h, wt) = alloc_subj w4 KSubject None in
-             let st1 = st_set_subj st h in
-             let w6 =
-               set_node wt n { n_op = op; n_src = src; n_others = others;
-                 n_st = st1; n_ctl = c }
-             in
-             ((app
-                (flat_map (fun i ->
-                  match nth_error ups i with
-                  | Some pp ->
-                    (match find_ser i entries with
-                     | Some o' -> (SubscribePipe ((snd pp), o')) :: []
-                     | None -> [])
-                  | None -> []) order)
-                (map (fun x -> Act (n, x)) (init_acts op src others))), w6)
-           | OTap t ->
-             let (ot, wt) = alloc_obs w4 (TTapLog t) in
-             let st1 = st_set_aux st ot in
-             let w6 =
-               set_node wt n { n_op = op; n_src = src; n_others = others;
-                 n_st = st1; n_ctl = c }
-             in
-             ((app
-                (flat_map (fun i ->
-                  match nth_error ups i with
-                  | Some pp ->
-                    (match find_ser i entries with
-                     | Some o' -> (SubscribePipe ((snd pp), o')) :: []
-                     | None -> [])
-                  | None -> []) order)
-                (map (fun x -> Act (n, x)) (init_acts op src others))), w6)
-           | _ ->
-             let w6 =
-               set_node w4 n { n_op = op; n_src = src; n_others = others;
-                 n_st = st; n_ctl = c }
-             in
-             ((app
-                (flat_map (fun i ->
-                  match nth_error ups i with
-                  | Some pp ->
-                    (match find_ser i entries with
-                     | Some o' -> (SubscribePipe ((snd pp), o')) :: []
-                     | None -> [])
-                  | None -> []) order)
-                (map (fun x -> Act (n, x)) (init_acts op src others))), w6))
-        | OFlatMap _ ->
-          let c = w.n_ctls in
-          let n = w.n_nodes in
-          let (ups, order) = plan op src others in
-          let w1 = w_n_ctls (S c) (w_n_nodes (S n) w) in
-          let w2 = set_obs w1 o (set_td (w1.obs o) (Some (TdFin c))) in
-          let (entries, w3) =
-            fold_left (fun acc pp ->
-              let (es, wa) = acc in
-              let ser = length es in
-              let (o', wb) = alloc_obs wa (THandler (n, (fst pp), ser)) in
-              ((app es ((ser, o') :: [])), wb)) ups ([], w2)
-          in
-          let w4 =
-            set_ctl w3 c { c_sub = o; c_uns = entries; c_serial =
-              (length entries) }
-          in
-          let st = init_state op others in
-          (match op with
-           | OWindow _ ->
-             let (h, wt) = alloc_subj w4 KSubject None in
-             let st1 = st_set_subj st h in
-             let w6 =
-               set_node wt n { n_op = op; n_src = src; n_others = others;
-                 n_st = st1; n_ctl = c }
-             in
-             ((app
-                (flat_map (fun i ->
-                  match nth_error ups i with
-                  | Some pp ->
-                    (match find_ser i entries with
-                     | Some o' -> (SubscribePipe ((snd pp), o')) :: []
-                     | None -> [])
-                  | None -> []) order)
-                (map (fun x -> Act (n, x)) (init_acts op src others))), w6)
-           | OTap t ->
-             let (ot, wt) = alloc_obs w4 (TTapLog t) in
-             let st1 = st_set_aux st ot in
-             let w6 =
-               set_node wt n { n_op = op; n_src = src; n_others = others;
-                 n_st = st1; n_ctl = c }
-             in
-             ((app
-                (flat_map (fun i ->
-                  match nth_error ups i with
-                  | Some pp ->
-                    (match find_ser i entries with
-                     | Some o' -> (SubscribePipe ((snd pp), o')) :: []
-                     | None -> [])
-                  | None -> []) order)
-                (map (fun x -> Act (n, x)) (init_acts op src others))), w6)
-           | _ ->
-             let w6 =
-               set_node w4 n { n_op = op; n_src = src; n_others = others;
-                 n_st = st; n_ctl = c }
-             in
-             ((app
-                (flat_map (fun i ->
-                  match nth_error ups i with
-                  | Some pp ->
-                    (match find_ser i entries with
-                     | Some o' -> (SubscribePipe ((snd pp), o')) :: []
-                     | None -> [])
-                  | None -> []) order)
-                (map (fun x -> Act (n, x)) (init_acts op src others))), w6))
-        | OConcat ->
-          let c = w.n_ctls in
-          let n = w.n_nodes in
-          let (ups, order) = plan op src others in
-          let w1 = w_n_ctls (S c) (w_n_nodes (S n) w) in
-          let w2 = set_obs w1 o (set_td (w1.obs o) (Some (TdFin c))) in
-          let (entries, w3) =
-            fold_left (fun acc pp ->
-              let (es, wa) = acc in
-              let ser = length es in
-              let (o', wb) = alloc_obs wa (THandler (n, (fst pp), ser)) in
-              ((app es ((ser, o') :: [])), wb)) ups ([], w2)
-          in
-          let w4 =
-            set_ctl w3 c { c_sub = o; c_uns = entries; c_serial =
-              (length entries) }
-          in
-          let st = init_state op others in
-          (match op with
-           | OWindow _ ->
-             let (h, wt) = alloc_subj w4 KSubject None in
-             let st1 = st_set_subj st h in
-             let w6 =
-               set_node wt n { n_op = op; n_src = src; n_others = others;
-                 n_st = st1; n_ctl = c }
-             in
-             ((app
-                (flat_map (fun i ->
-                  match nth_error ups i with
-                  | Some pp ->
-                    (match find_ser i entries with
-                     | Some o' -> (SubscribePipe ((snd pp), o')) :: []
-                     | None -> [])
-                  | None -> []) order)
-                (map (fun x -> Act (n, x)) (init_acts op src others))), w6)
-           | OTap t ->
-             let (ot, wt) = alloc_obs w4 (TTapLog t) in
-             let st1 = st_set_aux st ot in
-             let w6 =
-               set_node wt n { n_op = op; n_src = src; n_others = others;
-                 n_st = st1; n_ctl = c }
-             in
-             ((app
-                (flat_map (fun i ->
-                  match nth_error ups i with
-                  | Some pp ->
-                    (match find_ser i entries with
-                     | Some o' -> (SubscribePipe ((snd pp), o')) :: []
-                     | None -> [])
-                  | None -> []) order)
-                (map (fun x -> Act (n, x)) (init_acts op src others))), w6)
-           | _ ->
-             let w6 =
-               set_node w4 n { n_op = op; n_src = src; n_others = others;
-                 n_st = st; n_ctl = c }
-             in
-             ((app
-                (flat_map (fun i ->
-                  match nth_error ups i with
-                  | Some pp ->
-                    (match find_ser i entries with
-                     | Some o' -> (SubscribePipe ((snd pp), o')) :: []
-                     | None -> [])
-                  | None -> []) order)
-                (map (fun x -> Act (n, x)) (init_acts op src others))), w6))
-        | OZip ->
-          let c = w.n_ctls in
-          let n = w.n_nodes in
-          let (ups, order) = plan op src others in
-          let w1 = w_n_ctls (S c) (w_n_nodes (S n) w) in
-          let w2 = set_obs w1 o (set_td (w1.obs o) (Some (TdFin c))) in
-          let (entries, w3) =
-            fold_left (fun acc pp ->
-              let (es, wa) = acc in
-              let ser = length es in
-              let (o', wb) = alloc_obs wa (THandler (n, (fst pp), ser)) in
-              ((app es ((ser, o') :: [])), wb)) ups ([], w2)
-          in
-          let w4 =
-            set_ctl w3 c { c_sub = o; c_uns = entries; c_serial =
-              (length entries) }
-          in
-          let st = init_state op others in
-          (match op with
-           | OWindow _ ->
-             let (h, wt) = alloc_subj w4 KSubject None in
-             let st1 = st_set_subj st h in
-             let w6 =
-               set_node wt n { n_op = op; n_src = src; n_others = others;
-                 n_st = st1; n_ctl = c }
-             in
-             ((app
-                (flat_map (fun i ->
-                  match nth_error ups i with
-                  | Some pp ->
-                    (match find_ser i entries with
-                     | Some o' -> (SubscribePipe ((snd pp), o')) :: []
-                     | None -> [])
-                  | None -> []) order)
-                (map (fun x -> Act (n, x)) (init_acts op src others))), w6)
-           | OTap t ->
-             let (ot, wt) = alloc_obs w4 (TTapLog t) in
-             let st1 = st_set_aux st ot in
-             let w6 =
-               set_node wt n { n_op = op; n_src = src; n_others = others;
-                 n_st = st1; n_ctl = c }
-             in
-             ((app
-                (flat_map (fun i ->
-                  match nth_error ups i with
-                  | Some pp ->
-                    (match find_ser i entries with
-                     | Some o' -> (SubscribePipe ((snd pp), o')) :: []
-                     | None -> [])
-                  | None -> []) order)
-                (map (fun x -> Act (n, x)) (init_acts op src others))), w6)
-           | _ ->
-             let w6 =
-               set_node w4 n { n_op = op; n_src = src; n_others = others;
-                 n_st = st; n_ctl = c }
-             in
-             ((app
-                (flat_map (fun i ->
-                  match nth_error ups i with
-                  | Some pp ->
-                    (match find_ser i entries with
-                     | Some o' -> (SubscribePipe ((snd pp), o')) :: []
-                     | None -> [])
-                  | None -> []) order)
-                (map (fun x -> Act (n, x)) (init_acts op src others))), w6))
-        | OCombineLatest _ ->
-          let c = w.n_ctls in
-          let n = w.n_nodes in
-          let (ups, order) = plan op src others in
-          let w1 = w_n_ctls (S c) (w_n_nodes (S n) w) in
-          let w2 = set_obs w1 o (set_td (w1.obs o) (Some (TdFin c))) in
-          let (entries, w3) =
-            fold_left (fun acc pp ->
-              let (es, wa) = acc in
-              let ser = length es in
-              let (o', wb) = alloc_obs wa (THandler (n, (fst pp), ser)) in
-              ((app es ((ser, o') :: [])), wb)) ups ([], w2)
-          in
-          let w4 =
-            set_ctl w3 c { c_sub = o; c_uns = entries; c_serial =
-              (length entries) }
-          in
-          let st = init_state op others in
-          (match op with
-           | OWindow _ ->
-             let (h, wt) = alloc_subj w4 KSubject None in
-             let st1 = st_set_subj st h in
-             let w6 =
-               set_node wt n { n_op = op; n_src = src; n_others = others;
-                 n_st = st1; n_ctl = c }
-             in
-             ((app
-                (flat_map (fun i ->
-                  match nth_error ups i with
-                  | Some pp ->
-                    (match find_ser i entries with
-                     | Some o' -> (SubscribePipe ((snd pp), o')) :: []
-                     | None -> [])
-                  | None -> []) order)
-                (map (fun x -> Act (n, x)) (init_acts op src others))), w6)
-           | OTap t ->
-             let (ot, wt) = alloc_obs w4 (TTapLog t) in
-             let st1 = st_set_aux st ot in
-             let w6 =
-               set_node wt n { n_op = op; n_src = src; n_others = others;
-                 n_st = st1; n_ctl = c }
-             in
-             ((app
-                (flat_map (fun i ->
-                  match nth_error ups i with
-                  | Some pp ->
-                    (match find_ser i entries with
-                     | Some o' -> (SubscribePipe ((snd pp), o')) :: []
-                     | None -> [])
-                  | None -> []) order)
-                (map (fun x -> Act (n, x)) (init_acts op src others))), w6)
-           | _ ->
-             let w6 =
-               set_node w4 n { n_op = op; n_src = src; n_others = others;
-                 n_st = st; n_ctl = c }
-             in
-             ((app
-                (flat_map (fun i ->
-                  match nth_error ups i with
-                  | Some pp ->
-                    (match find_ser i entries with
-                     | Some o' -> (SubscribePipe ((snd pp), o')) :: []
-                     | None -> [])
-                  | None -> []) order)
-                (map (fun x -> Act (n, x)) (init_acts op src others))), w6))
-        | OAmb ->
-          let c = w.n_ctls in
-          let n = w.n_nodes in
-          let (ups, order) = plan op src others in
-          let w1 = w_n_ctls (S c) (w_n_nodes (S n) w) in
-          let w2 = set_obs w1 o (set_td (w1.obs o) (Some (TdFin c))) in
-          let (entries, w3) =
-            fold_left (fun acc pp ->
-              let (es, wa) = acc in
-              let ser = length es in
-              let (o', wb) = alloc_obs wa (THandler (n, (fst pp), ser)) in
-              ((app es ((ser, o') :: [])), wb)) ups ([], w2)
-          in
-          let w4 =
-            set_ctl w3 c { c_sub = o; c_uns = entries; c_serial =
-              (length entries) }
-          in
-          let st = init_state op others in
-          (match op with
-           | OWindow _ ->
-             let (h, wt) = alloc_subj w4 KSubject None in
-             let st1 = st_set_subj st h in
-             let w6 =
-               set_node wt n { n_op = op; n_src = src; n_others = others;
-                 n_st = st1; n_ctl = c }
-             in
-             ((app
-                (flat_map (fun i ->
-                  match nth_error ups i with
-                  | Some pp ->
-                    (match find_ser i entries with
-                     | Some o' -> (SubscribePipe ((snd pp), o')) :: []
-                     | None -> [])
-                  | None -> []) order)
-                (map (fun x -> Act (n, x)) (init_acts op src others))), w6)
-           | OTap t ->
-             let (ot, wt) = alloc_obs w4 (TTapLog t) in
-             let st1 = st_set_aux st ot in
-             let w6 =
-               set_node wt n { n_op = op; n_src = src; n_others = others;
-                 n_st = st1; n_ctl = c }
-             in
-             ((app
-                (flat_map (fun i ->
-                  match nth_error ups i with
-                  | Some pp ->
-                    (match find_ser i entries with
-                     | Some o' -> (SubscribePipe ((snd pp), o')) :: []
-                     | None -> [])
-                  | None -> []) order)
-                (map (fun x -> Act (n, x)) (init_acts op src others))), w6)
-           | _ ->
-             let w6 =
-               set_node w4 n { n_op = op; n_src = src; n_others = others;
-                 n_st = st; n_ctl = c }
-             in
-             ((app
-                (flat_map (fun i ->
-                  match nth_error ups i with
-                  | Some pp ->
-                    (match find_ser i entries with
-                     | Some o' -> (SubscribePipe ((snd pp), o')) :: []
-                     | None -> [])
-                  | None -> []) order)
-                (map (fun x -> Act (n, x)) (init_acts op src others))), w6))
-        | OTakeUntil ->
-          let c = w.n_ctls in
-          let n = w.n_nodes in
-          let (ups, order) = plan op src others in
-          let w1 = w_n_ctls (S c) (w_n_nodes (S n) w) in
-          let w2 = set_obs w1 o (set_td (w1.obs o) (Some (TdFin c))) in
-          let (entries, w3) =
-            fold_left (fun acc pp ->
-              let (es, wa) = acc in
-              let ser = length es in
-              let (o', wb) = alloc_obs wa (THandler (n, (fst pp), ser)) in
-              ((app es ((ser, o') :: [])), wb)) ups ([], w2)
-          in
-          let w4 =
-            set_ctl w3 c { c_sub = o; c_uns = entries; c_serial =
-              (length entries) }
-          in
-          let st = init_state op others in
-          (match op with
-           | OWindow _ ->
-             let (h, wt) = alloc_subj w4 KSubject None in
-             let st1 = st_set_subj st h in
-             let w6 =
-               set_node wt n { n_op = op; n_src = src; n_others = others;
-                 n_st = st1; n_ctl = c }
-             in
-             ((app
-                (flat_map (fun i ->
-                  match nth_error ups i with
-                  | Some pp ->
-                    (match find_ser i entries with
-                     | Some o' -> (SubscribePipe ((snd pp), o')) :: []
-                     | None -> [])
-                  | None -> []) order)
-                (map (fun x -> Act (n, x)) (init_acts op src others))), w6)
-           | OTap t ->
-             let (ot, wt) = alloc_obs w4 (TTapLog t) in
-             let st1 = st_set_aux st ot in
-             let w6 =
-               set_node wt n { n_op = op; n_src = src; n_others = others;
-                 n_st = st1; n_ctl = c }
-             in
-             ((app
-                (flat_map (fun i ->
-                  match nth_error ups i with
-                  | Some pp ->
-                    (match find_ser i entries with
-                     | Some o' -> (SubscribePipe ((snd pp), o')) :: []
-                     | None -> [])
-                  | None -> []) order)
-                (map (fun x -> Act (n, x)) (init_acts op src others))), w6)
-           | _ ->
-             let w6 =
-               set_node w4 n { n_op = op; n_src = src; n_others = others;
-                 n_st = st; n_ctl = c }
-             in
-             ((app
-                (flat_map (fun i ->
-                  match nth_error ups i with
-                  | Some pp ->
-                    (match find_ser i entries with
-                     | Some o' -> (SubscribePipe ((snd pp), o')) :: []
-                     | None -> [])
-                  | None -> []) order)
-                (map (fun x -> Act (n, x)) (init_acts op src others))), w6))
-        | OSkipUntil ->
-          let c = w.n_ctls in
-          let n = w.n_nodes in
-          let (ups, order) = plan op src others in
-          let w1 = w_n_ctls (S c) (w_n_nodes (S n) w) in
-          let w2 = set_obs w1 o (set_td (w1.obs o) (Some (TdFin c))) in
-          let (entries, w3) =
-            fold_left (fun acc pp ->
-              let (es, wa) = acc in
-              let ser = length es in
-              let (o', wb) = alloc_obs wa (THandler (n, (fst pp), ser)) in
-              ((app es ((ser, o') :: [])), wb)) ups ([], w2)
-          in
-          let w4 =
-            set_ctl w3 c { c_sub = o; c_uns = entries; c_serial =
-              (length entries) }
-          in
-          let st = init_state op others in
-          (match op with
-           | OWindow _ ->
-             let (h, wt) = alloc_subj w4 KSubject None in
-             let st1 = st_set_subj st h in
-             let w6 =
-               set_node wt n { n_op = op; n_src = src; n_others = others;
-                 n_st = st1; n_ctl = c }
-             in
-             ((app
-                (flat_map (fun i ->
-                  match nth_error ups i with
-                  | Some pp ->
-                    (match find_ser i entries with
-                     | Some o' -> (SubscribePipe ((snd pp), o')) :: []
-                     | None -> [])
-                  | None -> []) order)
-                (map (fun x -> Act (n, x)) (init_acts op src others))), w6)
-           | OTap t ->
-             let (ot, wt) = alloc_obs w4 (TTapLog t) in
-             let st1 = st_set_aux st ot in
-             let w6 =
-               set_node wt n { n_op = op; n_src = src; n_others = others;
-                 n_st = st1; n_ctl = c }
-             in
-             ((app
-                (flat_map (fun i ->
-                  match nth_error ups i with
-                  | Some pp ->
-                    (match find_ser i entries with
-                     | Some o' -> (SubscribePipe ((snd pp), o')) :: []
-                     | None -> [])
-                  | None -> []) order)
-                (map (fun x -> Act (n, x)) (init_acts op src others))), w6)
-           | _ ->
-             let w6 =
-               set_node w4 n { n_op = op; n_src = src; n_others = others;
-                 n_st = st; n_ctl = c }
-             in
-             ((app
-                (flat_map (fun i ->
-                  match nth_error ups i with
-                  | Some pp ->
-                    (match find_ser i entries with
-                     | Some o' -> (SubscribePipe ((snd pp), o')) :: []
-                     | None -> [])
-                  | None -> []) order)
-                (map (fun x -> Act (n, x)) (init_acts op src others))), w6))
-        | OSample ->
-          let c = w.n_ctls in
-          let n = w.n_nodes in
-          let (ups, order) = plan op src others in
-          let w1 = w_n_ctls (S c) (w_n_nodes (S n) w) in
-          let w2 = set_obs w1 o (set_td (w1.obs o) (Some (TdFin c))) in
-          let (entries, w3) =
-            fold_left (fun acc pp ->
-              let (es, wa) = acc in
-              let ser = length es in
-              let (o', wb) = alloc_obs wa (THandler (n, (fst pp), ser)) in
-              ((app es ((ser, o') :: [])), wb)) ups ([], w2)
-          in
-          let w4 =
-            set_ctl w3 c { c_sub = o; c_uns = entries; c_serial =
-              (length entries) }
-          in
-          let st = init_state op others in
-          (match op with
-           | OWindow _ ->
-             let (h, wt) = alloc_subj w4 KSubject None in
-             let st1 = st_set_subj st h in
-             let w6 =
-               set_node wt n { n_op = op; n_src = src; n_others = others;
-                 n_st = st1; n_ctl = c }
-             in
-             ((app
-                (flat_map (fun i ->
-                  match nth_error ups i with
-                  | Some pp ->
-                    (match find_ser i entries with
-                     | Some o' -> (SubscribePipe ((snd pp), o')) :: []
-                     | None -> [])
-                  | None -> []) order)
-                (map (fun x -> Act (n, x)) (init_acts op src others))), w6)
-           | OTap t ->
-             let (ot, wt) = alloc_obs w4 (TTapLog t) in
-             let st1 = st_set_aux st ot in
-             let w6 =
-               set_node wt n { n_op = op; n_src = src; n_others = others;
-                 n_st = st1; n_ctl = c }
-             in
-             ((app
-                (flat_map (fun i ->
-                  match nth_error ups i with
-                  | Some pp ->
-                    (match find_ser i entries with
-                     | Some o' -> (SubscribePipe ((snd pp), o')) :: []
-                     | None -> [])
-                  | None -> []) order)
-                (map (fun x -> Act (n, x)) (init_acts op src others))), w6)
-           | _ ->
-             let w6 =
-               set_node w4 n { n_op = op; n_src = src; n_others = others;
-                 n_st = st; n_ctl = c }
-             in
-             ((app
-                (flat_map (fun i ->
-                  match nth_error ups i with
-                  | Some pp ->
-                    (match find_ser i entries with
-                     | Some o' -> (SubscribePipe ((snd pp), o')) :: []
-                     | None -> [])
-                  | None -> []) order)
-                (map (fun x -> Act (n, x)) (init_acts op src others))), w6))
-        | OSwitchOnNext ->
-          let c = w.n_ctls in
-          let n = w.n_nodes in
-          let (ups, order) = plan op src others in
-          let w1 = w_n_ctls (S c) (w_n_nodes (S n) w) in
-          let w2 = set_obs w1 o (set_td (w1.obs o) (Some (TdFin c))) in
-          let (entries, w3) =
-            fold_left (fun acc pp ->
-              let (es, wa) = acc in
-              let ser = length es in
-              let (o', wb) = alloc_obs wa (THandler (n, (fst pp), ser)) in
-              ((app es ((ser, o') :: [])), wb)) ups ([], w2)
-          in
-          let w4 =
-            set_ctl w3 c { c_sub = o; c_uns = entries; c_serial =
-              (length entries) }
-          in
-          let st = init_state op others in
-          (match op with
-           | OWindow _ ->
-             let (h, wt) = alloc_subj w4 KSubject None in
-             let st1 = st_set_subj st h in
-             let w6 =
-               set_node wt n { n_op = op; n_src = src; n_others = others;
-                 n_st = st1; n_ctl = c }
-             in
-             ((app
-                (flat_map (fun i ->
-                  match nth_error ups i with
-                  | Some pp ->
-                    (match find_ser i entries with
-                     | Some o' -> (SubscribePipe ((snd pp), o')) :: []
-                     | None -> [])
-                  | None -> []) order)
-                (map (fun x -> Act (n, x)) (init_acts op src others))), w6)
-           | OTap t ->
-             let (ot, wt) = alloc_obs w4 (TTapLog t) in
-             let st1 = st_set_aux st ot in
-             let w6 =
-               set_node wt n { n_op = op; n_src = src; n_others = others;
-                 n_st = st1; n_ctl = c }
-             in
-             ((app
-                (flat_map (fun i ->
-                  match nth_error ups i with
-                  | Some pp ->
-                    (match find_ser i entries with
-                     | Some o' -> (SubscribePipe ((snd pp), o')) :: []
-                     | None -> [])
-                  | None -> []) order)
-                (map (fun x -> Act (n, x)) (init_acts op src others))), w6)
-           | _ ->
-             let w6 =
-               set_node w4 n { n_op = op; n_src = src; n_others = others;
-                 n_st = st; n_ctl = c }
-             in
-             ((app
-                (flat_map (fun i ->
-                  match nth_error ups i with
-                  | Some pp ->
-                    (match find_ser i entries with
-                     | Some o' -> (SubscribePipe ((snd pp), o')) :: []
-                     | None -> [])
-                  | None -> []) order)
-                (map (fun x -> Act (n, x)) (init_acts op src others))), w6))
-        | OSequenceEqual ->
-          let c = w.n_ctls in
-          let n = w.n_nodes in
-          let (ups, order) = plan op src others in
-          let w1 = w_n_ctls (S c) (w_n_nodes (S n) w) in
-          let w2 = set_obs w1 o (set_td (w1.obs o) (Some (TdFin c))) in
-          let (entries, w3) =
-            fold_left (fun acc pp ->
-              let (es, wa) = acc in
-              let ser = length es in
-              let (o', wb) = alloc_obs wa (THandler (n, (fst pp), ser)) in
-              ((app es ((ser, o') :: [])), wb)) ups ([], w2)
-          in
-          let w4 =
-            set_ctl w3 c { c_sub = o; c_uns = entries; c_serial =
-              (length entries) }
-          in
-          let st = init_state op others in
-          (match op with
-           | OWindow _ ->
-             let (h, wt) = alloc_subj w4 KSubject None in
-             let st1 = st_set_subj st h in
-             let w6 =
-               set_node wt n { n_op = op; n_src = src; n_others = others;
-                 n_st = st1; n_ctl = c }
-             in
-             ((app
-                (flat_map (fun i ->
-                  match nth_error ups i with
-                  | Some pp ->
-                    (match find_ser i entries with
-                     | Some o' -> (SubscribePipe ((snd pp), o')) :: []
-                     | None -> [])
-                  | None -> []) order)
-                (map (fun x -> Act (n, x)) (init_acts op src others))), w6)
-           | OTap t ->
-             let (ot, wt) = alloc_obs w4 (TTapLog t) in
-             let st1 = st_set_aux st ot in
-             let w6 =
-               set_node wt n { n_op = op; n_src = src; n_others = others;
-                 n_st = st1; n_ctl = c }
-             in
-             ((app
-                (flat_map (fun i ->
-                  match nth_error ups i with
-                  | Some pp ->
-                    (match find_ser i entries with
-                     | Some o' -> (SubscribePipe ((snd pp), o')) :: []
-                     | None -> [])
-                  | None -> []) order)
-                (map (fun x -> Act (n, x)) (init_acts op src others))), w6)
-           | _ ->
-             let w6 =
-               set_node w4 n { n_op = op; n_src = src; n_others = others;
-                 n_st = st; n_ctl = c }
-             in
-             ((app
-                (flat_map (fun i ->
-                  match nth_error ups i with
-                  | Some pp ->
-                    (match find_ser i entries with
-                     | Some o' -> (SubscribePipe ((snd pp), o')) :: []
-                     | None -> [])
-                  | None -> []) order)
-                (map (fun x -> Act (n, x)) (init_acts op src others))), w6))
-        | ORetry _ ->
-          let c = w.n_ctls in
-          let n = w.n_nodes in
-          let (ups, order) = plan op src others in
-          let w1 = w_n_ctls (S c) (w_n_nodes (S n) w) in
-          let w2 = set_obs w1 o (set_td (w1.obs o) (Some (TdFin c))) in
-          let (entries, w3) =
-            fold_left (fun acc pp ->
-              let (es, wa) = acc in
-              let ser = length es in
-              let (o', wb) = alloc_obs wa (THandler (n, (fst pp), ser)) in
-              ((app es ((ser, o') :: [])), wb)) ups ([], w2)
-          in
-          let w4 =
-            set_ctl w3 c { c_sub = o; c_uns = entries; c_serial =
-              (length entries) }
-          in
-          let st = init_state op others in
-          (match op with
-           | OWindow _ ->
-             let (h, wt) = alloc_subj w4 KSubject None in
-             let st1 = st_set_subj st h in
-             let w6 =
-               set_node wt n { n_op = op; n_src = src; n_others = others;
-                 n_st = st1; n_ctl = c }
-             in
-             ((app
-                (flat_map (fun i ->
-                  match nth_error ups i with
-                  | Some pp ->
-                    (match find_ser i entries with
-                     | Some o' -> (SubscribePipe ((snd pp), o')) :: []
-                     | None -> [])
-                  | None -> []) order)
-                (map (fun x -> Act (n, x)) (init_acts op src others))), w6)
-           | OTap t ->
-             let (ot, wt) = alloc_obs w4 (TTapLog t) in
-             let st1 = st_set_aux st ot in
-             let w6 =
-               set_node wt n { n_op = op; n_src = src; n_others = others;
-                 n_st = st1; n_ctl = c }
-             in
-             ((app
-                (flat_map (fun i ->
-                  match nth_error ups i with
-                  | Some pp ->
-                    (match find_ser i entries with
-                     | Some o' -> (SubscribePipe ((snd pp), o')) :: []
-                     | None -> [])
-                  | None -> []) order)
-                (map (fun x -> Act (n, x)) (init_acts op src others))), w6)
-           | _ ->
-             let w6 =
-               set_node w4 n { n_op = op; n_src = src; n_others = others;
-                 n_st = st; n_ctl = c }
-             in
-             ((app
-                (flat_map (fun i ->
-                  match nth_error ups i with
-                  | Some pp ->
-                    (match find_ser i entries with
-                     | Some o' -> (SubscribePipe ((snd pp), o')) :: []
-                     | None -> [])
-                  | None -> []) order)
-                (map (fun x -> Act (n, x)) (init_acts op src others))), w6))
-        | ORetryWhen _ ->
-          let c = w.n_ctls in
-          let n = w.n_nodes in
-          let (ups, order) = plan op src others in
-          let w1 = w_n_ctls (S c) (w_n_nodes (S n) w) in
-          let w2 = set_obs w1 o (set_td (w1.obs o) (Some (TdFin c))) in
-          let (entries, w3) =
-            fold_left (fun acc pp ->
-              let (es, wa) = acc in
-              let ser = length es in
-              let (o', wb) = alloc_obs wa (THandler (n, (fst pp), ser)) in
-              ((app es ((ser, o') :: [])), wb)) ups ([], w2)
-          in
-          let w4 =
-            set_ctl w3 c { c_sub = o; c_uns = entries; c_serial =
-              (length entries) }
-          in
-          let st = init_state op others in
-          (match op with
-           | OWindow _ ->
-             let (h, wt) = alloc_subj w4 KSubject None in
-             let st1 = st_set_subj st h in
-             let w6 =
-               set_node wt n { n_op = op; n_src = src; n_others = others;
-                 n_st = st1; n_ctl = c }
-             in
-             ((app
-                (flat_map (fun i ->
-                  match nth_error ups i with
-                  | Some pp ->
-                    (match find_ser i entries with
-                     | Some o' -> (SubscribePipe ((snd pp), o')) :: []
-                     | None -> [])
-                  | None -> []) order)
-                (map (fun x -> Act (n, x)) (init_acts op src others))), w6)
-           | OTap t ->
-             let (ot, wt) = alloc_obs w4 (TTapLog t) in
-             let st1 = st_set_aux st ot in
-             let w6 =
-               set_node wt n { n_op = op; n_src = src; n_others = others;
-                 n_st = st1; n_ctl = c }
-             in
-             ((app
-                (flat_map (fun i ->
-                  match nth_error ups i with
-                  | Some pp ->
-                    (match find_ser i entries with
-                     | Some o' -> (SubscribePipe ((snd pp), o')) :: []
-                     | None -> [])
-                  | None -> []) order)
-                (map (fun x -> Act (n, x)) (init_acts op src others))), w6)
-           | _ ->
-             let w6 =
-               set_node w4 n { n_op = op; n_src = src; n_others = others;
-                 n_st = st; n_ctl = c }
-             in
-             ((app
-                (flat_map (fun i ->
-                  match nth_error ups i with
-                  | Some pp ->
-                    (match find_ser i entries with
-                     | Some o' -> (SubscribePipe ((snd pp), o')) :: []
-                     | None -> [])
-                  | None -> []) order)
-                (map (fun x -> Act (n, x)) (init_acts op src others))), w6))
-        | OResume ->
-          let c = w.n_ctls in
-          let n = w.n_nodes in
-          let (ups, order) = plan op src others in
-          let w1 = w_n_ctls (S c) (w_n_nodes (S n) w) in
-          let w2 = set_obs w1 o (set_td (w1.obs o) (Some (TdFin c))) in
-          let (entries, w3) =
-            fold_left (fun acc pp ->
-              let (es, wa) = acc in
-              let ser = length es in
-              let (o', wb) = alloc_obs wa (THandler (n, (fst pp), ser)) in
-              ((app es ((ser, o') :: [])), wb)) ups ([], w2)
-          in
-          let w4 =
-            set_ctl w3 c { c_sub = o; c_uns = entries; c_serial =
-              (length entries) }
-          in
-          let st = init_state op others in
-          (match op with
-           | OWindow _ ->
-             let (h, wt) = alloc_subj w4 KSubject None in
-             let st1 = st_set_subj st h in
-             let w6 =
-               set_node wt n { n_op = op; n_src = src; n_others = others;
-                 n_st = st1; n_ctl = c }
-             in
-             ((app
-                (flat_map (fun i ->
-                  match nth_error ups i with
-                  | Some pp ->
-                    (match find_ser i entries with
-                     | Some o' -> (SubscribePipe ((snd pp), o')) :: []
-                     | None -> [])
-                  | None -> []) order)
-                (map (fun x -> Act (n, x)) (init_acts op src others))), w6)
-           | OTap t ->
-             let (ot, wt) = alloc_obs w4 (TTapLog t) in
-             let st1 = st_set_aux st ot in
-             let w6 =
-               set_node wt n { n_op = op; n_src = src; n_others = others;
-                 n_st = st1; n_ctl = c }
-             in
-             ((app
-                (flat_map (fun i ->
-                  match nth_error ups i with
-                  | Some pp ->
-                    (match find_ser i entries with
-                     | Some o' -> (SubscribePipe ((snd pp), o')) :: []
-                     | None -> [])
-                  | None -> []) order)
-                (map (fun x -> Act (n, x)) (init_acts op src others))), w6)
-           | _ ->
-             let w6 =
-               set_node w4 n { n_op = op; n_src = src; n_others = others;
-                 n_st = st; n_ctl = c }
-             in
-             ((app
-                (flat_map (fun i ->
-                  match nth_error ups i with
-                  | Some pp ->
-                    (match find_ser i entries with
-                     | Some o' -> (SubscribePipe ((snd pp), o')) :: []
-                     | None -> [])
-                  | None -> []) order)
-                (map (fun x -> Act (n, x)) (init_acts op src others))), w6))
-        | OFwd ->
-          let c = w.n_ctls in
-          let n = w.n_nodes in
-          let (ups, order) = plan op src others in
-          let w1 = w_n_ctls (S c) (w_n_nodes (S n) w) in
-          let w2 = set_obs w1 o (set_td (w1.obs o) (Some (TdFin c))) in
-          let (entries, w3) =
-            fold_left (fun acc pp ->
-              let (es, wa) = acc in
-              let ser = length es in
-              let (o', wb) = alloc_obs wa (THandler (n, (fst pp), ser)) in
-              ((app es ((ser, o') :: [])), wb)) ups ([], w2)
-          in
-          let w4 =
-            set_ctl w3 c { c_sub = o; c_uns = entries; c_serial =
-              (length entries) }
-          in
-          let st = init_state op others in
-          (match op with
-           | OWindow _ ->
-             let (h, wt) = alloc_subj w4 KSubject None in
-             let st1 = st_set_subj st h in
-             let w6 =
-               set_node wt n { n_op = op; n_src = src; n_others = others;
-                 n_st = st1; n_ctl = c }
-             in
-             ((app
-                (flat_map (fun i ->
-                  match nth_error ups i with
-                  | Some pp ->
-                    (match find_ser i entries with
-                     | Some o' -> (SubscribePipe ((snd pp), o')) :: []
-                     | None -> [])
-                  | None -> []) order)
-                (map (fun x -> Act (n, x)) (init_acts op src others))), w6)
-           | OTap t ->
-             let (ot, wt) = alloc_obs w4 (TTapLog t) in
-             let st1 = st_set_aux st ot in
-             let w6 =
-               set_node wt n { n_op = op; n_src = src; n_others = others;
-                 n_st = st1; n_ctl = c }
-             in
-             ((app
-                (flat_map (fun i ->
-                  match nth_error ups i with
-                  | Some pp ->
-                    (match find_ser i entries with
-                     | Some o' -> (SubscribePipe ((snd pp), o')) :: []
-                     | None -> [])
-                  | None -> []) order)
-                (map (fun x -> Act (n, x)) (init_acts op src others))), w6)
-           | _ ->
-             let w6 =
-               set_node w4 n { n_op = op; n_src = src; n_others = others;
-                 n_st = st; n_ctl = c }
-             in
-             ((app
-                (flat_map (fun i ->
-                  match nth_error ups i with
-                  | Some pp ->
-                    (match find_ser i entries with
-                     | Some o' -> (SubscribePipe ((snd pp), o')) :: []
-                     | None -> [])
-                  | None -> []) order)
-                (map (fun x -> Act (n, x)) (init_acts op src others))), w6))))
+    if negb (is_sub (w.obs o))
+    then ([], w)
+    else (match p with
+          | PCold s ->
+            let att = w.attempts s in
+            (((Src (s, att, o, (script_of w s att), O)) :: []),
+            (w_attempts (upd w.attempts s (S att)) w))
+          | PJust v ->
+            (((Deliver (o, (Nx v))) :: ((Deliver (o, Co)) :: [])), w)
+          | PFromIter l -> (((FromIter (o, l)) :: []), w)
+          | PRange (a, n) -> (((Range (o, a, (Z.to_nat n))) :: []), w)
+          | PEmpty -> (((Deliver (o, Co)) :: []), w)
+          | PNever -> ([], w)
+          | PError e -> (((Deliver (o, (Er e))) :: []), w)
+          | PRepeat v -> (((Repeat (o, v)) :: []), w)
+          | PDefer q -> (((SubscribePipe (q, o)) :: []), w)
+          | PStart c ->
+            let k = w.counters c in
+            (((Deliver (o, (Nx (VInt (Z.of_nat k))))) :: ((Deliver (o,
+            Co)) :: [])), (w_counters (upd w.counters c (S k)) w))
+          | PFromResult r0 ->
+            (match r0 with
+             | Inl v ->
+               (((Deliver (o, (Nx v))) :: ((Deliver (o, Co)) :: [])), w)
+             | Inr e -> (((Deliver (o, (Er e))) :: []), w))
+          | PHot h ->
+            let sj = w.subjs h in
+            (match sj.sj_kind with
+             | KSubject -> (((SubjJoin (h, o)) :: []), w)
+             | KBehavior ->
+               (match sj.sj_err with
+                | Some e ->
+                  (((AcqL ((LHist h), MR)) :: ((Deliver (o, (Er
+                    e))) :: ((RelL ((LHist h), MR)) :: []))), w)
+                | None ->
+                  (match sj.sj_last with
+                   | Some v ->
+                     let (x, w1) = alloc_cell w in
+                     let (o', w2) = alloc_obs w1 (TForward o) in
+                     (((AcqL ((LHist h), MR)) :: ((Deliver (o, (Nx
+                     v))) :: ((RelL ((LHist h), MR)) :: ((SetTdCell (o,
+                     x)) :: ((SubjJoin (h, o')) :: ((MkSub (o', (DCell
+                     x))) :: [])))))), w2)
+                   | None ->
+                     (((AcqL ((LHist h), MR)) :: ((Deliver (o, Co)) :: ((RelL
+                       ((LHist h), MR)) :: []))), w)))
+             | KReplay ->
+               let (x, w1) = alloc_cell w in
+               let (o', w2) = alloc_obs w1 (TForward o) in
+               (((SetTdCell (o, x)) :: ((SubjJoin (h, o')) :: ((AcqL ((LHist
+               h), MR)) :: ((Replay (h, o)) :: ((RelL ((LHist h),
+               MR)) :: ((MkSub (o', (DCell x))) :: [])))))), w2)
+             | KAsync ->
+               (((SubscribePipe ((POp ((OTakeLast (S O)), (PInner h), [])),
+                 o)) :: []), w))
+          | PInner h -> (((SubjJoin (h, o)) :: []), w)
+          | PConn k ->
+            (((SubscribePipe ((PHot (w.conns k).k_subj), o)) :: []), w)
+          | POp (op, src, others) ->
+            (match op with
+             | OMap _ ->
+               let c = w.n_ctls in
+               let n = w.n_nodes in
+               let (ups, order) = plan op src others in
+               let w1 = w_n_ctls (S c) (w_n_nodes (S n) w) in
+               let w2 = set_obs w1 o (set_td (w1.obs o) (Some (TdFin c))) in
+               let (entries, w3) =
+                 fold_left (fun acc pp ->
+                   let (es, wa) = acc in
+                   let ser = length es in
+                   let (o', wb) = alloc_obs wa (THandler (n, (fst pp), ser))
+                   in
+                   ((app es ((ser, o') :: [])), wb)) ups ([], w2)
+               in
+               let w4 =
+                 set_ctl w3 c { c_sub = o; c_uns = entries; c_serial =
+                   (length entries) }
+               in
+               let st = init_state op others in
+               (match op with
+                | OWindow _ ->
+                  let (h, wt) = alloc_subj w4 KSubject None in
+                  let st1 = st_set_subj st h in
+                  let w6 =
+                    set_node wt n { n_op = op; n_src = src; n_others =
+                      others; n_st = st1; n_ctl = c }
+                  in
+                  ((app
+                     (flat_map (fun i ->
+                       match nth_error ups i with
+                       | Some pp ->
+                         (match find_ser i entries with
+                          | Some o' -> (SubscribePipe ((snd pp), o')) :: []
+                          | None -> [])
+                       | None -> []) order)
+                     (map (fun x -> Act (n, x)) (init_acts op src others))),
+                  w6)
+                | OTap t ->
+                  let (ot, wt) = alloc_obs w4 (TTapLog t) in
+                  let st1 = st_set_aux st ot in
+                  let w6 =
+                    set_node wt n { n_op = op; n_src = src; n_others =
+                      others; n_st = st1; n_ctl = c }
+                  in
+                  ((app
+                     (flat_map (fun i ->
+                       match nth_error ups i with
+                       | Some pp ->
+                         (match find_ser i entries with
+                          | Some o' -> (SubscribePipe ((snd pp), o')) :: []
+                          | None -> [])
+                       | None -> []) order)
+                     (map (fun x -> Act (n, x)) (init_acts op src others))),
+                  w6)
+                | _ ->
+                  let w6 =
+                    set_node w4 n { n_op = op; n_src = src; n_others =
+                      others; n_st = st; n_ctl = c }
+                  in
+                  ((app
+                     (flat_map (fun i ->
+                       match nth_error ups i with
+                       | Some pp ->
+                         (match find_ser i entries with
+                          | Some o' -> (SubscribePipe ((snd pp), o')) :: []
+                          | None -> [])
+                       | None -> []) order)
+                     (map (fun x -> Act (n, x)) (init_acts op src others))),
+                  w6))
+             | OFilter _ ->
+               let c = w.n_ctls in
+               let n = w.n_nodes in
+               let (ups, order) = plan op src others in
+               let w1 = w_n_ctls (S c) (w_n_nodes (S n) w) in
+               let w2 = set_obs w1 o (set_td (w1.obs o) (Some (TdFin c))) in
+               let (entries, w3) =
+                 fold_left (fun acc pp ->
+                   let (es, wa) = acc in
+                   let ser = length es in
+                   let (o', wb) = alloc_obs wa (THandler (n, (fst pp), ser))
+                   in
+                   ((app es ((ser, o') :: [])), wb)) ups ([], w2)
+               in
+               let w4 =
+                 set_ctl w3 c { c_sub = o; c_uns = entries; c_serial =
+                   (length entries) }
+               in
+               let st = init_state op others in
+               (match op with
+                | OWindow _ ->
+                  let (h, wt) = alloc_subj w4 KSubject None in
+                  let st1 = st_set_subj st h in
+                  let w6 =
+                    set_node wt n { n_op = op; n_src = src; n_others =
+                      others; n_st = st1; n_ctl = c }
+                  in
+                  ((app
+                     (flat_map (fun i ->
+                       match nth_error ups i with
+                       | Some pp ->
+                         (match find_ser i entries with
+                          | Some o' -> (SubscribePipe ((snd pp), o')) :: []
+                          | None -> [])
+                       | None -> []) order)
+                     (map (fun x -> Act (n, x)) (init_acts op src others))),
+                  w6)
+                | OTap t ->
+                  let (ot, wt) = alloc_obs w4 (TTapLog t) in
+                  let st1 = st_set_aux st ot in
+                  let w6 =
+                    set_node wt n { n_op = op; n_src = src; n_others =
+                      others; n_st = st1; n_ctl = c }
+                  in
+                  ((app
+                     (flat_map (fun i ->
+                       match nth_error ups i with
+                       | Some pp ->
+                         (match find_ser i entries with
+                          | Some o' -> (SubscribePipe ((snd pp), o')) :: []
+                          | None -> [])
+                       | None -> []) order)
+                     (map (fun x -> Act (n, x)) (init_acts op src others))),
+                  w6)
+                | _ ->
+                  let w6 =
+                    set_node w4 n { n_op = op; n_src = src; n_others =
+                      others; n_st = st; n_ctl = c }
+                  in
+                  ((app
+                     (flat_map (fun i ->
+                       match nth_error ups i with
+                       | Some pp ->
+                         (match find_ser i entries with
+                          | Some o' -> (SubscribePipe ((snd pp), o')) :: []
+                          | None -> [])
+                       | None -> []) order)
+                     (map (fun x -> Act (n, x)) (init_acts op src others))),
+                  w6))
+             | OTake _ ->
+               let c = w.n_ctls in
+               let n = w.n_nodes in
+               let (ups, order) = plan op src others in
+               let w1 = w_n_ctls (S c) (w_n_nodes (S n) w) in
+               let w2 = set_obs w1 o (set_td (w1.obs o) (Some (TdFin c))) in
+               let (entries, w3) =
+                 fold_left (fun acc pp ->
+                   let (es, wa) = acc in
+                   let ser = length es in
+                   let (o', wb) = alloc_obs wa (THandler (n, (fst pp), ser))
+                   in
+                   ((app es ((ser, o') :: [])), wb)) ups ([], w2)
+               in
+               let w4 =
+                 set_ctl w3 c { c_sub = o; c_uns = entries; c_serial =
+                   (length entries) }
+               in
+               let st = init_state op others in
+               (match op with
+                | OWindow _ ->
+                  let (h, wt) = alloc_subj w4 KSubject None in
+                  let st1 = st_set_subj st h in
+                  let w6 =
+                    set_node wt n { n_op = op; n_src = src; n_others =
+                      others; n_st = st1; n_ctl = c }
+                  in
+                  ((app
+                     (flat_map (fun i ->
+                       match nth_error ups i with
+                       | Some pp ->
+                         (match find_ser i entries with
+                          | Some o' -> (SubscribePipe ((snd pp), o')) :: []
+                          | None -> [])
+                       | None -> []) order)
+                     (map (fun x -> Act (n, x)) (init_acts op src others))),
+                  w6)
+                | OTap t ->
+                  let (ot, wt) = alloc_obs w4 (TTapLog t) in
+                  let st1 = st_set_aux st ot in
+                  let w6 =
+                    set_node wt n { n_op = op; n_src = src; n_others =
+                      others; n_st = st1; n_ctl = c }
+                  in
+                  ((app
+                     (flat_map (fun i ->
+                       match nth_error ups i with
+                       | Some pp ->
+                         (match find_ser i entries with
+                          | Some o' -> (SubscribePipe ((snd pp), o')) :: []
+                          | None -> [])
+                       | None -> []) order)
+                     (map (fun x -> Act (n, x)) (init_acts op src others))),
+                  w6)
+                | _ ->
+                  let w6 =
+                    set_node w4 n { n_op = op; n_src = src; n_others =
+                      others; n_st = st; n_ctl = c }
+                  in
+                  ((app
+                     (flat_map (fun i ->
+                       match nth_error ups i with
+                       | Some pp ->
+                         (match find_ser i entries with
+                          | Some o' -> (SubscribePipe ((snd pp), o')) :: []
+                          | None -> [])
+                       | None -> []) order)
+                     (map (fun x -> Act (n, x)) (init_acts op src others))),
+                  w6))
+             | OTakeWhile _ ->
+               let c = w.n_ctls in
+               let n = w.n_nodes in
+               let (ups, order) = plan op src others in
+               let w1 = w_n_ctls (S c) (w_n_nodes (S n) w) in
+               let w2 = set_obs w1 o (set_td (w1.obs o) (Some (TdFin c))) in
+               let (entries, w3) =
+                 fold_left (fun acc pp ->
+                   let (es, wa) = acc in
+                   let ser = length es in
+                   let (o', wb) = alloc_obs wa (THandler (n, (fst pp), ser))
+                   in
+                   ((app es ((ser, o') :: [])), wb)) ups ([], w2)
+               in
+               let w4 =
+                 set_ctl w3 c { c_sub = o; c_uns = entries; c_serial =
+                   (length entries) }
+               in
+               let st = init_state op others in
+               (match op with
+                | OWindow _ ->
+                  let (h, wt) = alloc_subj w4 KSubject None in
+                  let st1 = st_set_subj st h in
+                  let w6 =
+                    set_node wt n { n_op = op; n_src = src; n_others =
+                      others; n_st = st1; n_ctl = c }
+                  in
+                  ((app
+                     (flat_map (fun i ->
+                       match nth_error ups i with
+                       | Some pp ->
+                         (match find_ser i entries with
+                          | Some o' -> (SubscribePipe ((snd pp), o')) :: []
+                          | None -> [])
+                       | None -> []) order)
+                     (map (fun x -> Act (n, x)) (init_acts op src others))),
+                  w6)
+                | OTap t ->
+                  let (ot, wt) = alloc_obs w4 (TTapLog t) in
+                  let st1 = st_set_aux st ot in
+                  let w6 =
+                    set_node wt n { n_op = op; n_src = src; n_others =
+                      others; n_st = st1; n_ctl = c }
+                  in
+                  ((app
+                     (flat_map (fun i ->
+                       match nth_error ups i with
+                       | Some pp ->
+                         (match find_ser i entries with
+                          | Some o' -> (SubscribePipe ((snd pp), o')) :: []
+                          | None -> [])
+                       | None -> []) order)
+                     (map (fun x -> Act (n, x)) (init_acts op src others))),
+                  w6)
+                | _ ->
+                  let w6 =
+                    set_node w4 n { n_op = op; n_src = src; n_others =
+                      others; n_st = st; n_ctl = c }
+                  in
+                  ((app
+                     (flat_map (fun i ->
+                       match nth_error ups i with
+                       | Some pp ->
+                         (match find_ser i entries with
+                          | Some o' -> (SubscribePipe ((snd pp), o')) :: []
+                          | None -> [])
+                       | None -> []) order)
+                     (map (fun x -> Act (n, x)) (init_acts op src others))),
+                  w6))
+             | OTakeLast _ ->
+               let c = w.n_ctls in
+               let n = w.n_nodes in
+               let (ups, order) = plan op src others in
+               let w1 = w_n_ctls (S c) (w_n_nodes (S n) w) in
+               let w2 = set_obs w1 o (set_td (w1.obs o) (Some (TdFin c))) in
+               let (entries, w3) =
+                 fold_left (fun acc pp ->
+                   let (es, wa) = acc in
+                   let ser = length es in
+                   let (o', wb) = alloc_obs wa (THandler (n, (fst pp), ser))
+                   in
+                   ((app es ((ser, o') :: [])), wb)) ups ([], w2)
+               in
+               let w4 =
+                 set_ctl w3 c { c_sub = o; c_uns = entries; c_serial =
+                   (length entries) }
+               in
+               let st = init_state op others in
+               (match op with
+                | OWindow _ ->
+                  let (h, wt) = alloc_subj w4 KSubject None in
+                  let st1 = st_set_subj st h in
+                  let w6 =
+                    set_node wt n { n_op = op; n_src = src; n_others =
+                      others; n_st = st1; n_ctl = c }
+                  in
+                  ((app
+                     (flat_map (fun i ->
+                       match nth_error ups i with
+                       | Some pp ->
+                         (match find_ser i entries with
+                          | Some o' -> (SubscribePipe ((snd pp), o')) :: []
+                          | None -> [])
+                       | None -> []) order)
+                     (map (fun x -> Act (n, x)) (init_acts op src others))),
+                  w6)
+                | OTap t ->
+                  let (ot, wt) = alloc_obs w4 (TTapLog t) in
+                  let st1 = st_set_aux st ot in
+                  let w6 =
+                    set_node wt n { n_op = op; n_src = src; n_others =
+                      others; n_st = st1; n_ctl = c }
+                  in
+                  ((app
+                     (flat_map (fun i ->
+                       match nth_error ups i with
+                       | Some pp ->
+                         (match find_ser i entries with
+                          | Some o' -> (SubscribePipe ((snd pp), o')) :: []
+                          | None -> [])
+                       | None -> []) order)
+                     (map (fun x -> Act (n, x)) (init_acts op src others))),
+                  w6)
+                | _ ->
+                  let w6 =
+                    set_node w4 n { n_op = op; n_src = src; n_others =
+                      others; n_st = st; n_ctl = c }
+                  in
+                  ((app
+                     (flat_map (fun i ->
+                       match nth_error ups i with
+                       | Some pp ->
+                         (match find_ser i entries with
+                          | Some o' -> (SubscribePipe ((snd pp), o')) :: []
+                          | None -> [])
+                       | None -> []) order)
+                     (map (fun x -> Act (n, x)) (init_acts op src others))),
+                  w6))
+             | OSkip _ ->
+               let c = w.n_ctls in
+               let n = w.n_nodes in
+               let (ups, order) = plan op src others in
+               let w1 = w_n_ctls (S c) (w_n_nodes (S n) w) in
+               let w2 = set_obs w1 o (set_td (w1.obs o) (Some (TdFin c))) in
+               let (entries, w3) =
+                 fold_left (fun acc pp ->
+                   let (es, wa) = acc in
+                   let ser = length es in
+                   let (o', wb) = alloc_obs wa (THandler (n, (fst pp), ser))
+                   in
+                   ((app es ((ser, o') :: [])), wb)) ups ([], w2)
+               in
+               let w4 =
+                 set_ctl w3 c { c_sub = o; c_uns = entries; c_serial =
+                   (length entries) }
+               in
+               let st = init_state op others in
+               (match op with
+                | OWindow _ ->
+                  let (h, wt) = alloc_subj w4 KSubject None in
+                  let st1 = st_set_subj st h in
+                  let w6 =
+                    set_node wt n { n_op = op; n_src = src; n_others =
+                      others; n_st = st1; n_ctl = c }
+                  in
+                  ((app
+                     (flat_map (fun i ->
+                       match nth_error ups i with
+                       | Some pp ->
+                         (match find_ser i entries with
+                          | Some o' -> (SubscribePipe ((snd pp), o')) :: []
+                          | None -> [])
+                       | None -> []) order)
+                     (map (fun x -> Act (n, x)) (init_acts op src others))),
+                  w6)
+                | OTap t ->
+                  let (ot, wt) = alloc_obs w4 (TTapLog t) in
+                  let st1 = st_set_aux st ot in
+                  let w6 =
+                    set_node wt n { n_op = op; n_src = src; n_others =
+                      others; n_st = st1; n_ctl = c }
+                  in
+                  ((app
+                     (flat_map (fun i ->
+                       match nth_error ups i with
+                       | Some pp ->
+                         (match find_ser i entries with
+                          | Some o' -> (SubscribePipe ((snd pp), o')) :: []
+                          | None -> [])
+                       | None -> []) order)
+                     (map (fun x -> Act (n, x)) (init_acts op src others))),
+                  w6)
+                | _ ->
+                  let w6 =
+                    set_node w4 n { n_op = op; n_src = src; n_others =
+                      others; n_st = st; n_ctl = c }
+                  in
+                  ((app
+                     (flat_map (fun i ->
+                       match nth_error ups i with
+                       | Some pp ->
+                         (match find_ser i entries with
+                          | Some o' -> (SubscribePipe ((snd pp), o')) :: []
+                          | None -> [])
+                       | None -> []) order)
+                     (map (fun x -> Act (n, x)) (init_acts op src others))),
+                  w6))
+             | OSkipLast _ ->
+               let c = w.n_ctls in
+               let n = w.n_nodes in
+               let (ups, order) = plan op src others in
+               let w1 = w_n_ctls (S c) (w_n_nodes (S n) w) in
+               let w2 = set_obs w1 o (set_td (w1.obs o) (Some (TdFin c))) in
+               let (entries, w3) =
+                 fold_left (fun acc pp ->
+                   let (es, wa) = acc in
+                   let ser = length es in
+                   let (o', wb) = alloc_obs wa (THandler (n, (fst pp), ser))
+                   in
+                   ((app es ((ser, o') :: [])), wb)) ups ([], w2)
+               in
+               let w4 =
+                 set_ctl w3 c { c_sub = o; c_uns = entries; c_serial =
+                   (length entries) }
+               in
+               let st = init_state op others in
+               (match op with
+                | OWindow _ ->
+                  let (h, wt) = alloc_subj w4 KSubject None in
+                  let st1 = st_set_subj st h in
+                  let w6 =
+                    set_node wt n { n_op = op; n_src = src; n_others =
+                      others; n_st = st1; n_ctl = c }
+                  in
+                  ((app
+                     (flat_map (fun i ->
+                       match nth_error ups i with
+                       | Some pp ->
+                         (match find_ser i entries with
+                          | Some o' -> (SubscribePipe ((snd pp), o')) :: []
+                          | None -> [])
+                       | None -> []) order)
+                     (map (fun x -> Act (n, x)) (init_acts op src others))),
+                  w6)
+                | OTap t ->
+                  let (ot, wt) = alloc_obs w4 (TTapLog t) in
+                  let st1 = st_set_aux st ot in
+                  let w6 =
+                    set_node wt n { n_op = op; n_src = src; n_others =
+                      others; n_st = st1; n_ctl = c }
+                  in
+                  ((app
+                     (flat_map (fun i ->
+                       match nth_error ups i with
+                       | Some pp ->
+                         (match find_ser i entries with
+                          | Some o' -> (SubscribePipe ((snd pp), o')) :: []
+                          | None -> [])
+                       | None -> []) order)
+                     (map (fun x -> Act (n, x)) (init_acts op src others))),
+                  w6)
+                | _ ->
+                  let w6 =
+                    set_node w4 n { n_op = op; n_src = src; n_others =
+                      others; n_st = st; n_ctl = c }
+                  in
+                  ((app
+                     (flat_map (fun i ->
+                       match nth_error ups i with
+                       | Some pp ->
+                         (match find_ser i entries with
+                          | Some o' -> (SubscribePipe ((snd pp), o')) :: []
+                          | None -> [])
+                       | None -> []) order)
+                     (map (fun x -> Act (n, x)) (init_acts op src others))),
+                  w6))
+             | OSkipWhile _ ->
+               let c = w.n_ctls in
+               let n = w.n_nodes in
+               let (ups, order) = plan op src others in
+               let w1 = w_n_ctls (S c) (w_n_nodes (S n) w) in
+               let w2 = set_obs w1 o (set_td (w1.obs o) (Some (TdFin c))) in
+               let (entries, w3) =
+                 fold_left (fun acc pp ->
+                   let (es, wa) = acc in
+                   let ser = length es in
+                   let (o', wb) = alloc_obs wa (THandler (n, (fst pp), ser))
+                   in
+                   ((app es ((ser, o') :: [])), wb)) ups ([], w2)
+               in
+               let w4 =
+                 set_ctl w3 c { c_sub = o; c_uns = entries; c_serial =
+                   (length entries) }
+               in
+               let st = init_state op others in
+               (match op with
+                | OWindow _ ->
+                  let (h, wt) = alloc_subj w4 KSubject None in
+                  let st1 = st_set_subj st h in
+                  let w6 =
+                    set_node wt n { n_op = op; n_src = src; n_others =
+                      others; n_st = st1; n_ctl = c }
+                  in
+                  ((app
+                     (flat_map (fun i ->
+                       match nth_error ups i with
+                       | Some pp ->
+                         (match find_ser i entries with
+                          | Some o' -> (SubscribePipe ((snd pp), o')) :: []
+                          | None -> [])
+                       | None -> []) order)
+                     (map (fun x -> Act (n, x)) (init_acts op src others))),
+                  w6)
+                | OTap t ->
+                  let (ot, wt) = alloc_obs w4 (TTapLog t) in
+                  let st1 = st_set_aux st ot in
+                  let w6 =
+                    set_node wt n { n_op = op; n_src = src; n_others =
+                      others; n_st = st1; n_ctl = c }
+                  in
+                  ((app
+                     (flat_map (fun i ->
+                       match nth_error ups i with
+                       | Some pp ->
+                         (match find_ser i entries with
+                          | Some o' -> (SubscribePipe ((snd pp), o')) :: []
+                          | None -> [])
+                       | None -> []) order)
+                     (map (fun x -> Act (n, x)) (init_acts op src others))),
+                  w6)
+                | _ ->
+                  let w6 =
+                    set_node w4 n { n_op = op; n_src = src; n_others =
+                      others; n_st = st; n_ctl = c }
+                  in
+                  ((app
+                     (flat_map (fun i ->
+                       match nth_error ups i with
+                       | Some pp ->
+                         (match find_ser i entries with
+                          | Some o' -> (SubscribePipe ((snd pp), o')) :: []
+                          | None -> [])
+                       | None -> []) order)
+                     (map (fun x -> Act (n, x)) (init_acts op src others))),
+                  w6))
+             | OFirst ->
+               let c = w.n_ctls in
+               let n = w.n_nodes in
+               let (ups, order) = plan op src others in
+               let w1 = w_n_ctls (S c) (w_n_nodes (S n) w) in
+               let w2 = set_obs w1 o (set_td (w1.obs o) (Some (TdFin c))) in
+               let (entries, w3) =
+                 fold_left (fun acc pp ->
+                   let (es, wa) = acc in
+                   let ser = length es in
+                   let (o', wb) = alloc_obs wa (THandler (n, (fst pp), ser))
+                   in
+                   ((app es ((ser, o') :: [])), wb)) ups ([], w2)
+               in
+               let w4 =
+                 set_ctl w3 c { c_sub = o; c_uns = entries; c_serial =
+                   (length entries) }
+               in
+               let st = init_state op others in
+               (match op with
+                | OWindow _ ->
+                  let (h, wt) = alloc_subj w4 KSubject None in
+                  let st1 = st_set_subj st h in
+                  let w6 =
+                    set_node wt n { n_op = op; n_src = src; n_others =
+                      others; n_st = st1; n_ctl = c }
+                  in
+                  ((app
+                     (flat_map (fun i ->
+                       match nth_error ups i with
+                       | Some pp ->
+                         (match find_ser i entries with
+                          | Some o' -> (SubscribePipe ((snd pp), o')) :: []
+                          | None -> [])
+                       | None -> []) order)
+                     (map (fun x -> Act (n, x)) (init_acts op src others))),
+                  w6)
+                | OTap t ->
+                  let (ot, wt) = alloc_obs w4 (TTapLog t) in
+                  let st1 = st_set_aux st ot in
+                  let w6 =
+                    set_node wt n { n_op = op; n_src = src; n_others =
+                      others; n_st = st1; n_ctl = c }
+                  in
+                  ((app
+                     (flat_map (fun i ->
+                       match nth_error ups i with
+                       | Some pp ->
+                         (match find_ser i entries with
+                          | Some o' -> (SubscribePipe ((snd pp), o')) :: []
+                          | None -> [])
+                       | None -> []) order)
+                     (map (fun x -> Act (n, x)) (init_acts op src others))),
+                  w6)
+                | _ ->
+                  let w6 =
+                    set_node w4 n { n_op = op; n_src = src; n_others =
+                      others; n_st = st; n_ctl = c }
+                  in
+                  ((app
+                     (flat_map (fun i ->
+                       match nth_error ups i with
+                       | Some pp ->
+                         (match find_ser i entries with
+                          | Some o' -> (SubscribePipe ((snd pp), o')) :: []
+                          | None -> [])
+                       | None -> []) order)
+                     (map (fun x -> Act (n, x)) (init_acts op src others))),
+                  w6))
+             | OLast ->
+               let c = w.n_ctls in
+               let n = w.n_nodes in
+               let (ups, order) = plan op src others in
+               let w1 = w_n_ctls (S c) (w_n_nodes (S n) w) in
+               let w2 = set_obs w1 o (set_td (w1.obs o) (Some (TdFin c))) in
+               let (entries, w3) =
+                 fold_left (fun acc pp ->
+                   let (es, wa) = acc in
+                   let ser = length es in
+                   let (o', wb) = alloc_obs wa (THandler (n, (fst pp), ser))
+                   in
+                   ((app es ((ser, o') :: [])), wb)) ups ([], w2)
+               in
+               let w4 =
+                 set_ctl w3 c { c_sub = o; c_uns = entries; c_serial =
+                   (length entries) }
+               in
+               let st = init_state op others in
+               (match op with
+                | OWindow _ ->
+                  let (h, wt) = alloc_subj w4 KSubject None in
+                  let st1 = st_set_subj st h in
+                  let w6 =
+                    set_node wt n { n_op = op; n_src = src; n_others =
+                      others; n_st = st1; n_ctl = c }
+                  in
+                  ((app
+                     (flat_map (fun i ->
+                       match nth_error ups i with
+                       | Some pp ->
+                         (match find_ser i entries with
+                          | Some o' -> (SubscribePipe ((snd pp), o')) :: []
+                          | None -> [])
+                       | None -> []) order)
+                     (map (fun x -> Act (n, x)) (init_acts op src others))),
+                  w6)
+                | OTap t ->
+                  let (ot, wt) = alloc_obs w4 (TTapLog t) in
+                  let st1 = st_set_aux st ot in
+                  let w6 =
+                    set_node wt n { n_op = op; n_src = src; n_others =
+                      others; n_st = st1; n_ctl = c }
+                  in
+                  ((app
+                     (flat_map (fun i ->
+                       match nth_error ups i with
+                       | Some pp ->
+                         (match find_ser i entries with
+                          | Some o' -> (SubscribePipe ((snd pp), o')) :: []
+                          | None -> [])
+                       | None -> []) order)
+                     (map (fun x -> Act (n, x)) (init_acts op src others))),
+                  w6)
+                | _ ->
+                  let w6 =
+                    set_node w4 n { n_op = op; n_src = src; n_others =
+                      others; n_st = st; n_ctl = c }
+                  in
+                  ((app
+                     (flat_map (fun i ->
+                       match nth_error ups i with
+                       | Some pp ->
+                         (match find_ser i entries with
+                          | Some o' -> (SubscribePipe ((snd pp), o')) :: []
+                          | None -> [])
+                       | None -> []) order)
+                     (map (fun x -> Act (n, x)) (init_acts op src others))),
+                  w6))
+             | OElementAt _ ->
+               let c = w.n_ctls in
+               let n = w.n_nodes in
+               let (ups, order) = plan op src others in
+               let w1 = w_n_ctls (S c) (w_n_nodes (S n) w) in
+               let w2 = set_obs w1 o (set_td (w1.obs o) (Some (TdFin c))) in
+               let (entries, w3) =
+                 fold_left (fun acc pp ->
+                   let (es, wa) = acc in
+                   let ser = length es in
+                   let (o', wb) = alloc_obs wa (THandler (n, (fst pp), ser))
+                   in
+                   ((app es ((ser, o') :: [])), wb)) ups ([], w2)
+               in
+               let w4 =
+                 set_ctl w3 c { c_sub = o; c_uns = entries; c_serial =
+                   (length entries) }
+               in
+               let st = init_state op others in
+               (match op with
+                | OWindow _ ->
+                  let (h, wt) = alloc_subj w4 KSubject None in
+                  let st1 = st_set_subj st h in
+                  let w6 =
+                    set_node wt n { n_op = op; n_src = src; n_others =
+                      others; n_st = st1; n_ctl = c }
+                  in
+                  ((app
+                     (flat_map (fun i ->
+                       match nth_error ups i with
+                       | Some pp ->
+                         (match find_ser i entries with
+                          | Some o' -> (SubscribePipe ((snd pp), o')) :: []
+                          | None -> [])
+                       | None -> []) order)
+                     (map (fun x -> Act (n, x)) (init_acts op src others))),
+                  w6)
+                | OTap t ->
+                  let (ot, wt) = alloc_obs w4 (TTapLog t) in
+                  let st1 = st_set_aux st ot in
+                  let w6 =
+                    set_node wt n { n_op = op; n_src = src; n_others =
+                      others; n_st = st1; n_ctl = c }
+                  in
+                  ((app
+                     (flat_map (fun i ->
+                       match nth_error ups i with
+                       | Some pp ->
+                         (match find_ser i entries with
+                          | Some o' -> (SubscribePipe ((snd pp), o')) :: []
+                          | None -> [])
+                       | None -> []) order)
+                     (map (fun x -> Act (n, x)) (init_acts op src others))),
+                  w6)
+                | _ ->
+                  let w6 =
+                    set_node w4 n { n_op = op; n_src = src; n_others =
+                      others; n_st = st; n_ctl = c }
+                  in
+                  ((app
+                     (flat_map (fun i ->
+                       match nth_error ups i with
+                       | Some pp ->
+                         (match find_ser i entries with
+                          | Some o' -> (SubscribePipe ((snd pp), o')) :: []
+                          | None -> [])
+                       | None -> []) order)
+                     (map (fun x -> Act (n, x)) (init_acts op src others))),
+                  w6))
+             | ODistinct ->
+               let c = w.n_ctls in
+               let n = w.n_nodes in
+               let (ups, order) = plan op src others in
+               let w1 = w_n_ctls (S c) (w_n_nodes (S n) w) in
+               let w2 = set_obs w1 o (set_td (w1.obs o) (Some (TdFin c))) in
+               let (entries, w3) =
+                 fold_left (fun acc pp ->
+                   let (es, wa) = acc in
+                   let ser = length es in
+                   let (o', wb) = alloc_obs wa (THandler (n, (fst pp), ser))
+                   in
+                   ((app es ((ser, o') :: [])), wb)) ups ([], w2)
+               in
+               let w4 =
+                 set_ctl w3 c { c_sub = o; c_uns = entries; c_serial =
+                   (length entries) }
+               in
+               let st = init_state op others in
+               (match op with
+                | OWindow _ ->
+                  let (h, wt) = alloc_subj w4 KSubject None in
+                  let st1 = st_set_subj st h in
+                  let w6 =
+                    set_node wt n { n_op = op; n_src = src; n_others =
+                      others; n_st = st1; n_ctl = c }
+                  in
+                  ((app
+                     (flat_map (fun i ->
+                       match nth_error ups i with
+                       | Some pp ->
+                         (match find_ser i entries with
+                          | Some o' -> (SubscribePipe ((snd pp), o')) :: []
+                          | None -> [])
+                       | None -> []) order)
+                     (map (fun x -> Act (n, x)) (init_acts op src others))),
+                  w6)
+                | OTap t ->
+                  let (ot, wt) = alloc_obs w4 (TTapLog t) in
+                  let st1 = st_set_aux st ot in
+                  let w6 =
+                    set_node wt n { n_op = op; n_src = src; n_others =
+                      others; n_st = st1; n_ctl = c }
+                  in
+                  ((app
+                     (flat_map (fun i ->
+                       match nth_error ups i with
+                       | Some pp ->
+                         (match find_ser i entries with
+                          | Some o' -> (SubscribePipe ((snd pp), o')) :: []
+                          | None -> [])
+                       | None -> []) order)
+                     (map (fun x -> Act (n, x)) (init_acts op src others))),
+                  w6)
+                | _ ->
+                  let w6 =
+                    set_node w4 n { n_op = op; n_src = src; n_others =
+                      others; n_st = st; n_ctl = c }
+                  in
+                  ((app
+                     (flat_map (fun i ->
+                       match nth_error ups i with
+                       | Some pp ->
+                         (match find_ser i entries with
+                          | Some o' -> (SubscribePipe ((snd pp), o')) :: []
+                          | None -> [])
+                       | None -> []) order)
+                     (map (fun x -> Act (n, x)) (init_acts op src others))),
+                  w6))
+             | OScan _ ->
+               let c = w.n_ctls in
+               let n = w.n_nodes in
+               let (ups, order) = plan op src others in
+               let w1 = w_n_ctls (S c) (w_n_nodes (S n) w) in
+               let w2 = set_obs w1 o (set_td (w1.obs o) (Some (TdFin c))) in
+               let (entries, w3) =
+                 fold_left (fun acc pp ->
+                   let (es, wa) = acc in
+                   let ser = length es in
+                   let (o', wb) = alloc_obs wa (THandler (n, (fst pp), ser))
+                   in
+                   ((app es ((ser, o') :: [])), wb)) ups ([], w2)
+               in
+               let w4 =
+                 set_ctl w3 c { c_sub = o; c_uns = entries; c_serial =
+                   (length entries) }
+               in
+               let st = init_state op others in
+               (match op with
+                | OWindow _ ->
+                  let (h, wt) = alloc_subj w4 KSubject None in
+                  let st1 = st_set_subj st h in
+                  let w6 =
+                    set_node wt n { n_op = op; n_src = src; n_others =
+                      others; n_st = st1; n_ctl = c }
+                  in
+                  ((app
+                     (flat_map (fun i ->
+                       match nth_error ups i with
+                       | Some pp ->
+                         (match find_ser i entries with
+                          | Some o' -> (SubscribePipe ((snd pp), o')) :: []
+                          | None -> [])
+                       | None -> []) order)
+                     (map (fun x -> Act (n, x)) (init_acts op src others))),
+                  w6)
+                | OTap t ->
+                  let (ot, wt) = alloc_obs w4 (TTapLog t) in
+                  let st1 = st_set_aux st ot in
+                  let w6 =
+                    set_node wt n { n_op = op; n_src = src; n_others =
+                      others; n_st = st1; n_ctl = c }
+                  in
+                  ((app
+                     (flat_map (fun i ->
+                       match nth_error ups i with
+                       | Some pp ->
+                         (match find_ser i entries with
+                          | Some o' -> (SubscribePipe ((snd pp), o')) :: []
+                          | None -> [])
+                       | None -> []) order)
+                     (map (fun x -> Act (n, x)) (init_acts op src others))),
+                  w6)
+                | _ ->
+                  let w6 =
+                    set_node w4 n { n_op = op; n_src = src; n_others =
+                      others; n_st = st; n_ctl = c }
+                  in
+                  ((app
+                     (flat_map (fun i ->
+                       match nth_error ups i with
+                       | Some pp ->
+                         (match find_ser i entries with
+                          | Some o' -> (SubscribePipe ((snd pp), o')) :: []
+                          | None -> [])
+                       | None -> []) order)
+                     (map (fun x -> Act (n, x)) (init_acts op src others))),
+                  w6))
+             | OReduce _ ->
+               let c = w.n_ctls in
+               let n = w.n_nodes in
+               let (ups, order) = plan op src others in
+               let w1 = w_n_ctls (S c) (w_n_nodes (S n) w) in
+               let w2 = set_obs w1 o (set_td (w1.obs o) (Some (TdFin c))) in
+               let (entries, w3) =
+                 fold_left (fun acc pp ->
+                   let (es, wa) = acc in
+                   let ser = length es in
+                   let (o', wb) = alloc_obs wa (THandler (n, (fst pp), ser))
+                   in
+                   ((app es ((ser, o') :: [])), wb)) ups ([], w2)
+               in
+               let w4 =
+                 set_ctl w3 c { c_sub = o; c_uns = entries; c_serial =
+                   (length entries) }
+               in
+               let st = init_state op others in
+               (match op with
+                | OWindow _ ->
+                  let (h, wt) = alloc_subj w4 KSubject None in
+                  let st1 = st_set_subj st h in
+                  let w6 =
+                    set_node wt n { n_op = op; n_src = src; n_others =
+                      others; n_st = st1; n_ctl = c }
+                  in
+                  ((app
+                     (flat_map (fun i ->
+                       match nth_error ups i with
+                       | Some pp ->
+                         (match find_ser i entries with
+                          | Some o' -> (SubscribePipe ((snd pp), o')) :: []
+                          | None -> [])
+                       | None -> []) order)
+                     (map (fun x -> Act (n, x)) (init_acts op src others))),
+                  w6)
+                | OTap t ->
+                  let (ot, wt) = alloc_obs w4 (TTapLog t) in
+                  let st1 = st_set_aux st ot in
+                  let w6 =
+                    set_node wt n { n_op = op; n_src = src; n_others =
+                      others; n_st = st1; n_ctl = c }
+                  in
+                  ((app
+                     (flat_map (fun i ->
+                       match nth_error ups i with
+                       | Some pp ->
+                         (match find_ser i entries with
+                          | Some o' -> (SubscribePipe ((snd pp), o')) :: []
+                          | None -> [])
+                       | None -> []) order)
+                     (map (fun x -> Act (n, x)) (init_acts op src others))),
+                  w6)
+                | _ ->
+                  let w6 =
+                    set_node w4 n { n_op = op; n_src = src; n_others =
+                      others; n_st = st; n_ctl = c }
+                  in
+                  ((app
+                     (flat_map (fun i ->
+                       match nth_error ups i with
+                       | Some pp ->
+                         (match find_ser i entries with
+                          | Some o' -> (SubscribePipe ((snd pp), o')) :: []
+                          | None -> [])
+                       | None -> []) order)
+                     (map (fun x -> Act (n, x)) (init_acts op src others))),
+                  w6))
+             | OCount ->
+               let c = w.n_ctls in
+               let n = w.n_nodes in
+               let (ups, order) = plan op src others in
+               let w1 = w_n_ctls (S c) (w_n_nodes (S n) w) in
+               let w2 = set_obs w1 o (set_td (w1.obs o) (Some (TdFin c))) in
+               let (entries, w3) =
+                 fold_left (fun acc pp ->
+                   let (es, wa) = acc in
+                   let ser = length es in
+                   let (o', wb) = alloc_obs wa (THandler (n, (fst pp), ser))
+                   in
+                   ((app es ((ser, o') :: [])), wb)) ups ([], w2)
+               in
+               let w4 =
+                 set_ctl w3 c { c_sub = o; c_uns = entries; c_serial =
+                   (length entries) }
+               in
+               let st = init_state op others in
+               (match op with
+                | OWindow _ ->
+                  let (h, wt) = alloc_subj w4 KSubject None in
+                  let st1 = st_set_subj st h in
+                  let w6 =
+                    set_node wt n { n_op = op; n_src = src; n_others =
+                      others; n_st = st1; n_ctl = c }
+                  in
+                  ((app
+                     (flat_map (fun i ->
+                       match nth_error ups i with
+                       | Some pp ->
+                         (match find_ser i entries with
+                          | Some o' -> (SubscribePipe ((snd pp), o')) :: []
+                          | None -> [])
+                       | None -> []) order)
+                     (map (fun x -> Act (n, x)) (init_acts op src others))),
+                  w6)
+                | OTap t ->
+                  let (ot, wt) = alloc_obs w4 (TTapLog t) in
+                  let st1 = st_set_aux st ot in
+                  let w6 =
+                    set_node wt n { n_op = op; n_src = src; n_others =
+                      others; n_st = st1; n_ctl = c }
+                  in
+                  ((app
+                     (flat_map (fun i ->
+                       match nth_error ups i with
+                       | Some pp ->
+                         (match find_ser i entries with
+                          | Some o' -> (SubscribePipe ((snd pp), o')) :: []
+                          | None -> [])
+                       | None -> []) order)
+                     (map (fun x -> Act (n, x)) (init_acts op src others))),
+                  w6)
+                | _ ->
+                  let w6 =
+                    set_node w4 n { n_op = op; n_src = src; n_others =
+                      others; n_st = st; n_ctl = c }
+                  in
+                  ((app
+                     (flat_map (fun i ->
+                       match nth_error ups i with
+                       | Some pp ->
+                         (match find_ser i entries with
+                          | Some o' -> (SubscribePipe ((snd pp), o')) :: []
+                          | None -> [])
+                       | None -> []) order)
+                     (map (fun x -> Act (n, x)) (init_acts op src others))),
+                  w6))
+             | OSum ->
+               let c = w.n_ctls in
+               let n = w.n_nodes in
+               let (ups, order) = plan op src others in
+               let w1 = w_n_ctls (S c) (w_n_nodes (S n) w) in
+               let w2 = set_obs w1 o (set_td (w1.obs o) (Some (TdFin c))) in
+               let (entries, w3) =
+                 fold_left (fun acc pp ->
+                   let (es, wa) = acc in
+                   let ser = length es in
+                   let (o', wb) = alloc_obs wa (THandler (n, (fst pp), ser))
+                   in
+                   ((app es ((ser, o') :: [])), wb)) ups ([], w2)
+               in
+               let w4 =
+                 set_ctl w3 c { c_sub = o; c_uns = entries; c_serial =
+                   (length entries) }
+               in
+               let st = init_state op others in
+               (match op with
+                | OWindow _ ->
+                  let (h, wt) = alloc_subj w4 KSubject None in
+                  let st1 = st_set_subj st h in
+                  let w6 =
+                    set_node wt n { n_op = op; n_src = src; n_others =
+                      others; n_st = st1; n_ctl = c }
+                  in
+                  ((app
+                     (flat_map (fun i ->
+                       match nth_error ups i with
+                       | Some pp ->
+                         (match find_ser i entries with
+                          | Some o' -> (SubscribePipe ((snd pp), o')) :: []
+                          | None -> [])
+                       | None -> []) order)
+                     (map (fun x -> Act (n, x)) (init_acts op src others))),
+                  w6)
+                | OTap t ->
+                  let (ot, wt) = alloc_obs w4 (TTapLog t) in
+                  let st1 = st_set_aux st ot in
+                  let w6 =
+                    set_node wt n { n_op = op; n_src = src; n_others =
+                      others; n_st = st1; n_ctl = c }
+                  in
+                  ((app
+                     (flat_map (fun i ->
+                       match nth_error ups i with
+                       | Some pp ->
+                         (match find_ser i entries with
+                          | Some o' -> (SubscribePipe ((snd pp), o')) :: []
+                          | None -> [])
+                       | None -> []) order)
+                     (map (fun x -> Act (n, x)) (init_acts op src others))),
+                  w6)
+                | _ ->
+                  let w6 =
+                    set_node w4 n { n_op = op; n_src = src; n_others =
+                      others; n_st = st; n_ctl = c }
+                  in
+                  ((app
+                     (flat_map (fun i ->
+                       match nth_error ups i with
+                       | Some pp ->
+                         (match find_ser i entries with
+                          | Some o' -> (SubscribePipe ((snd pp), o')) :: []
+                          | None -> [])
+                       | None -> []) order)
+                     (map (fun x -> Act (n, x)) (init_acts op src others))),
+                  w6))
+             | OSumAndCount ->
+               let c = w.n_ctls in
+               let n = w.n_nodes in
+               let (ups, order) = plan op src others in
+               let w1 = w_n_ctls (S c) (w_n_nodes (S n) w) in
+               let w2 = set_obs w1 o (set_td (w1.obs o) (Some (TdFin c))) in
+               let (entries, w3) =
+                 fold_left (fun acc pp ->
+                   let (es, wa) = acc in
+                   let ser = length es in
+                   let (o', wb) = alloc_obs wa (THandler (n, (fst pp), ser))
+                   in
+                   ((app es ((ser, o') :: [])), wb)) ups ([], w2)
+               in
+               let w4 =
+                 set_ctl w3 c { c_sub = o; c_uns = entries; c_serial =
+                   (length entries) }
+               in
+               let st = init_state op others in
+               (match op with
+                | OWindow _ ->
+                  let (h, wt) = alloc_subj w4 KSubject None in
+                  let st1 = st_set_subj st h in
+                  let w6 =
+                    set_node wt n { n_op = op; n_src = src; n_others =
+                      others; n_st = st1; n_ctl = c }
+                  in
+                  ((app
+                     (flat_map (fun i ->
+                       match nth_error ups i with
+                       | Some pp ->
+                         (match find_ser i entries with
+                          | Some o' -> (SubscribePipe ((snd pp), o')) :: []
+                          | None -> [])
+                       | None -> []) order)
+                     (map (fun x -> Act (n, x)) (init_acts op src others))),
+                  w6)
+                | OTap t ->
+                  let (ot, wt) = alloc_obs w4 (TTapLog t) in
+                  let st1 = st_set_aux st ot in
+                  let w6 =
+                    set_node wt n { n_op = op; n_src = src; n_others =
+                      others; n_st = st1; n_ctl = c }
+                  in
+                  ((app
+                     (flat_map (fun i ->
+                       match nth_error ups i with
+                       | Some pp ->
+                         (match find_ser i entries with
+                          | Some o' -> (SubscribePipe ((snd pp), o')) :: []
+                          | None -> [])
+                       | None -> []) order)
+                     (map (fun x -> Act (n, x)) (init_acts op src others))),
+                  w6)
+                | _ ->
+                  let w6 =
+                    set_node w4 n { n_op = op; n_src = src; n_others =
+                      others; n_st = st; n_ctl = c }
+                  in
+                  ((app
+                     (flat_map (fun i ->
+                       match nth_error ups i with
+                       | Some pp ->
+                         (match find_ser i entries with
+                          | Some o' -> (SubscribePipe ((snd pp), o')) :: []
+                          | None -> [])
+                       | None -> []) order)
+                     (map (fun x -> Act (n, x)) (init_acts op src others))),
+                  w6))
+             | OMin ->
+               let c = w.n_ctls in
+               let n = w.n_nodes in
+               let (ups, order) = plan op src others in
+               let w1 = w_n_ctls (S c) (w_n_nodes (S n) w) in
+               let w2 = set_obs w1 o (set_td (w1.obs o) (Some (TdFin c))) in
+               let (entries, w3) =
+                 fold_left (fun acc pp ->
+                   let (es, wa) = acc in
+                   let ser = length es in
+                   let (o', wb) = alloc_obs wa (THandler (n, (fst pp), ser))
+                   in
+                   ((app es ((ser, o') :: [])), wb)) ups ([], w2)
+               in
+               let w4 =
+                 set_ctl w3 c { c_sub = o; c_uns = entries; c_serial =
+                   (length entries) }
+               in
+               let st = init_state op others in
+               (match op with
+                | OWindow _ ->
+                  let (h, wt) = alloc_subj w4 KSubject None in
+                  let st1 = st_set_subj st h in
+                  let w6 =
+                    set_node wt n { n_op = op; n_src = src; n_others =
+                      others; n_st = st1; n_ctl = c }
+                  in
+                  ((app
+                     (flat_map (fun i ->
+                       match nth_error ups i with
+                       | Some pp ->
+                         (match find_ser i entries with
+                          | Some o' -> (SubscribePipe ((snd pp), o')) :: []
+                          | None -> [])
+                       | None -> []) order)
+                     (map (fun x -> Act (n, x)) (init_acts op src others))),
+                  w6)
+                | OTap t ->
+                  let (ot, wt) = alloc_obs w4 (TTapLog t) in
+                  let st1 = st_set_aux st ot in
+                  let w6 =
+                    set_node wt n { n_op = op; n_src = src; n_others =
+                      others; n_st = st1; n_ctl = c }
+                  in
+                  ((app
+                     (flat_map (fun i ->
+                       match nth_error ups i with
+                       | Some pp ->
+                         (match find_ser i entries with
+                          | Some o' -> (SubscribePipe ((snd pp), o')) :: []
+                          | None -> [])
+                       | None -> []) order)
+                     (map (fun x -> Act (n, x)) (init_acts op src others))),
+                  w6)
+                | _ ->
+                  let w6 =
+                    set_node w4 n { n_op = op; n_src = src; n_others =
+                      others; n_st = st; n_ctl = c }
+                  in
+                  ((app
+                     (flat_map (fun i ->
+                       match nth_error ups i with
+                       | Some pp ->
+                         (match find_ser i entries with
+                          | Some o' -> (SubscribePipe ((snd pp), o')) :: []
+                          | None -> [])
+                       | None -> []) order)
+                     (map (fun x -> Act (n, x)) (init_acts op src others))),
+                  w6))
+             | OMax ->
+               let c = w.n_ctls in
+               let n = w.n_nodes in
+               let (ups, order) = plan op src others in
+               let w1 = w_n_ctls (S c) (w_n_nodes (S n) w) in
+               let w2 = set_obs w1 o (set_td (w1.obs o) (Some (TdFin c))) in
+               let (entries, w3) =
+                 fold_left (fun acc pp ->
+                   let (es, wa) = acc in
+                   let ser = length es in
+                   let (o', wb) = alloc_obs wa (THandler (n, (fst pp), ser))
+                   in
+                   ((app es ((ser, o') :: [])), wb)) ups ([], w2)
+               in
+               let w4 =
+                 set_ctl w3 c { c_sub = o; c_uns = entries; c_serial =
+                   (length entries) }
+               in
+               let st = init_state op others in
+               (match op with
+                | OWindow _ ->
+                  let (h, wt) = alloc_subj w4 KSubject None in
+                  let st1 = st_set_subj st h in
+                  let w6 =
+                    set_node wt n { n_op = op; n_src = src; n_others =
+                      others; n_st = st1; n_ctl = c }
+                  in
+                  ((app
+                     (flat_map (fun i ->
+                       match nth_error ups i with
+                       | Some pp ->
+                         (match find_ser i entries with
+                          | Some o' -> (SubscribePipe ((snd pp), o')) :: []
+                          | None -> [])
+                       | None -> []) order)
+                     (map (fun x -> Act (n, x)) (init_acts op src others))),
+                  w6)
+                | OTap t ->
+                  let (ot, wt) = alloc_obs w4 (TTapLog t) in
+                  let st1 = st_set_aux st ot in
+                  let w6 =
+                    set_node wt n { n_op = op; n_src = src; n_others =
+                      others; n_st = st1; n_ctl = c }
+                  in
+                  ((app
+                     (flat_map (fun i ->
+                       match nth_error ups i with
+                       | Some pp ->
+                         (match find_ser i entries with
+                          | Some o' -> (SubscribePipe ((snd pp), o')) :: []
+                          | None -> [])
+                       | None -> []) order)
+                     (map (fun x -> Act (n, x)) (init_acts op src others))),
+                  w6)
+                | _ ->
+                  let w6 =
+                    set_node w4 n { n_op = op; n_src = src; n_others =
+                      others; n_st = st; n_ctl = c }
+                  in
+                  ((app
+                     (flat_map (fun i ->
+                       match nth_error ups i with
+                       | Some pp ->
+                         (match find_ser i entries with
+                          | Some o' -> (SubscribePipe ((snd pp), o')) :: []
+                          | None -> [])
+                       | None -> []) order)
+                     (map (fun x -> Act (n, x)) (init_acts op src others))),
+                  w6))
+             | OAll _ ->
+               let c = w.n_ctls in
+               let n = w.n_nodes in
+               let (ups, order) = plan op src others in
+               let w1 = w_n_ctls (S c) (w_n_nodes (S n) w) in
+               let w2 = set_obs w1 o (set_td (w1.obs o) (Some (TdFin c))) in
+               let (entries, w3) =
+                 fold_left (fun acc pp ->
+                   let (es, wa) = acc in
+                   let ser = length es in
+                   let (o', wb) = alloc_obs wa (THandler (n, (fst pp), ser))
+                   in
+                   ((app es ((ser, o') :: [])), wb)) ups ([], w2)
+               in
+               let w4 =
+                 set_ctl w3 c { c_sub = o; c_uns = entries; c_serial =
+                   (length entries) }
+               in
+               let st = init_state op others in
+               (match op with
+                | OWindow _ ->
+                  let (h, wt) = alloc_subj w4 KSubject None in
+                  let st1 = st_set_subj st h in
+                  let w6 =
+                    set_node wt n { n_op = op; n_src = src; n_others =
+                      others; n_st = st1; n_ctl = c }
+                  in
+                  ((app
+                     (flat_map (fun i ->
+                       match nth_error ups i with
+                       | Some pp ->
+                         (match find_ser i entries with
+                          | Some o' -> (SubscribePipe ((snd pp), o')) :: []
+                          | None -> [])
+                       | None -> []) order)
+                     (map (fun x -> Act (n, x)) (init_acts op src others))),
+                  w6)
+                | OTap t ->
+                  let (ot, wt) = alloc_obs w4 (TTapLog t) in
+                  let st1 = st_set_aux st ot in
+                  let w6 =
+                    set_node wt n { n_op = op; n_src = src; n_others =
+                      others; n_st = st1; n_ctl = c }
+                  in
+                  ((app
+                     (flat_map (fun i ->
+                       match nth_error ups i with
+                       | Some pp ->
+                         (match find_ser i entries with
+                          | Some o' -> (SubscribePipe ((snd pp), o')) :: []
+                          | None -> [])
+                       | None -> []) order)
+                     (map (fun x -> Act (n, x)) (init_acts op src others))),
+                  w6)
+                | _ ->
+                  let w6 =
+                    set_node w4 n { n_op = op; n_src = src; n_others =
+                      others; n_st = st; n_ctl = c }
+                  in
+                  ((app
+                     (flat_map (fun i ->
+                       match nth_error ups i with
+                       | Some pp ->
+                         (match find_ser i entries with
+                          | Some o' -> (SubscribePipe ((snd pp), o')) :: []
+                          | None -> [])
+                       | None -> []) order)
+                     (map (fun x -> Act (n, x)) (init_acts op src others))),
+                  w6))
+             | OContains _ ->
+               let c = w.n_ctls in
+               let n = w.n_nodes in
+               let (ups, order) = plan op src others in
+               let w1 = w_n_ctls (S c) (w_n_nodes (S n) w) in
+               let w2 = set_obs w1 o (set_td (w1.obs o) (Some (TdFin c))) in
+               let (entries, w3) =
+                 fold_left (fun acc pp ->
+                   let (es, wa) = acc in
+                   let ser = length es in
+                   let (o', wb) = alloc_obs wa (THandler (n, (fst pp), ser))
+                   in
+                   ((app es ((ser, o') :: [])), wb)) ups ([], w2)
+               in
+               let w4 =
+                 set_ctl w3 c { c_sub = o; c_uns = entries; c_serial =
+                   (length entries) }
+               in
+               let st = init_state op others in
+               (match op with
+                | OWindow _ ->
+                  let (h, wt) = alloc_subj w4 KSubject None in
+                  let st1 = st_set_subj st h in
+                  let w6 =
+                    set_node wt n { n_op = op; n_src = src; n_others =
+                      others; n_st = st1; n_ctl = c }
+                  in
+                  ((app
+                     (flat_map (fun i ->
+                       match nth_error ups i with
+                       | Some pp ->
+                         (match find_ser i entries with
+                          | Some o' -> (SubscribePipe ((snd pp), o')) :: []
+                          | None -> [])
+                       | None -> []) order)
+                     (map (fun x -> Act (n, x)) (init_acts op src others))),
+                  w6)
+                | OTap t ->
+                  let (ot, wt) = alloc_obs w4 (TTapLog t) in
+                  let st1 = st_set_aux st ot in
+                  let w6 =
+                    set_node wt n { n_op = op; n_src = src; n_others =
+                      others; n_st = st1; n_ctl = c }
+                  in
+                  ((app
+                     (flat_map (fun i ->
+                       match nth_error ups i with
+                       | Some pp ->
+                         (match find_ser i entries with
+                          | Some o' -> (SubscribePipe ((snd pp), o')) :: []
+                          | None -> [])
+                       | None -> []) order)
+                     (map (fun x -> Act (n, x)) (init_acts op src others))),
+                  w6)
+                | _ ->
+                  let w6 =
+                    set_node w4 n { n_op = op; n_src = src; n_others =
+                      others; n_st = st; n_ctl = c }
+                  in
+                  ((app
+                     (flat_map (fun i ->
+                       match nth_error ups i with
+                       | Some pp ->
+                         (match find_ser i entries with
+                          | Some o' -> (SubscribePipe ((snd pp), o')) :: []
+                          | None -> [])
+                       | None -> []) order)
+                     (map (fun x -> Act (n, x)) (init_acts op src others))),
+                  w6))
+             | ODefaultIfEmpty _ ->
+               let c = w.n_ctls in
+               let n = w.n_nodes in
+               let (ups, order) = plan op src others in
+               let w1 = w_n_ctls (S c) (w_n_nodes (S n) w) in
+               let w2 = set_obs w1 o (set_td (w1.obs o) (Some (TdFin c))) in
+               let (entries, w3) =
+                 fold_left (fun acc pp ->
+                   let (es, wa) = acc in
+                   let ser = length es in
+                   let (o', wb) = alloc_obs wa (THandler (n, (fst pp), ser))
+                   in
+                   ((app es ((ser, o') :: [])), wb)) ups ([], w2)
+               in
+               let w4 =
+                 set_ctl w3 c { c_sub = o; c_uns = entries; c_serial =
+                   (length entries) }
+               in
+               let st = init_state op others in
+               (match op with
+                | OWindow _ ->
+                  let (h, wt) = alloc_subj w4 KSubject None in
+                  let st1 = st_set_subj st h in
+                  let w6 =
+                    set_node wt n { n_op = op; n_src = src; n_others =
+                      others; n_st = st1; n_ctl = c }
+                  in
+                  ((app
+                     (flat_map (fun i ->
+                       match nth_error ups i with
+                       | Some pp ->
+                         (match find_ser i entries with
+                          | Some o' -> (SubscribePipe ((snd pp), o')) :: []
+                          | None -> [])
+                       | None -> []) order)
+                     (map (fun x -> Act (n, x)) (init_acts op src others))),
+                  w6)
+                | OTap t ->
+                  let (ot, wt) = alloc_obs w4 (TTapLog t) in
+                  let st1 = st_set_aux st ot in
+                  let w6 =
+                    set_node wt n { n_op = op; n_src = src; n_others =
+                      others; n_st = st1; n_ctl = c }
+                  in
+                  ((app
+                     (flat_map (fun i ->
+                       match nth_error ups i with
+                       | Some pp ->
+                         (match find_ser i entries with
+                          | Some o' -> (SubscribePipe ((snd pp), o')) :: []
+                          | None -> [])
+                       | None -> []) order)
+                     (map (fun x -> Act (n, x)) (init_acts op src others))),
+                  w6)
+                | _ ->
+                  let w6 =
+                    set_node w4 n { n_op = op; n_src = src; n_others =
+                      others; n_st = st; n_ctl = c }
+                  in
+                  ((app
+                     (flat_map (fun i ->
+                       match nth_error ups i with
+                       | Some pp ->
+                         (match find_ser i entries with
+                          | Some o' -> (SubscribePipe ((snd pp), o')) :: []
+                          | None -> [])
+                       | None -> []) order)
+                     (map (fun x -> Act (n, x)) (init_acts op src others))),
+                  w6))
+             | OIgnore ->
+               let c = w.n_ctls in
+               let n = w.n_nodes in
+               let (ups, order) = plan op src others in
+               let w1 = w_n_ctls (S c) (w_n_nodes (S n) w) in
+               let w2 = set_obs w1 o (set_td (w1.obs o) (Some (TdFin c))) in
+               let (entries, w3) =
+                 fold_left (fun acc pp ->
+                   let (es, wa) = acc in
+                   let ser = length es in
+                   let (o', wb) = alloc_obs wa (THandler (n, (fst pp), ser))
+                   in
+                   ((app es ((ser, o') :: [])), wb)) ups ([], w2)
+               in
+               let w4 =
+                 set_ctl w3 c { c_sub = o; c_uns = entries; c_serial =
+                   (length entries) }
+               in
+               let st = init_state op others in
+               (match op with
+                | OWindow _ ->
+                  let (h, wt) = alloc_subj w4 KSubject None in
+                  let st1 = st_set_subj st h in
+                  let w6 =
+                    set_node wt n { n_op = op; n_src = src; n_others =
+                      others; n_st = st1; n_ctl = c }
+                  in
+                  ((app
+                     (flat_map (fun i ->
+                       match nth_error ups i with
+                       | Some pp ->
+                         (match find_ser i entries with
+                          | Some o' -> (SubscribePipe ((snd pp), o')) :: []
+                          | None -> [])
+                       | None -> []) order)
+                     (map (fun x -> Act (n, x)) (init_acts op src others))),
+                  w6)
+                | OTap t ->
+                  let (ot, wt) = alloc_obs w4 (TTapLog t) in
+                  let st1 = st_set_aux st ot in
+                  let w6 =
+                    set_node wt n { n_op = op; n_src = src; n_others =
+                      others; n_st = st1; n_ctl = c }
+                  in
+                  ((app
+                     (flat_map (fun i ->
+                       match nth_error ups i with
+                       | Some pp ->
+                         (match find_ser i entries with
+                          | Some o' -> (SubscribePipe ((snd pp), o')) :: []
+                          | None -> [])
+                       | None -> []) order)
+                     (map (fun x -> Act (n, x)) (init_acts op src others))),
+                  w6)
+                | _ ->
+                  let w6 =
+                    set_node w4 n { n_op = op; n_src = src; n_others =
+                      others; n_st = st; n_ctl = c }
+                  in
+                  ((app
+                     (flat_map (fun i ->
+                       match nth_error ups i with
+                       | Some pp ->
+                         (match find_ser i entries with
+                          | Some o' -> (SubscribePipe ((snd pp), o')) :: []
+                          | None -> [])
+                       | None -> []) order)
+                     (map (fun x -> Act (n, x)) (init_acts op src others))),
+                  w6))
+             | OStartWith l -> (((StartWith (o, l, src)) :: []), w)
+             | OBuffer _ ->
+               let c = w.n_ctls in
+               let n = w.n_nodes in
+               let (ups, order) = plan op src others in
+               let w1 = w_n_ctls (S c) (w_n_nodes (S n) w) in
+               let w2 = set_obs w1 o (set_td (w1.obs o) (Some (TdFin c))) in
+               let (entries, w3) =
+                 fold_left (fun acc pp ->
+                   let (es, wa) = acc in
+                   let ser = length es in
+                   let (o', wb) = alloc_obs wa (THandler (n, (fst pp), ser))
+                   in
+                   ((app es ((ser, o') :: [])), wb)) ups ([], w2)
+               in
+               let w4 =
+                 set_ctl w3 c { c_sub = o; c_uns = entries; c_serial =
+                   (length entries) }
+               in
+               let st = init_state op others in
+               (match op with
+                | OWindow _ ->
+                  let (h, wt) = alloc_subj w4 KSubject None in
+                  let st1 = st_set_subj st h in
+                  let w6 =
+                    set_node wt n { n_op = op; n_src = src; n_others =
+                      others; n_st = st1; n_ctl = c }
+                  in
+                  ((app
+                     (flat_map (fun i ->
+                       match nth_error ups i with
+                       | Some pp ->
+                         (match find_ser i entries with
+                          | Some o' -> (SubscribePipe ((snd pp), o')) :: []
+                          | None -> [])
+                       | None -> []) order)
+                     (map (fun x -> Act (n, x)) (init_acts op src others))),
+                  w6)
+                | OTap t ->
+                  let (ot, wt) = alloc_obs w4 (TTapLog t) in
+                  let st1 = st_set_aux st ot in
+                  let w6 =
+                    set_node wt n { n_op = op; n_src = src; n_others =
+                      others; n_st = st1; n_ctl = c }
+                  in
+                  ((app
+                     (flat_map (fun i ->
+                       match nth_error ups i with
+                       | Some pp ->
+                         (match find_ser i entries with
+                          | Some o' -> (SubscribePipe ((snd pp), o')) :: []
+                          | None -> [])
+                       | None -> []) order)
+                     (map (fun x -> Act (n, x)) (init_acts op src others))),
+                  w6)
+                | _ ->
+                  let w6 =
+                    set_node w4 n { n_op = op; n_src = src; n_others =
+                      others; n_st = st; n_ctl = c }
+                  in
+                  ((app
+                     (flat_map (fun i ->
+                       match nth_error ups i with
+                       | Some pp ->
+                         (match find_ser i entries with
+                          | Some o' -> (SubscribePipe ((snd pp), o')) :: []
+                          | None -> [])
+                       | None -> []) order)
+                     (map (fun x -> Act (n, x)) (init_acts op src others))),
+                  w6))
+             | OWindow _ ->
+               let c = w.n_ctls in
+               let n = w.n_nodes in
+               let (ups, order) = plan op src others in
+               let w1 = w_n_ctls (S c) (w_n_nodes (S n) w) in
+               let w2 = set_obs w1 o (set_td (w1.obs o) (Some (TdFin c))) in
+               let (entries, w3) =
+                 fold_left (fun acc pp ->
+                   let (es, wa) = acc in
+                   let ser = length es in
+                   let (o', wb) = alloc_obs wa (THandler (n, (fst pp), ser))
+                   in
+                   ((app es ((ser, o') :: [])), wb)) ups ([], w2)
+               in
+               let w4 =
+                 set_ctl w3 c { c_sub = o; c_uns = entries; c_serial =
+                   (length entries) }
+               in
+               let st = init_state op others in
+               (match op with
+                | OWindow _ ->
+                  let (h, wt) = alloc_subj w4 KSubject None in
+                  let st1 = st_set_subj st h in
+                  let w6 =
+                    set_node wt n { n_op = op; n_src = src; n_others =
+                      others; n_st = st1; n_ctl = c }
+                  in
+                  ((app
+                     (flat_map (fun i ->
+                       match nth_error ups i with
+                       | Some pp ->
+                         (match find_ser i entries with
+                          | Some o' -> (SubscribePipe ((snd pp), o')) :: []
+                          | None -> [])
+                       | None -> []) order)
+                     (map (fun x -> Act (n, x)) (init_acts op src others))),
+                  w6)
+                | OTap t ->
+                  let (ot, wt) = alloc_obs w4 (TTapLog t) in
+                  let st1 = st_set_aux st ot in
+                  let w6 =
+                    set_node wt n { n_op = op; n_src = src; n_others =
+                      others; n_st = st1; n_ctl = c }
+                  in
+                  ((app
+                     (flat_map (fun i ->
+                       match nth_error ups i with
+                       | Some pp ->
+                         (match find_ser i entries with
+                          | Some o' -> (SubscribePipe ((snd pp), o')) :: []
+                          | None -> [])
+                       | None -> []) order)
+                     (map (fun x -> Act (n, x)) (init_acts op src others))),
+                  w6)
+                | _ ->
+                  let w6 =
+                    set_node w4 n { n_op = op; n_src = src; n_others =
+                      others; n_st = st; n_ctl = c }
+                  in
+                  ((app
+                     (flat_map (fun i ->
+                       match nth_error ups i with
+                       | Some pp ->
+                         (match find_ser i entries with
+                          | Some o' -> (SubscribePipe ((snd pp), o')) :: []
+                          | None -> [])
+                       | None -> []) order)
+                     (map (fun x -> Act (n, x)) (init_acts op src others))),
+                  w6))
+             | OGroupBy _ ->
+               let c = w.n_ctls in
+               let n = w.n_nodes in
+               let (ups, order) = plan op src others in
+               let w1 = w_n_ctls (S c) (w_n_nodes (S n) w) in
+               let w2 = set_obs w1 o (set_td (w1.obs o) (Some (TdFin c))) in
+               let (entries, w3) =
+                 fold_left (fun acc pp ->
+                   let (es, wa) = acc in
+                   let ser = length es in
+                   let (o', wb) = alloc_obs wa (THandler (n, (fst pp), ser))
+                   in
+                   ((app es ((ser, o') :: [])), wb)) ups ([], w2)
+               in
+               let w4 =
+                 set_ctl w3 c { c_sub = o; c_uns = entries; c_serial =
+                   (length entries) }
+               in
+               let st = init_state op others in
+               (match op with
+                | OWindow _ ->
+                  let (h, wt) = alloc_subj w4 KSubject None in
+                  let st1 = st_set_subj st h in
+                  let w6 =
+                    set_node wt n { n_op = op; n_src = src; n_others =
+                      others; n_st = st1; n_ctl = c }
+                  in
+                  ((app
+                     (flat_map (fun i ->
+                       match nth_error ups i with
+                       | Some pp ->
+                         (match find_ser i entries with
+                          | Some o' -> (SubscribePipe ((snd pp), o')) :: []
+                          | None -> [])
+                       | None -> []) order)
+                     (map (fun x -> Act (n, x)) (init_acts op src others))),
+                  w6)
+                | OTap t ->
+                  let (ot, wt) = alloc_obs w4 (TTapLog t) in
+                  let st1 = st_set_aux st ot in
+                  let w6 =
+                    set_node wt n { n_op = op; n_src = src; n_others =
+                      others; n_st = st1; n_ctl = c }
+                  in
+                  ((app
+                     (flat_map (fun i ->
+                       match nth_error ups i with
+                       | Some pp ->
+                         (match find_ser i entries with
+                          | Some o' -> (SubscribePipe ((snd pp), o')) :: []
+                          | None -> [])
+                       | None -> []) order)
+                     (map (fun x -> Act (n, x)) (init_acts op src others))),
+                  w6)
+                | _ ->
+                  let w6 =
+                    set_node w4 n { n_op = op; n_src = src; n_others =
+                      others; n_st = st; n_ctl = c }
+                  in
+                  ((app
+                     (flat_map (fun i ->
+                       match nth_error ups i with
+                       | Some pp ->
+                         (match find_ser i entries with
+                          | Some o' -> (SubscribePipe ((snd pp), o')) :: []
+                          | None -> [])
+                       | None -> []) order)
+                     (map (fun x -> Act (n, x)) (init_acts op src others))),
+                  w6))
+             | OMaterialize ->
+               let c = w.n_ctls in
+               let n = w.n_nodes in
+               let (ups, order) = plan op src others in
+               let w1 = w_n_ctls (S c) (w_n_nodes (S n) w) in
+               let w2 = set_obs w1 o (set_td (w1.obs o) (Some (TdFin c))) in
+               let (entries, w3) =
+                 fold_left (fun acc pp ->
+                   let (es, wa) = acc in
+                   let ser = length es in
+                   let (o', wb) = alloc_obs wa (THandler (n, (fst pp), ser))
+                   in
+                   ((app es ((ser, o') :: [])), wb)) ups ([], w2)
+               in
+               let w4 =
+                 set_ctl w3 c { c_sub = o; c_uns = entries; c_serial =
+                   (length entries) }
+               in
+               let st = init_state op others in
+               (match op with
+                | OWindow _ ->
+                  let (h, wt) = alloc_subj w4 KSubject None in
+                  let st1 = st_set_subj st h in
+                  let w6 =
+                    set_node wt n { n_op = op; n_src = src; n_others =
+                      others; n_st = st1; n_ctl = c }
+                  in
+                  ((app
+                     (flat_map (fun i ->
+                       match nth_error ups i with
+                       | Some pp ->
+                         (match find_ser i entries with
+                          | Some o' -> (SubscribePipe ((snd pp), o')) :: []
+                          | None -> [])
+                       | None -> []) order)
+                     (map (fun x -> Act (n, x)) (init_acts op src others))),
+                  w6)
+                | OTap t ->
+                  let (ot, wt) = alloc_obs w4 (TTapLog t) in
+                  let st1 = st_set_aux st ot in
+                  let w6 =
+                    set_node wt n { n_op = op; n_src = src; n_others =
+                      others; n_st = st1; n_ctl = c }
+                  in
+                  ((app
+                     (flat_map (fun i ->
+                       match nth_error ups i with
+                       | Some pp ->
+                         (match find_ser i entries with
+                          | Some o' -> (SubscribePipe ((snd pp), o')) :: []
+                          | None -> [])
+                       | None -> []) order)
+                     (map (fun x -> Act (n, x)) (init_acts op src others))),
+                  w6)
+                | _ ->
+                  let w6 =
+                    set_node w4 n { n_op = op; n_src = src; n_others =
+                      others; n_st = st; n_ctl = c }
+                  in
+                  ((app
+                     (flat_map (fun i ->
+                       match nth_error ups i with
+                       | Some pp ->
+                         (match find_ser i entries with
+                          | Some o' -> (SubscribePipe ((snd pp), o')) :: []
+                          | None -> [])
+                       | None -> []) order)
+                     (map (fun x -> Act (n, x)) (init_acts op src others))),
+                  w6))
+             | ODematerialize ->
+               let c = w.n_ctls in
+               let n = w.n_nodes in
+               let (ups, order) = plan op src others in
+               let w1 = w_n_ctls (S c) (w_n_nodes (S n) w) in
+               let w2 = set_obs w1 o (set_td (w1.obs o) (Some (TdFin c))) in
+               let (entries, w3) =
+                 fold_left (fun acc pp ->
+                   let (es, wa) = acc in
+                   let ser = length es in
+                   let (o', wb) = alloc_obs wa (THandler (n, (fst pp), ser))
+                   in
+                   ((app es ((ser, o') :: [])), wb)) ups ([], w2)
+               in
+               let w4 =
+                 set_ctl w3 c { c_sub = o; c_uns = entries; c_serial =
+                   (length entries) }
+               in
+               let st = init_state op others in
+               (match op with
+                | OWindow _ ->
+                  let (h, wt) = alloc_subj w4 KSubject None in
+                  let st1 = st_set_subj st h in
+                  let w6 =
+                    set_node wt n { n_op = op; n_src = src; n_others =
+                      others; n_st = st1; n_ctl = c }
+                  in
+                  ((app
+                     (flat_map (fun i ->
+                       match nth_error ups i with
+                       | Some pp ->
+                         (match find_ser i entries with
+                          | Some o' -> (SubscribePipe ((snd pp), o')) :: []
+                          | None -> [])
+                       | None -> []) order)
+                     (map (fun x -> Act (n, x)) (init_acts op src others))),
+                  w6)
+                | OTap t ->
+                  let (ot, wt) = alloc_obs w4 (TTapLog t) in
+                  let st1 = st_set_aux st ot in
+                  let w6 =
+                    set_node wt n { n_op = op; n_src = src; n_others =
+                      others; n_st = st1; n_ctl = c }
+                  in
+                  ((app
+                     (flat_map (fun i ->
+                       match nth_error ups i with
+                       | Some pp ->
+                         (match find_ser i entries with
+                          | Some o' -> (SubscribePipe ((snd pp), o')) :: []
+                          | None -> [])
+                       | None -> []) order)
+                     (map (fun x -> Act (n, x)) (init_acts op src others))),
+                  w6)
+                | _ ->
+                  let w6 =
+                    set_node w4 n { n_op = op; n_src = src; n_others =
+                      others; n_st = st; n_ctl = c }
+                  in
+                  ((app
+                     (flat_map (fun i ->
+                       match nth_error ups i with
+                       | Some pp ->
+                         (match find_ser i entries with
+                          | Some o' -> (SubscribePipe ((snd pp), o')) :: []
+                          | None -> [])
+                       | None -> []) order)
+                     (map (fun x -> Act (n, x)) (init_acts op src others))),
+                  w6))
+             | OTap _ ->
+               let c = w.n_ctls in
+               let n = w.n_nodes in
+               let (ups, order) = plan op src others in
+               let w1 = w_n_ctls (S c) (w_n_nodes (S n) w) in
+               let w2 = set_obs w1 o (set_td (w1.obs o) (Some (TdFin c))) in
+               let (entries, w3) =
+                 fold_left (fun acc pp ->
+                   let (es, wa) = acc in
+                   let ser = length es in
+                   let (o', wb) = alloc_obs wa (THandler (n, (fst pp), ser))
+                   in
+                   ((app es ((ser, o') :: [])), wb)) ups ([], w2)
+               in
+               let w4 =
+                 set_ctl w3 c { c_sub = o; c_uns = entries; c_serial =
+                   (length entries) }
+               in
+               let st = init_state op others in
+               (match op with
+                | OWindow _ ->
+                  let (h, wt) = alloc_subj w4 KSubject None in
+                  let st1 = st_set_subj st h in
+                  let w6 =
+                    set_node wt n { n_op = op; n_src = src; n_others =
+                      others; n_st = st1; n_ctl = c }
+                  in
+                  ((app
+                     (flat_map (fun i ->
+                       match nth_error ups i with
+                       | Some pp ->
+                         (match find_ser i entries with
+                          | Some o' -> (SubscribePipe ((snd pp), o')) :: []
+                          | None -> [])
+                       | None -> []) order)
+                     (map (fun x -> Act (n, x)) (init_acts op src others))),
+                  w6)
+                | OTap t ->
+                  let (ot, wt) = alloc_obs w4 (TTapLog t) in
+                  let st1 = st_set_aux st ot in
+                  let w6 =
+                    set_node wt n { n_op = op; n_src = src; n_others =
+                      others; n_st = st1; n_ctl = c }
+                  in
+                  ((app
+                     (flat_map (fun i ->
+                       match nth_error ups i with
+                       | Some pp ->
+                         (match find_ser i entries with
+                          | Some o' -> (SubscribePipe ((snd pp), o')) :: []
+                          | None -> [])
+                       | None -> []) order)
+                     (map (fun x -> Act (n, x)) (init_acts op src others))),
+                  w6)
+                | _ ->
+                  let w6 =
+                    set_node w4 n { n_op = op; n_src = src; n_others =
+                      others; n_st = st; n_ctl = c }
+                  in
+                  ((app
+                     (flat_map (fun i ->
+                       match nth_error ups i with
+                       | Some pp ->
+                         (match find_ser i entries with
+                          | Some o' -> (SubscribePipe ((snd pp), o')) :: []
+                          | None -> [])
+                       | None -> []) order)
+                     (map (fun x -> Act (n, x)) (init_acts op src others))),
+                  w6))
+             | OMapToAny ->
+               let c = w.n_ctls in
+               let n = w.n_nodes in
+               let (ups, order) = plan op src others in
+               let w1 = w_n_ctls (S c) (w_n_nodes (S n) w) in
+               let w2 = set_obs w1 o (set_td (w1.obs o) (Some (TdFin c))) in
+               let (entries, w3) =
+                 fold_left (fun acc pp ->
+                   let (es, wa) = acc in
+                   let ser = length es in
+                   let (o', wb) = alloc_obs wa (THandler (n, (fst pp), ser))
+                   in
+                   ((app es ((ser, o') :: [])), wb)) ups ([], w2)
+               in
+               let w4 =
+                 set_ctl w3 c { c_sub = o; c_uns = entries; c_serial =
+                   (length entries) }
+               in
+               let st = init_state op others in
+               (match op with
+                | OWindow _ ->
+                  let (h, wt) = alloc_subj w4 KSubject None in
+                  let st1 = st_set_subj st h in
+                  let w6 =
+                    set_node wt n { n_op = op; n_src = src; n_others =
+                      others; n_st = st1; n_ctl = c }
+                  in
+                  ((app
+                     (flat_map (fun i ->
+                       match nth_error ups i with
+                       | Some pp ->
+                         (match find_ser i entries with
+                          | Some o' -> (SubscribePipe ((snd pp), o')) :: []
+                          | None -> [])
+                       | None -> []) order)
+                     (map (fun x -> Act (n, x)) (init_acts op src others))),
+                  w6)
+                | OTap t ->
+                  let (ot, wt) = alloc_obs w4 (TTapLog t) in
+                  let st1 = st_set_aux st ot in
+                  let w6 =
+                    set_node wt n { n_op = op; n_src = src; n_others =
+                      others; n_st = st1; n_ctl = c }
+                  in
+                  ((app
+                     (flat_map (fun i ->
+                       match nth_error ups i with
+                       | Some pp ->
+                         (match find_ser i entries with
+                          | Some o' -> (SubscribePipe ((snd pp), o')) :: []
+                          | None -> [])
+                       | None -> []) order)
+                     (map (fun x -> Act (n, x)) (init_acts op src others))),
+                  w6)
+                | _ ->
+                  let w6 =
+                    set_node w4 n { n_op = op; n_src = src; n_others =
+                      others; n_st = st; n_ctl = c }
+                  in
+                  ((app
+                     (flat_map (fun i ->
+                       match nth_error ups i with
+                       | Some pp ->
+                         (match find_ser i entries with
+                          | Some o' -> (SubscribePipe ((snd pp), o')) :: []
+                          | None -> [])
+                       | None -> []) order)
+                     (map (fun x -> Act (n, x)) (init_acts op src others))),
+                  w6))
+             | OMerge ->
+               let c = w.n_ctls in
+               let n = w.n_nodes in
+               let (ups, order) = plan op src others in
+               let w1 = w_n_ctls (S c) (w_n_nodes (S n) w) in
+               let w2 = set_obs w1 o (set_td (w1.obs o) (Some (TdFin c))) in
+               let (entries, w3) =
+                 fold_left (fun acc pp ->
+                   let (es, wa) = acc in
+                   let ser = length es in
+                   let (o', wb) = alloc_obs wa (THandler (n, (fst pp), ser))
+                   in
+                   ((app es ((ser, o') :: [])), wb)) ups ([], w2)
+               in
+               let w4 =
+                 set_ctl w3 c { c_sub = o; c_uns = entries; c_serial =
+                   (length entries) }
+               in
+               let st = init_state op others in
+               (match op with
+                | OWindow _ ->
+                  let (h, wt) = alloc_subj w4 KSubject None in
+                  let st1 = st_set_subj st h in
+                  let w6 =
+                    set_node wt n { n_op = op; n_src = src; n_others =
+                      others; n_st = st1; n_ctl = c }
+                  in
+                  ((app
+                     (flat_map (fun i ->
+                       match nth_error ups i with
+                       | Some pp ->
+                         (match find_ser i entries with
+                          | Some o' -> (SubscribePipe ((snd pp), o')) :: []
+                          | None -> [])
+                       | None -> []) order)
+                     (map (fun x -> Act (n, x)) (init_acts op src others))),
+                  w6)
+                | OTap t ->
+                  let (ot, wt) = alloc_obs w4 (TTapLog t) in
+                  let st1 = st_set_aux st ot in
+                  let w6 =
+                    set_node wt n { n_op = op; n_src = src; n_others =
+                      others; n_st = st1; n_ctl = c }
+                  in
+                  ((app
+                     (flat_map (fun i ->
+                       match nth_error ups i with
+                       | Some pp ->
+                         (match find_ser i entries with
+                          | Some o' -> (SubscribePipe ((snd pp), o')) :: []
+                          | None -> [])
+                       | None -> []) order)
+                     (map (fun x -> Act (n, x)) (init_acts op src others))),
+                  w6)
+                | _ ->
+                  let w6 =
+                    set_node w4 n { n_op = op; n_src = src; n_others =
+                      others; n_st = st; n_ctl = c }
+                  in
+                  ((app
+                     (flat_map (fun i ->
+                       match nth_error ups i with
+                       | Some pp ->
+                         (match find_ser i entries with
+                          | Some o' -> (SubscribePipe ((snd pp), o')) :: []
+                          | None -> [])
+                       | None -> []) order)
+                     (map (fun x -> Act (n, x)) (init_acts op src others))),
+                  w6))
+             | OFlatMap _ ->
+               let c = w.n_ctls in
+               let n = w.n_nodes in
+               let (ups, order) = plan op src others in
+               let w1 = w_n_ctls (S c) (w_n_nodes (S n) w) in
+               let w2 = set_obs w1 o (set_td (w1.obs o) (Some (TdFin c))) in
+               let (entries, w3) =
+                 fold_left (fun acc pp ->
+                   let (es, wa) = acc in
+                   let ser = length es in
+                   let (o', wb) = alloc_obs wa (THandler (n, (fst pp), ser))
+                   in
+                   ((app es ((ser, o') :: [])), wb)) ups ([], w2)
+               in
+               let w4 =
+                 set_ctl w3 c { c_sub = o; c_uns = entries; c_serial =
+                   (length entries) }
+               in
+               let st = init_state op others in
+               (match op with
+                | OWindow _ ->
+                  let (h, wt) = alloc_subj w4 KSubject None in
+                  let st1 = st_set_subj st h in
+                  let w6 =
+                    set_node wt n { n_op = op; n_src = src; n_others =
+                      others; n_st = st1; n_ctl = c }
+                  in
+                  ((app
+                     (flat_map (fun i ->
+                       match nth_error ups i with
+                       | Some pp ->
+                         (match find_ser i entries with
+                          | Some o' -> (SubscribePipe ((snd pp), o')) :: []
+                          | None -> [])
+                       | None -> []) order)
+                     (map (fun x -> Act (n, x)) (init_acts op src others))),
+                  w6)
+                | OTap t ->
+                  let (ot, wt) = alloc_obs w4 (TTapLog t) in
+                  let st1 = st_set_aux st ot in
+                  let w6 =
+                    set_node wt n { n_op = op; n_src = src; n_others =
+                      others; n_st = st1; n_ctl = c }
+                  in
+                  ((app
+                     (flat_map (fun i ->
+                       match nth_error ups i with
+                       | Some pp ->
+                         (match find_ser i entries with
+                          | Some o' -> (SubscribePipe ((snd pp), o')) :: []
+                          | None -> [])
+                       | None -> []) order)
+                     (map (fun x -> Act (n, x)) (init_acts op src others))),
+                  w6)
+                | _ ->
+                  let w6 =
+                    set_node w4 n { n_op = op; n_src = src; n_others =
+                      others; n_st = st; n_ctl = c }
+                  in
+                  ((app
+                     (flat_map (fun i ->
+                       match nth_error ups i with
+                       | Some pp ->
+                         (match find_ser i entries with
+                          | Some o' -> (SubscribePipe ((snd pp), o')) :: []
+                          | None -> [])
+                       | None -> []) order)
+                     (map (fun x -> Act (n, x)) (init_acts op src others))),
+                  w6))
+             | OConcat ->
+               let c = w.n_ctls in
+               let n = w.n_nodes in
+               let (ups, order) = plan op src others in
+               let w1 = w_n_ctls (S c) (w_n_nodes (S n) w) in
+               let w2 = set_obs w1 o (set_td (w1.obs o) (Some (TdFin c))) in
+               let (entries, w3) =
+                 fold_left (fun acc pp ->
+                   let (es, wa) = acc in
+                   let ser = length es in
+                   let (o', wb) = alloc_obs wa (THandler (n, (fst pp), ser))
+                   in
+                   ((app es ((ser, o') :: [])), wb)) ups ([], w2)
+               in
+               let w4 =
+                 set_ctl w3 c { c_sub = o; c_uns = entries; c_serial =
+                   (length entries) }
+               in
+               let st = init_state op others in
+               (match op with
+                | OWindow _ ->
+                  let (h, wt) = alloc_subj w4 KSubject None in
+                  let st1 = st_set_subj st h in
+                  let w6 =
+                    set_node wt n { n_op = op; n_src = src; n_others =
+                      others; n_st = st1; n_ctl = c }
+                  in
+                  ((app
+                     (flat_map (fun i ->
+                       match nth_error ups i with
+                       | Some pp ->
+                         (match find_ser i entries with
+                          | Some o' -> (SubscribePipe ((snd pp), o')) :: []
+                          | None -> [])
+                       | None -> []) order)
+                     (map (fun x -> Act (n, x)) (init_acts op src others))),
+                  w6)
+                | OTap t ->
+                  let (ot, wt) = alloc_obs w4 (TTapLog t) in
+                  let st1 = st_set_aux st ot in
+                  let w6 =
+                    set_node wt n { n_op = op; n_src = src; n_others =
+                      others; n_st = st1; n_ctl = c }
+                  in
+                  ((app
+                     (flat_map (fun i ->
+                       match nth_error ups i with
+                       | Some pp ->
+                         (match find_ser i entries with
+                          | Some o' -> (SubscribePipe ((snd pp), o')) :: []
+                          | None -> [])
+                       | None -> []) order)
+                     (map (fun x -> Act (n, x)) (init_acts op src others))),
+                  w6)
+                | _ ->
+                  let w6 =
+                    set_node w4 n { n_op = op; n_src = src; n_others =
+                      others; n_st = st; n_ctl = c }
+                  in
+                  ((app
+                     (flat_map (fun i ->
+                       match nth_error ups i with
+                       | Some pp ->
+                         (match find_ser i entries with
+                          | Some o' -> (SubscribePipe ((snd pp), o')) :: []
+                          | None -> [])
+                       | None -> []) order)
+                     (map (fun x -> Act (n, x)) (init_acts op src others))),
+                  w6))
+             | OZip ->
+               let c = w.n_ctls in
+               let n = w.n_nodes in
+               let (ups, order) = plan op src others in
+               let w1 = w_n_ctls (S c) (w_n_nodes (S n) w) in
+               let w2 = set_obs w1 o (set_td (w1.obs o) (Some (TdFin c))) in
+               let (entries, w3) =
+                 fold_left (fun acc pp ->
+                   let (es, wa) = acc in
+                   let ser = length es in
+                   let (o', wb) = alloc_obs wa (THandler (n, (fst pp), ser))
+                   in
+                   ((app es ((ser, o') :: [])), wb)) ups ([], w2)
+               in
+               let w4 =
+                 set_ctl w3 c { c_sub = o; c_uns = entries; c_serial =
+                   (length entries) }
+               in
+               let st = init_state op others in
+               (match op with
+                | OWindow _ ->
+                  let (h, wt) = alloc_subj w4 KSubject None in
+                  let st1 = st_set_subj st h in
+                  let w6 =
+                    set_node wt n { n_op = op; n_src = src; n_others =
+                      others; n_st = st1; n_ctl = c }
+                  in
+                  ((app
+                     (flat_map (fun i ->
+                       match nth_error ups i with
+                       | Some pp ->
+                         (match find_ser i entries with
+                          | Some o' -> (SubscribePipe ((snd pp), o')) :: []
+                          | None -> [])
+                       | None -> []) order)
+                     (map (fun x -> Act (n, x)) (init_acts op src others))),
+                  w6)
+                | OTap t ->
+                  let (ot, wt) = alloc_obs w4 (TTapLog t) in
+                  let st1 = st_set_aux st ot in
+                  let w6 =
+                    set_node wt n { n_op = op; n_src = src; n_others =
+                      others; n_st = st1; n_ctl = c }
+                  in
+                  ((app
+                     (flat_map (fun i ->
+                       match nth_error ups i with
+                       | Some pp ->
+                         (match find_ser i entries with
+                          | Some o' -> (SubscribePipe ((snd pp), o')) :: []
+                          | None -> [])
+                       | None -> []) order)
+                     (map (fun x -> Act (n, x)) (init_acts op src others))),
+                  w6)
+                | _ ->
+                  let w6 =
+                    set_node w4 n { n_op = op; n_src = src; n_others =
+                      others; n_st = st; n_ctl = c }
+                  in
+                  ((app
+                     (flat_map (fun i ->
+                       match nth_error ups i with
+                       | Some pp ->
+                         (match find_ser i entries with
+                          | Some o' -> (SubscribePipe ((snd pp), o')) :: []
+                          | None -> [])
+                       | None -> []) order)
+                     (map (fun x -> Act (n, x)) (init_acts op src others))),
+                  w6))
+             | OCombineLatest _ ->
+               let c = w.n_ctls in
+               let n = w.n_nodes in
+               let (ups, order) = plan op src others in
+               let w1 = w_n_ctls (S c) (w_n_nodes (S n) w) in
+               let w2 = set_obs w1 o (set_td (w1.obs o) (Some (TdFin c))) in
+               let (entries, w3) =
+                 fold_left (fun acc pp ->
+                   let (es, wa) = acc in
+                   let ser = length es in
+                   let (o', wb) = alloc_obs wa (THandler (n, (fst pp), ser))
+                   in
+                   ((app es ((ser, o') :: [])), wb)) ups ([], w2)
+               in
+               let w4 =
+                 set_ctl w3 c { c_sub = o; c_uns = entries; c_serial =
+                   (length entries) }
+               in
+               let st = init_state op others in
+               (match op with
+                | OWindow _ ->
+                  let (h, wt) = alloc_subj w4 KSubject None in
+                  let st1 = st_set_subj st h in
+                  let w6 =
+                    set_node wt n { n_op = op; n_src = src; n_others =
+                      others; n_st = st1; n_ctl = c }
+                  in
+                  ((app
+                     (flat_map (fun i ->
+                       match nth_error ups i with
+                       | Some pp ->
+                         (match find_ser i entries with
+                          | Some o' -> (SubscribePipe ((snd pp), o')) :: []
+                          | None -> [])
+                       | None -> []) order)
+                     (map (fun x -> Act (n, x)) (init_acts op src others))),
+                  w6)
+                | OTap t ->
+                  let (ot, wt) = alloc_obs w4 (TTapLog t) in
+                  let st1 = st_set_aux st ot in
+                  let w6 =
+                    set_node wt n { n_op = op; n_src = src; n_others =
+                      others; n_st = st1; n_ctl = c }
+                  in
+                  ((app
+                     (flat_map (fun i ->
+                       match nth_error ups i with
+                       | Some pp ->
+                         (match find_ser i entries with
+                          | Some o' -> (SubscribePipe ((snd pp), o')) :: []
+                          | None -> [])
+                       | None -> []) order)
+                     (map (fun x -> Act (n, x)) (init_acts op src others))),
+                  w6)
+                | _ ->
+                  let w6 =
+                    set_node w4 n { n_op = op; n_src = src; n_others =
+                      others; n_st = st; n_ctl = c }
+                  in
+                  ((app
+                     (flat_map (fun i ->
+                       match nth_error ups i with
+                       | Some pp ->
+                         (match find_ser i entries with
+                          | Some o' -> (SubscribePipe ((snd pp), o')) :: []
+                          | None -> [])
+                       | None -> []) order)
+                     (map (fun x -> Act (n, x)) (init_acts op src others))),
+                  w6))
+             | OAmb ->
+               let c = w.n_ctls in
+               let n = w.n_nodes in
+               let (ups, order) = plan op src others in
+               let w1 = w_n_ctls (S c) (w_n_nodes (S n) w) in
+               let w2 = set_obs w1 o (set_td (w1.obs o) (Some (TdFin c))) in
+               let (entries, w3) =
+                 fold_left (fun acc pp ->
+                   let (es, wa) = acc in
+                   let ser = length es in
+                   let (o', wb) = alloc_obs wa (THandler (n, (fst pp), ser))
+                   in
+                   ((app es ((ser, o') :: [])), wb)) ups ([], w2)
+               in
+               let w4 =
+                 set_ctl w3 c { c_sub = o; c_uns = entries; c_serial =
+                   (length entries) }
+               in
+               let st = init_state op others in
+               (match op with
+                | OWindow _ ->
+                  let (h, wt) = alloc_subj w4 KSubject None in
+                  let st1 = st_set_subj st h in
+                  let w6 =
+                    set_node wt n { n_op = op; n_src = src; n_others =
+                      others; n_st = st1; n_ctl = c }
+                  in
+                  ((app
+                     (flat_map (fun i ->
+                       match nth_error ups i with
+                       | Some pp ->
+                         (match find_ser i entries with
+                          | Some o' -> (SubscribePipe ((snd pp), o')) :: []
+                          | None -> [])
+                       | None -> []) order)
+                     (map (fun x -> Act (n, x)) (init_acts op src others))),
+                  w6)
+                | OTap t ->
+                  let (ot, wt) = alloc_obs w4 (TTapLog t) in
+                  let st1 = st_set_aux st ot in
+                  let w6 =
+                    set_node wt n { n_op = op; n_src = src; n_others =
+                      others; n_st = st1; n_ctl = c }
+                  in
+                  ((app
+                     (flat_map (fun i ->
+                       match nth_error ups i with
+                       | Some pp ->
+                         (match find_ser i entries with
+                          | Some o' -> (SubscribePipe ((snd pp), o')) :: []
+                          | None -> [])
+                       | None -> []) order)
+                     (map (fun x -> Act (n, x)) (init_acts op src others))),
+                  w6)
+                | _ ->
+                  let w6 =
+                    set_node w4 n { n_op = op; n_src = src; n_others =
+                      others; n_st = st; n_ctl = c }
+                  in
+                  ((app
+                     (flat_map (fun i ->
+                       match nth_error ups i with
+                       | Some pp ->
+                         (match find_ser i entries with
+                          | Some o' -> (SubscribePipe ((snd pp), o')) :: []
+                          | None -> [])
+                       | None -> []) order)
+                     (map (fun x -> Act (n, x)) (init_acts op src others))),
+                  w6))
+             | OTakeUntil ->
+               let c = w.n_ctls in
+               let n = w.n_nodes in
+               let (ups, order) = plan op src others in
+               let w1 = w_n_ctls (S c) (w_n_nodes (S n) w) in
+               let w2 = set_obs w1 o (set_td (w1.obs o) (Some (TdFin c))) in
+               let (entries, w3) =
+                 fold_left (fun acc pp ->
+                   let (es, wa) = acc in
+                   let ser = length es in
+                   let (o', wb) = alloc_obs wa (THandler (n, (fst pp), ser))
+                   in
+                   ((app es ((ser, o') :: [])), wb)) ups ([], w2)
+               in
+               let w4 =
+                 set_ctl w3 c { c_sub = o; c_uns = entries; c_serial =
+                   (length entries) }
+               in
+               let st = init_state op others in
+               (match op with
+                | OWindow _ ->
+                  let (h, wt) = alloc_subj w4 KSubject None in
+                  let st1 = st_set_subj st h in
+                  let w6 =
+                    set_node wt n { n_op = op; n_src = src; n_others =
+                      others; n_st = st1; n_ctl = c }
+                  in
+                  ((app
+                     (flat_map (fun i ->
+                       match nth_error ups i with
+                       | Some pp ->
+                         (match find_ser i entries with
+                          | Some o' -> (SubscribePipe ((snd pp), o')) :: []
+                          | None -> [])
+                       | None -> []) order)
+                     (map (fun x -> Act (n, x)) (init_acts op src others))),
+                  w6)
+                | OTap t ->
+                  let (ot, wt) = alloc_obs w4 (TTapLog t) in
+                  let st1 = st_set_aux st ot in
+                  let w6 =
+                    set_node wt n { n_op = op; n_src = src; n_others =
+                      others; n_st = st1; n_ctl = c }
+                  in
+                  ((app
+                     (flat_map (fun i ->
+                       match nth_error ups i with
+                       | Some pp ->
+                         (match find_ser i entries with
+                          | Some o' -> (SubscribePipe ((snd pp), o')) :: []
+                          | None -> [])
+                       | None -> []) order)
+                     (map (fun x -> Act (n, x)) (init_acts op src others))),
+                  w6)
+                | _ ->
+                  let w6 =
+                    set_node w4 n { n_op = op; n_src = src; n_others =
+                      others; n_st = st; n_ctl = c }
+                  in
+                  ((app
+                     (flat_map (fun i ->
+                       match nth_error ups i with
+                       | Some pp ->
+                         (match find_ser i entries with
+                          | Some o' -> (SubscribePipe ((snd pp), o')) :: []
+                          | None -> [])
+                       | None -> []) order)
+                     (map (fun x -> Act (n, x)) (init_acts op src others))),
+                  w6))
+             | OSkipUntil ->
+               let c = w.n_ctls in
+               let n = w.n_nodes in
+               let (ups, order) = plan op src others in
+               let w1 = w_n_ctls (S c) (w_n_nodes (S n) w) in
+               let w2 = set_obs w1 o (set_td (w1.obs o) (Some (TdFin c))) in
+               let (entries, w3) =
+                 fold_left (fun acc pp ->
+                   let (es, wa) = acc in
+                   let ser = length es in
+                   let (o', wb) = alloc_obs wa (THandler (n, (fst pp), ser))
+                   in
+                   ((app es ((ser, o') :: [])), wb)) ups ([], w2)
+               in
+               let w4 =
+                 set_ctl w3 c { c_sub = o; c_uns = entries; c_serial =
+                   (length entries) }
+               in
+               let st = init_state op others in
+               (match op with
+                | OWindow _ ->
+                  let (h, wt) = alloc_subj w4 KSubject None in
+                  let st1 = st_set_subj st h in
+                  let w6 =
+                    set_node wt n { n_op = op; n_src = src; n_others =
+                      others; n_st = st1; n_ctl = c }
+                  in
+                  ((app
+                     (flat_map (fun i ->
+                       match nth_error ups i with
+                       | Some pp ->
+                         (match find_ser i entries with
+                          | Some o' -> (SubscribePipe ((snd pp), o')) :: []
+                          | None -> [])
+                       | None -> []) order)
+                     (map (fun x -> Act (n, x)) (init_acts op src others))),
+                  w6)
+                | OTap t ->
+                  let (ot, wt) = alloc_obs w4 (TTapLog t) in
+                  let st1 = st_set_aux st ot in
+                  let w6 =
+                    set_node wt n { n_op = op; n_src = src; n_others =
+                      others; n_st = st1; n_ctl = c }
+                  in
+                  ((app
+                     (flat_map (fun i ->
+                       match nth_error ups i with
+                       | Some pp ->
+                         (match find_ser i entries with
+                          | Some o' -> (SubscribePipe ((snd pp), o')) :: []
+                          | None -> [])
+                       | None -> []) order)
+                     (map (fun x -> Act (n, x)) (init_acts op src others))),
+                  w6)
+                | _ ->
+                  let w6 =
+                    set_node w4 n { n_op = op; n_src = src; n_others =
+                      others; n_st = st; n_ctl = c }
+                  in
+                  ((app
+                     (flat_map (fun i ->
+                       match nth_error ups i with
+                       | Some pp ->
+                         (match find_ser i entries with
+                          | Some o' -> (SubscribePipe ((snd pp), o')) :: []
+                          | None -> [])
+                       | None -> []) order)
+                     (map (fun x -> Act (n, x)) (init_acts op src others))),
+                  w6))
+             | OSample ->
+               let c = w.n_ctls in
+               let n = w.n_nodes in
+               let (ups, order) = plan op src others in
+               let w1 = w_n_ctls (S c) (w_n_nodes (S n) w) in
+               let w2 = set_obs w1 o (set_td (w1.obs o) (Some (TdFin c))) in
+               let (entries, w3) =
+                 fold_left (fun acc pp ->
+                   let (es, wa) = acc in
+                   let ser = length es in
+                   let (o', wb) = alloc_obs wa (THandler (n, (fst pp), ser))
+                   in
+                   ((app es ((ser, o') :: [])), wb)) ups ([], w2)
+               in
+               let w4 =
+                 set_ctl w3 c { c_sub = o; c_uns = entries; c_serial =
+                   (length entries) }
+               in
+               let st = init_state op others in
+               (match op with
+                | OWindow _ ->
+                  let (h, wt) = alloc_subj w4 KSubject None in
+                  let st1 = st_set_subj st h in
+                  let w6 =
+                    set_node wt n { n_op = op; n_src = src; n_others =
+                      others; n_st = st1; n_ctl = c }
+                  in
+                  ((app
+                     (flat_map (fun i ->
+                       match nth_error ups i with
+                       | Some pp ->
+                         (match find_ser i entries with
+                          | Some o' -> (SubscribePipe ((snd pp), o')) :: []
+                          | None -> [])
+                       | None -> []) order)
+                     (map (fun x -> Act (n, x)) (init_acts op src others))),
+                  w6)
+                | OTap t ->
+                  let (ot, wt) = alloc_obs w4 (TTapLog t) in
+                  let st1 = st_set_aux st ot in
+                  let w6 =
+                    set_node wt n { n_op = op; n_src = src; n_others =
+                      others; n_st = st1; n_ctl = c }
+                  in
+                  ((app
+                     (flat_map (fun i ->
+                       match nth_error ups i with
+                       | Some pp ->
+                         (match find_ser i entries with
+                          | Some o' -> (SubscribePipe ((snd pp), o')) :: []
+                          | None -> [])
+                       | None -> []) order)
+                     (map (fun x -> Act (n, x)) (init_acts op src others))),
+                  w6)
+                | _ ->
+                  let w6 =
+                    set_node w4 n { n_op = op; n_src = src; n_others =
+                      others; n_st = st; n_ctl = c }
+                  in
+                  ((app
+                     (flat_map (fun i ->
+                       match nth_error ups i with
+                       | Some pp ->
+                         (match find_ser i entries with
+                          | Some o' -> (SubscribePipe ((snd pp), o')) :: []
+                          | None -> [])
+                       | None -> []) order)
+                     (map (fun x -> Act (n, x)) (init_acts op src others))),
+                  w6))
+             | OSwitchOnNext ->
+               let c = w.n_ctls in
+               let n = w.n_nodes in
+               let (ups, order) = plan op src others in
+               let w1 = w_n_ctls (S c) (w_n_nodes (S n) w) in
+               let w2 = set_obs w1 o (set_td (w1.obs o) (Some (TdFin c))) in
+               let (entries, w3) =
+                 fold_left (fun acc pp ->
+                   let (es, wa) = acc in
+                   let ser = length es in
+                   let (o', wb) = alloc_obs wa (THandler (n, (fst pp), ser))
+                   in
+                   ((app es ((ser, o') :: [])), wb)) ups ([], w2)
+               in
+               let w4 =
+                 set_ctl w3 c { c_sub = o; c_uns = entries; c_serial =
+                   (length entries) }
+               in
+               let st = init_state op others in
+               (match op with
+                | OWindow _ ->
+                  let (h, wt) = alloc_subj w4 KSubject None in
+                  let st1 = st_set_subj st h in
+                  let w6 =
+                    set_node wt n { n_op = op; n_src = src; n_others =
+                      others; n_st = st1; n_ctl = c }
+                  in
+                  ((app
+                     (flat_map (fun i ->
+                       match nth_error ups i with
+                       | Some pp ->
+                         (match find_ser i entries with
+                          | Some o' -> (SubscribePipe ((snd pp), o')) :: []
+                          | None -> [])
+                       | None -> []) order)
+                     (map (fun x -> Act (n, x)) (init_acts op src others))),
+                  w6)
+                | OTap t ->
+                  let (ot, wt) = alloc_obs w4 (TTapLog t) in
+                  let st1 = st_set_aux st ot in
+                  let w6 =
+                    set_node wt n { n_op = op; n_src = src; n_others =
+                      others; n_st = st1; n_ctl = c }
+                  in
+                  ((app
+                     (flat_map (fun i ->
+                       match nth_error ups i with
+                       | Some pp ->
+                         (match find_ser i entries with
+                          | Some o' -> (SubscribePipe ((snd pp), o')) :: []
+                          | None -> [])
+                       | None -> []) order)
+                     (map (fun x -> Act (n, x)) (init_acts op src others))),
+                  w6)
+                | _ ->
+                  let w6 =
+                    set_node w4 n { n_op = op; n_src = src; n_others =
+                      others; n_st = st; n_ctl = c }
+                  in
+                  ((app
+                     (flat_map (fun i ->
+                       match nth_error ups i with
+                       | Some pp ->
+                         (match find_ser i entries with
+                          | Some o' -> (SubscribePipe ((snd pp), o')) :: []
+                          | None -> [])
+                       | None -> []) order)
+                     (map (fun x -> Act (n, x)) (init_acts op src others))),
+                  w6))
+             | OSequenceEqual ->
+               let c = w.n_ctls in
+               let n = w.n_nodes in
+               let (ups, order) = plan op src others in
+               let w1 = w_n_ctls (S c) (w_n_nodes (S n) w) in
+               let w2 = set_obs w1 o (set_td (w1.obs o) (Some (TdFin c))) in
+               let (entries, w3) =
+                 fold_left (fun acc pp ->
+                   let (es, wa) = acc in
+                   let ser = length es in
+                   let (o', wb) = alloc_obs wa (THandler (n, (fst pp), ser))
+                   in
+                   ((app es ((ser, o') :: [])), wb)) ups ([], w2)
+               in
+               let w4 =
+                 set_ctl w3 c { c_sub = o; c_uns = entries; c_serial =
+                   (length entries) }
+               in
+               let st = init_state op others in
+               (match op with
+                | OWindow _ ->
+                  let (h, wt) = alloc_subj w4 KSubject None in
+                  let st1 = st_set_subj st h in
+                  let w6 =
+                    set_node wt n { n_op = op; n_src = src; n_others =
+                      others; n_st = st1; n_ctl = c }
+                  in
+                  ((app
+                     (flat_map (fun i ->
+                       match nth_error ups i with
+                       | Some pp ->
+                         (match find_ser i entries with
+                          | Some o' -> (SubscribePipe ((snd pp), o')) :: []
+                          | None -> [])
+                       | None -> []) order)
+                     (map (fun x -> Act (n, x)) (init_acts op src others))),
+                  w6)
+                | OTap t ->
+                  let (ot, wt) = alloc_obs w4 (TTapLog t) in
+                  let st1 = st_set_aux st ot in
+                  let w6 =
+                    set_node wt n { n_op = op; n_src = src; n_others =
+                      others; n_st = st1; n_ctl = c }
+                  in
+                  ((app
+                     (flat_map (fun i ->
+                       match nth_error ups i with
+                       | Some pp ->
+                         (match find_ser i entries with
+                          | Some o' -> (SubscribePipe ((snd pp), o')) :: []
+                          | None -> [])
+                       | None -> []) order)
+                     (map (fun x -> Act (n, x)) (init_acts op src others))),
+                  w6)
+                | _ ->
+                  let w6 =
+                    set_node w4 n { n_op = op; n_src = src; n_others =
+                      others; n_st = st; n_ctl = c }
+                  in
+                  ((app
+                     (flat_map (fun i ->
+                       match nth_error ups i with
+                       | Some pp ->
+                         (match find_ser i entries with
+                          | Some o' -> (SubscribePipe ((snd pp), o')) :: []
+                          | None -> [])
+                       | None -> []) order)
+                     (map (fun x -> Act (n, x)) (init_acts op src others))),
+                  w6))
+             | ORetry _ ->
+               let c = w.n_ctls in
+               let n = w.n_nodes in
+               let (ups, order) = plan op src others in
+               let w1 = w_n_ctls (S c) (w_n_nodes (S n) w) in
+               let w2 = set_obs w1 o (set_td (w1.obs o) (Some (TdFin c))) in
+               let (entries, w3) =
+                 fold_left (fun acc pp ->
+                   let (es, wa) = acc in
+                   let ser = length es in
+                   let (o', wb) = alloc_obs wa (THandler (n, (fst pp), ser))
+                   in
+                   ((app es ((ser, o') :: [])), wb)) ups ([], w2)
+               in
+               let w4 =
+                 set_ctl w3 c { c_sub = o; c_uns = entries; c_serial =
+                   (length entries) }
+               in
+               let st = init_state op others in
+               (match op with
+                | OWindow _ ->
+                  let (h, wt) = alloc_subj w4 KSubject None in
+                  let st1 = st_set_subj st h in
+                  let w6 =
+                    set_node wt n { n_op = op; n_src = src; n_others =
+                      others; n_st = st1; n_ctl = c }
+                  in
+                  ((app
+                     (flat_map (fun i ->
+                       match nth_error ups i with
+                       | Some pp ->
+                         (match find_ser i entries with
+                          | Some o' -> (SubscribePipe ((snd pp), o')) :: []
+                          | None -> [])
+                       | None -> []) order)
+                     (map (fun x -> Act (n, x)) (init_acts op src others))),
+                  w6)
+                | OTap t ->
+                  let (ot, wt) = alloc_obs w4 (TTapLog t) in
+                  let st1 = st_set_aux st ot in
+                  let w6 =
+                    set_node wt n { n_op = op; n_src = src; n_others =
+                      others; n_st = st1; n_ctl = c }
+                  in
+                  ((app
+                     (flat_map (fun i ->
+                       match nth_error ups i with
+                       | Some pp ->
+                         (match find_ser i entries with
+                          | Some o' -> (SubscribePipe ((snd pp), o')) :: []
+                          | None -> [])
+                       | None -> []) order)
+                     (map (fun x -> Act (n, x)) (init_acts op src others))),
+                  w6)
+                | _ ->
+                  let w6 =
+                    set_node w4 n { n_op = op; n_src = src; n_others =
+                      others; n_st = st; n_ctl = c }
+                  in
+                  ((app
+                     (flat_map (fun i ->
+                       match nth_error ups i with
+                       | Some pp ->
+                         (match find_ser i entries with
+                          | Some o' -> (SubscribePipe ((snd pp), o')) :: []
+                          | None -> [])
+                       | None -> []) order)
+                     (map (fun x -> Act (n, x)) (init_acts op src others))),
+                  w6))
+             | ORetryWhen _ ->
+               let c = w.n_ctls in
+               let n = w.n_nodes in
+               let (ups, order) = plan op src others in
+               let w1 = w_n_ctls (S c) (w_n_nodes (S n) w) in
+               let w2 = set_obs w1 o (set_td (w1.obs o) (Some (TdFin c))) in
+               let (entries, w3) =
+                 fold_left (fun acc pp ->
+                   let (es, wa) = acc in
+                   let ser = length es in
+                   let (o', wb) = alloc_obs wa (THandler (n, (fst pp), ser))
+                   in
+                   ((app es ((ser, o') :: [])), wb)) ups ([], w2)
+               in
+               let w4 =
+                 set_ctl w3 c { c_sub = o; c_uns = entries; c_serial =
+                   (length entries) }
+               in
+               let st = init_state op others in
+               (match op with
+                | OWindow _ ->
+                  let (h, wt) = alloc_subj w4 KSubject None in
+                  let st1 = st_set_subj st h in
+                  let w6 =
+                    set_node wt n { n_op = op; n_src = src; n_others =
+                      others; n_st = st1; n_ctl = c }
+                  in
+                  ((app
+                     (flat_map (fun i ->
+                       match nth_error ups i with
+                       | Some pp ->
+                         (match find_ser i entries with
+                          | Some o' -> (SubscribePipe ((snd pp), o')) :: []
+                          | None -> [])
+                       | None -> []) order)
+                     (map (fun x -> Act (n, x)) (init_acts op src others))),
+                  w6)
+                | OTap t ->
+                  let (ot, wt) = alloc_obs w4 (TTapLog t) in
+                  let st1 = st_set_aux st ot in
+                  let w6 =
+                    set_node wt n { n_op = op; n_src = src; n_others =
+                      others; n_st = st1; n_ctl = c }
+                  in
+                  ((app
+                     (flat_map (fun i ->
+                       match nth_error ups i with
+                       | Some pp ->
+                         (match find_ser i entries with
+                          | Some o' -> (SubscribePipe ((snd pp), o')) :: []
+                          | None -> [])
+                       | None -> []) order)
+                     (map (fun x -> Act (n, x)) (init_acts op src others))),
+                  w6)
+                | _ ->
+                  let w6 =
+                    set_node w4 n { n_op = op; n_src = src; n_others =
+                      others; n_st = st; n_ctl = c }
+                  in
+                  ((app
+                     (flat_map (fun i ->
+                       match nth_error ups i with
+                       | Some pp ->
+                         (match find_ser i entries with
+                          | Some o' -> (SubscribePipe ((snd pp), o')) :: []
+                          | None -> [])
+                       | None -> []) order)
+                     (map (fun x -> Act (n, x)) (init_acts op src others))),
+                  w6))
+             | OResume ->
+               let c = w.n_ctls in
+               let n = w.n_nodes in
+               let (ups, order) = plan op src others in
+               let w1 = w_n_ctls (S c) (w_n_nodes (S n) w) in
+               let w2 = set_obs w1 o (set_td (w1.obs o) (Some (TdFin c))) in
+               let (entries, w3) =
+                 fold_left (fun acc pp ->
+                   let (es, wa) = acc in
+                   let ser = length es in
+                   let (o', wb) = alloc_obs wa (THandler (n, (fst pp), ser))
+                   in
+                   ((app es ((ser, o') :: [])), wb)) ups ([], w2)
+               in
+               let w4 =
+                 set_ctl w3 c { c_sub = o; c_uns = entries; c_serial =
+                   (length entries) }
+               in
+               let st = init_state op others in
+               (match op with
+                | OWindow _ ->
+                  let (h, wt) = alloc_subj w4 KSubject None in
+                  let st1 = st_set_subj st h in
+                  let w6 =
+                    set_node wt n { n_op = op; n_src = src; n_others =
+                      others; n_st = st1; n_ctl = c }
+                  in
+                  ((app
+                     (flat_map (fun i ->
+                       match nth_error ups i with
+                       | Some pp ->
+                         (match find_ser i entries with
+                          | Some o' -> (SubscribePipe ((snd pp), o')) :: []
+                          | None -> [])
+                       | None -> []) order)
+                     (map (fun x -> Act (n, x)) (init_acts op src others))),
+                  w6)
+                | OTap t ->
+                  let (ot, wt) = alloc_obs w4 (TTapLog t) in
+                  let st1 = st_set_aux st ot in
+                  let w6 =
+                    set_node wt n { n_op = op; n_src = src; n_others =
+                      others; n_st = st1; n_ctl = c }
+                  in
+                  ((app
+                     (flat_map (fun i ->
+                       match nth_error ups i with
+                       | Some pp ->
+                         (match find_ser i entries with
+                          | Some o' -> (SubscribePipe ((snd pp), o')) :: []
+                          | None -> [])
+                       | None -> []) order)
+                     (map (fun x -> Act (n, x)) (init_acts op src others))),
+                  w6)
+                | _ ->
+                  let w6 =
+                    set_node w4 n { n_op = op; n_src = src; n_others =
+                      others; n_st = st; n_ctl = c }
+                  in
+                  ((app
+                     (flat_map (fun i ->
+                       match nth_error ups i with
+                       | Some pp ->
+                         (match find_ser i entries with
+                          | Some o' -> (SubscribePipe ((snd pp), o')) :: []
+                          | None -> [])
+                       | None -> []) order)
+                     (map (fun x -> Act (n, x)) (init_acts op src others))),
+                  w6))
+             | OFwd ->
+               let c = w.n_ctls in
+               let n = w.n_nodes in
+               let (ups, order) = plan op src others in
+               let w1 = w_n_ctls (S c) (w_n_nodes (S n) w) in
+               let w2 = set_obs w1 o (set_td (w1.obs o) (Some (TdFin c))) in
+               let (entries, w3) =
+                 fold_left (fun acc pp ->
+                   let (es, wa) = acc in
+                   let ser = length es in
+                   let (o', wb) = alloc_obs wa (THandler (n, (fst pp), ser))
+                   in
+                   ((app es ((ser, o') :: [])), wb)) ups ([], w2)
+               in
+               let w4 =
+                 set_ctl w3 c { c_sub = o; c_uns = entries; c_serial =
+                   (length entries) }
+               in
+               let st = init_state op others in
+               (match op with
+                | OWindow _ ->
+                  let (h, wt) = alloc_subj w4 KSubject None in
+                  let st1 = st_set_subj st h in
+                  let w6 =
+                    set_node wt n { n_op = op; n_src = src; n_others =
+                      others; n_st = st1; n_ctl = c }
+                  in
+                  ((app
+                     (flat_map (fun i ->
+                       match nth_error ups i with
+                       | Some pp ->
+                         (match find_ser i entries with
+                          | Some o' -> (SubscribePipe ((snd pp), o')) :: []
+                          | None -> [])
+                       | None -> []) order)
+                     (map (fun x -> Act (n, x)) (init_acts op src others))),
+                  w6)
+                | OTap t ->
+                  let (ot, wt) = alloc_obs w4 (TTapLog t) in
+                  let st1 = st_set_aux st ot in
+                  let w6 =
+                    set_node wt n { n_op = op; n_src = src; n_others =
+                      others; n_st = st1; n_ctl = c }
+                  in
+                  ((app
+                     (flat_map (fun i ->
+                       match nth_error ups i with
+                       | Some pp ->
+                         (match find_ser i entries with
+                          | Some o' -> (SubscribePipe ((snd pp), o')) :: []
+                          | None -> [])
+                       | None -> []) order)
+                     (map (fun x -> Act (n, x)) (init_acts op src others))),
+                  w6)
+                | _ ->
+                  let w6 =
+                    set_node w4 n { n_op = op; n_src = src; n_others =
+                      others; n_st = st; n_ctl = c }
+                  in
+                  ((app
+                     (flat_map (fun i ->
+                       match nth_error ups i with
+                       | Some pp ->
+                         (match find_ser i entries with
+                          | Some o' -> (SubscribePipe ((snd pp), o')) :: []
+                          | None -> [])
+                       | None -> []) order)
+                     (map (fun x -> Act (n, x)) (init_acts op src others))),
+                  w6))))
   | SubjCall (h, e) ->
     let sj = w.subjs h in
     let sj' =
